@@ -1,31 +1,59 @@
 import P2sh.Props.RefFn
 /-!
-# The oracle and Core.Fn agree on programs with functions, closures AND ARRAYS
+# The oracle and Core.Fn agree on programs with functions, closures, ARRAYS and ASSIGNMENT TO CAPTURED VARIABLES
 
 `Props/RefFn.lean` proves oracle (`Spec/Ref.lean`) ⇒ `Core.Fn` evaluator for functions and closures, without
-containers.  This file redoes its induction (`all_ok`) over a larger fragment and a larger relation:
+containers and without `fset`.  This file redoes its induction (`all_ok`) over a larger fragment and a larger
+relation (the reusable parts of `RefFn` -- embedding, fuel monotonicity of Core.Fn, environment lemmas, the `Post`
+framework, Core.Fn's and the oracle's equations -- are imported; what is closed over `RefFn.VR` / `RefFn.okE` is
+copied and adapted, so the proofs have the shape of `RefFn`'s).
+
+## Stage C1: arrays
 
 * values `VR CT v w`: equal scalars, corresponding closures (as in `RefFn`), or THE SAME array reference
   `.arr id []` with `id ≠ 0` on both sides;
 * heaps `HR CT h a` (a field of `Inv`): the oracle's heap `Ref.St.heap` and Core.Fn's container heap `Sto.a` have
-  the same allocation counter (so a literal allocates the same id on both sides: the ids are EQUAL, no
-  renaming is needed) and, for every id, the arrays stored under it hold pointwise `VR`-related values
-  (arrays may hold closures and arrays);
-* new constructs: array literals `[e1, …]`, index reads `c[i]`, index assignment `c[i] = e` (the right-hand side
-  first), arrays in variables, parameters, captured variables, return values, elements of arrays (aliasing: every
-  copy of a reference denotes the same object on both sides).
+  the same allocation counter (a literal allocates the same id on both sides: the ids are EQUAL, no renaming is
+  needed) and, for every id, the arrays stored under it hold pointwise `VR`-related values (arrays may hold closures
+  and arrays);
+* constructs: array literals `[e1, …]`, index reads `c[i]`, index assignment `c[i] = e` (the right-hand side first),
+  arrays in variables, parameters, captured variables, return values, elements of arrays (aliasing: every copy of a
+  reference denotes the same object on both sides); truth tests, `!`, `&&`, `||`, `if`, `while`, `match` on arrays;
+  every operator applied to an array and a non-array (runtime error on both sides; `==` / `!=` unconstrained).
+* `a + b` on two arrays: a NEW array object holding the elements of both (`add_arr_bridge`: the oracle's `reify` /
+  `reflect` round trip and Core.Fn's `view` / `storeNew` round trip both give back the shallow elements);
+* ONE restriction that `RefFn` does not need: `a == b`, `a != b` require that one operand is STATICALLY not an array
+  (`nonArrE`: a literal, a unary operator application, a binary operator application other than `+`, `<` / `<=`, a
+  function literal; `deepOK`).  On two arrays these operators compare the objects IN DEPTH -- the oracle through `reify`
+  with the fixed depth 64, Core.Fn through `view` with depth `#objects + 1`; relating the two needs "expands within 64 ⇒
+  expands within #objects + 1" (a pigeonhole argument on acyclic heaps), not done.  (This file found that the oracle
+  COMMITTED on a cut-off view; `Spec/Ref.lean` was repaired -- `expandsWithin` --, see the examples at the end.)
 
-The reusable parts of `RefFn` (embedding, fuel monotonicity of Core.Fn, environment lemmas, the `Post` framework,
-Core.Fn's and the oracle's equations) are imported; what is closed over `RefFn.VR` / `RefFn.okE` is copied and adapted.
+## Stage C2: assignment to captured variables (`fset`) under the oracle's re-entrancy rule
 
-Fragment = `RefFn`'s fragment plus `arrLit` / `index` / `setIndex`, with ONE restriction that `RefFn` does not need:
-`a + b`, `a == b`, `a != b` require that one operand is STATICALLY not an array (`nonArrE`: a literal, a unary or
-binary operator application, `<` / `<=`, a function literal).  Reason: on two arrays these operators look INTO the
-objects -- the oracle through `reify` with the fixed depth 64, Core.Fn through `view` with depth `#objects + 1` --,
-which is outside what the heap relation gives (see the report).  Every other operator on arrays is covered (runtime
-error on both sides, `==` / `!=` of an array and a non-array is unconstrained in the oracle).  Truth tests, `!`, `&&`,
-`||`, `if`, `while`, `match` on arrays are covered.  Excluded as in `RefFn`: `fset`, maps, builtins, `let` in top-level
-blocks, bodies ending in a block or loop.
+The oracle poisons the closure's copy of an assigned captured variable (what a LATER activation reads is not specified)
+and answers `unc` when the closure object is re-entered (its id occurs twice in `St.active`); Core.Fn (the VM) writes
+into the closure object.  Covered: `fset` anywhere in a function body, together with everything else of the fragment
+(counters, accumulators, closures that assign and call).  Ingredients (as listed by `RefFn`'s author):
+* the activation's environment base is threaded (`LS`: the values of the slots + the base, changed in place by
+  `updEnvCap`; `envOf N A V vals`);
+* the captured-value clauses of `ClosEntry` and `Frame` allow poisoned entries (`v = .other "poison" ∨ VR CT v w`);
+* the closure table `CTab` records for every closure its context and horizon (`CE`; the link between a running
+  activation and its table entry: `Frame.me`), closure-object ids are injective and in range (`Inv.hidInj`, `Inv.hidLt`),
+  the names of captured variables are distinct (`Nodup`, checked by `okE` at the function literal);
+* `Frame` is linked to `St.active`: `Act.act` is the oracle's list of running closure ids while the activation runs
+  (every statement of `AllOK` has the hypothesis `st.active = A.act`, `Next.act` gives it back), `Frame.me` says that
+  the activation's own closure id is in it;
+* `Next.unch` (`Unch`) replaces the heap-prefix field: the closure objects of the RUNNING closures other than the
+  activation's own are unchanged -- also its own when it is re-entered (then every assignment is `unc`); a call
+  leaves the objects of all running closures alone (`CQ`: `UnchAll`), which is what keeps a caller's `Frame`.
+NOT covered (fragment `okE`): maps, builtins, `let` in top-level blocks, bodies ending in a block or loop, and `==` / `!=` on
+two possibly-array operands (Stage C1).
+
+Theorems: `ref_program_fn_arr_partial`, `ref_program_fn_arr_error_partial`, `ref_program_fn_arr_compiled_partial` (whole
+programs; also under the names `ref_program_fn_fset_partial` / `…_error_…`), `ref_call_fn_partial`, `ref_expr_fn_partial`,
+`ref_stmts_fn_partial` (+ `_error_`).  A run of the oracle that ends in `unc` (a read of a poisoned copy: the second call
+of a counter closure) is not a hypothesis of any of them: they claim nothing there.
 -/
 namespace P2sh.RefFnC
 open P2sh P2sh.Ref P2sh.RefProg P2sh.RefFn
@@ -40,29 +68,55 @@ def isArrV : Val → Bool
   | .arr .. => true
   | _ => false
 
-/-- `CT[k] = (fd, hid)`: the oracle's closure `k+1` is Core.Fn's `.clos fd [] hid`; an array is the same reference -/
+/-- an entry of the closure table: the oracle's closure `k+1` (`k` its index) is Core.Fn's `.clos fd [] hid`; the entry
+also records the context `cx` and the global horizon `gh` the closure was created in -/
+structure CE where
+  fd : FnDef
+  hid : Nat
+  cx : Ctx
+  gh : Nat
+
+abbrev CTab := List CE
+
+def oldCT (CT : CTab) : RefFn.CTab := CT.map fun e => (e.fd, e.hid)
+
+theorem oldCT_prefix {CT CT' : CTab} (h : CT <+: CT') : oldCT CT <+: oldCT CT' := by
+  obtain ⟨t, rfl⟩ := h
+  exact ⟨oldCT t, by simp [oldCT]⟩
+
+theorem oldCT_get {CT : CTab} {k : Nat} {fd : FnDef} {hid : Nat} (h : (oldCT CT)[k]? = some (fd, hid)) :
+    ∃ e, CT[k]? = some e ∧ e.fd = fd ∧ e.hid = hid := by
+  simp only [oldCT, List.getElem?_map, Option.map_eq_some_iff] at h
+  obtain ⟨e, he, heq⟩ := h
+  cases heq
+  exact ⟨e, he, rfl, rfl⟩
+
+theorem oldCT_of {CT : CTab} {k : Nat} {e : CE} (h : CT[k]? = some e) : (oldCT CT)[k]? = some (e.fd, e.hid) := by
+  simp [oldCT, h]
+
+/-- `CT[k] = ⟨fd, hid, …⟩`: the oracle's closure `k+1` is Core.Fn's `.clos fd [] hid`; an array is the same reference -/
 def VR (CT : CTab) (v w : Val) : Prop :=
   (isScalar v = true ∧ w = v) ∨
-  (∃ k fd hid, v = .clos emptyFn [] (k + 1) ∧ w = .clos fd [] hid ∧ CT[k]? = some (fd, hid)) ∨
+  (∃ k fd hid, v = .clos emptyFn [] (k + 1) ∧ w = .clos fd [] hid ∧ (oldCT CT)[k]? = some (fd, hid)) ∨
   (∃ id, id ≠ 0 ∧ v = .arr id [] ∧ w = .arr id [])
 
 theorem VR.scalar {CT : CTab} {v : Val} (h : isScalar v = true) : VR CT v v := .inl ⟨h, rfl⟩
 
 theorem VR.arr {CT : CTab} {id : Nat} (h : id ≠ 0) : VR CT (.arr id []) (.arr id []) := .inr (.inr ⟨id, h, rfl, rfl⟩)
 
-theorem VR.ofOld {CT : CTab} {v w : Val} (h : RefFn.VR CT v w) : VR CT v w := by
+theorem VR.ofOld {CT : CTab} {v w : Val} (h : RefFn.VR (oldCT CT) v w) : VR CT v w := by
   rcases h with h | h
   · exact .inl h
   · exact .inr (.inl h)
 
-theorem VR.toOld {CT : CTab} {v w : Val} (h : VR CT v w) (hn : isArrV v = false) : RefFn.VR CT v w := by
+theorem VR.toOld {CT : CTab} {v w : Val} (h : VR CT v w) (hn : isArrV v = false) : RefFn.VR (oldCT CT) v w := by
   rcases h with h | h | ⟨id, -, rfl, -⟩
   · exact .inl h
   · exact .inr h
   · cases hn
 
 theorem VR.cases3 {CT : CTab} {v w : Val} (h : VR CT v w) :
-    (isArrV v = false ∧ RefFn.VR CT v w) ∨ (∃ id, id ≠ 0 ∧ v = .arr id [] ∧ w = .arr id []) := by
+    (isArrV v = false ∧ RefFn.VR (oldCT CT) v w) ∨ (∃ id, id ≠ 0 ∧ v = .arr id [] ∧ w = .arr id []) := by
   rcases h with h | h | h
   · exact .inl ⟨by cases v <;> first | rfl | (simp [isScalar] at h), .inl h⟩
   · obtain ⟨k, fd, hid, rfl, rfl, hk⟩ := h
@@ -71,7 +125,7 @@ theorem VR.cases3 {CT : CTab} {v w : Val} (h : VR CT v w) :
 
 theorem VR.mono {CT CT' : CTab} {v w : Val} (hp : CT <+: CT') (h : VR CT v w) : VR CT' v w := by
   rcases h.cases3 with ⟨hn, ho⟩ | ⟨id, h0, rfl, rfl⟩
-  · exact VR.ofOld (ho.mono hp)
+  · exact VR.ofOld (ho.mono (oldCT_prefix hp))
   · exact VR.arr h0
 
 theorem VR.notPoison {CT : CTab} {v w : Val} : VR CT v w → (v matches .other "poison") = false := by
@@ -226,15 +280,30 @@ theorem view_arr (a : Heap) (id : Nat) (xs : List Val) (h0 : id ≠ 0) :
   unfold Core.Fn.view
   exact reify_arr a _ id xs h0
 
+/-- `reifyM` commits only when the value expands completely within `reifyDepth` -/
 theorem run_reifyM_bind {β : Type} (v : Val) (K : Val → M β) (s : St) :
-    run (reifyM v >>= K) s = run (K (reify s.heap reifyDepth v)) s := rfl
+    run (reifyM v >>= K) s =
+      if expandsWithin s.heap reifyDepth v = true then run (K (reify s.heap reifyDepth v)) s else (.error .unc, s) := by
+  have h : run (reifyM v) s = _ := P2sh.Props.RefBvars.run_reifyM v s
+  rw [run_bind, h]
+  by_cases hc : expandsWithin s.heap reifyDepth v = true
+  · rw [if_pos hc, if_pos hc]
+  · rw [if_neg hc, if_neg hc]
 
-theorem reify_old {CT : CTab} {v w : Val} (h : RefFn.VR CT v w) (hp : Heap) : reify hp reifyDepth v = v := by
+theorem Post.reify {α β : Type} {Q : α → β → St → Prop} {ev : FM β} (v : Val) (K : Val → M α) (s : St)
+    (hk : expandsWithin s.heap reifyDepth v = true → Post Q ev (run (K (reify s.heap reifyDepth v)) s)) :
+    Post Q ev (run (reifyM v >>= K) s) := by
+  rw [run_reifyM_bind]
+  split
+  · rename_i h; exact hk h
+  · exact True.intro
+
+theorem reify_old {CT : RefFn.CTab} {v w : Val} (h : RefFn.VR CT v w) (hp : Heap) : reify hp reifyDepth v = v := by
   rcases h with ⟨hs, -⟩ | ⟨k, fd, hid, rfl, -, -⟩
   · exact reify_scalar hp hs
   · rfl
 
-theorem view_old {CT : CTab} {v w : Val} (h : RefFn.VR CT v w) (a : Heap) : Core.Fn.view a w = w := h.view_eq a
+theorem view_old {CT : RefFn.CTab} {v w : Val} (h : RefFn.VR CT v w) (a : Heap) : Core.Fn.view a w = w := h.view_eq a
 
 theorem reflect_shallow {CT : CTab} {v w : Val} (h : VR CT v w) (hp : Heap) (n : Nat) : reflect hp (n + 1) v = (hp, v) := by
   rcases h with ⟨hs, -⟩ | ⟨k, fd, hid, rfl, -, -⟩ | ⟨id, h0, rfl, -⟩
@@ -273,24 +342,35 @@ theorem reflect_lit {CT : CTab} {vs ws : List Val} (hv : VRs CT vs ws) (hp : Hea
   rw [hf]
   simp [Heap.alloc]
 
+theorem run_reflectM (v : Val) (s : St) :
+    run (reflectM v) s = (.ok (reflect s.heap reifyDepth v).2, { s with heap := (reflect s.heap reifyDepth v).1 }) := rfl
+
 theorem run_reflectM_bind {β : Type} (v : Val) (K : Val → M β) (s : St) :
     run (reflectM v >>= K) s = run (K (reflect s.heap reifyDepth v).2) { s with heap := (reflect s.heap reifyDepth v).1 } := rfl
 
 /-! ## truth tests -/
 
-theorem run_truthy_bind {β : Type} {CT : CTab} {v w : Val} {s : St} {a : Heap} (hr : HR CT s.heap a) (h : VR CT v w) (K : Bool → M β) :
-    run (Ref.truthy v >>= K) s = run (K (!(Core.Fn.falseyH a w))) s := by
+theorem falsey_reify_arr {CT : CTab} {s : St} {a : Heap} (hr : HR CT s.heap a) (id : Nat) (h0 : id ≠ 0) :
+    Spec.falsey (reify s.heap reifyDepth (.arr id [])) = Core.Fn.falseyH a (.arr id []) := by
+  show Spec.falsey (reify s.heap (63 + 1) (.arr id [])) = _
+  rw [reify_arr _ _ _ _ h0]
+  have hl := (hr.arrs id).nil_iff
+  show Spec.falsey (.arr id ((s.heap.getArr id).map (reify s.heap 63))) = (a.getArr id).isEmpty
+  rw [← hl]
+  cases s.heap.getArr id <;> rfl
+
+/-- a truth test: the oracle either does not commit (a value nested too deep) or tests what Core.Fn tests -/
+theorem Post.truthy {α β : Type} {Q : α → β → St → Prop} {ev : FM β} {CT : CTab} {v w : Val} {s : St} {a : Heap}
+    (hr : HR CT s.heap a) (h : VR CT v w) (K : Bool → M α)
+    (hk : Post Q ev (run (K (!(Core.Fn.falseyH a w))) s)) : Post Q ev (run (Ref.truthy v >>= K) s) := by
   rcases h.cases3 with ⟨hn, ho⟩ | ⟨id, h0, rfl, rfl⟩
-  · rw [ho.truthy_eq a, pure_bind]
+  · rw [ho.truthy_eq a, pure_bind]; exact hk
   · unfold Ref.truthy
-    rw [bind_assoc, run_reifyM_bind]
-    show run (K (!(Spec.falsey (reify s.heap (63 + 1) (.arr id [])))) ) s = _
-    rw [reify_arr _ _ _ _ h0]
-    have hl := (hr.arrs id).nil_iff
-    congr 2
-    show (!(Spec.falsey (.arr id ((s.heap.getArr id).map (reify s.heap 63))))) = !((a.getArr id).isEmpty)
-    rw [← hl]
-    cases s.heap.getArr id <;> rfl
+    rw [bind_assoc]
+    refine Post.reify _ _ _ (fun _ => ?_)
+    simp only [pure_bind]
+    rw [falsey_reify_arr hr id h0]
+    exact hk
 
 /-! ## operators -/
 
@@ -314,17 +394,23 @@ theorem unary_bridge {CT : CTab} {v w : Val} {s : St} {a : Heap} (hr : HR CT s.h
     · exact ⟨_, rfl⟩
     · exact ⟨_, rfl⟩
 
-def isDeep : Operator → Bool
+/-- the operators that look into two arrays -/
+def isDeepA : Operator → Bool
   | .add | .equal | .notEqual => true
   | _ => false
 
-theorem spec_arr_left (op : Operator) (id : Nat) (L : List Val) (r : Val) (hd : isDeep op = true → isArrV r = false) :
-    Spec.binary (specOp op) (.arr id L) r = if (op = .equal ∨ op = .notEqual) then .any else .error := by
-  cases op <;> cases r <;> first | rfl | (simp [isDeep, isArrV] at hd)
+/-- `==` / `!=`: on two arrays they compare the contents in depth (outside the fragment) -/
+def isDeep : Operator → Bool
+  | .equal | .notEqual => true
+  | _ => false
 
-theorem spec_arr_right (op : Operator) (id : Nat) (L : List Val) (l : Val) (hd : isDeep op = true → isArrV l = false) :
+theorem spec_arr_left (op : Operator) (id : Nat) (L : List Val) (r : Val) (hd : isDeepA op = true → isArrV r = false) :
+    Spec.binary (specOp op) (.arr id L) r = if (op = .equal ∨ op = .notEqual) then .any else .error := by
+  cases op <;> cases r <;> first | rfl | (simp [isDeepA, isArrV] at hd)
+
+theorem spec_arr_right (op : Operator) (id : Nat) (L : List Val) (l : Val) (hd : isDeepA op = true → isArrV l = false) :
     Spec.binary (specOp op) l (.arr id L) = if (op = .equal ∨ op = .notEqual) then .any else .error := by
-  cases op <;> cases l <;> first | rfl | (simp [isDeep, isArrV] at hd)
+  cases op <;> cases l <;> first | rfl | (simp [isDeepA, isArrV] at hd)
 
 theorem opH_err' (a : Heap) (op : Operator) {l r : Val} {msg : String}
     (h : execOperator op (Core.Fn.view a l) (Core.Fn.view a r) = .err msg) : Core.Fn.opH a op l r = .fail := by
@@ -333,25 +419,41 @@ theorem opH_err' (a : Heap) (op : Operator) {l r : Val} {msg : String}
 
 theorem run_applyBinary_arr_left (line : Nat) (sop : Spec.Op) (id : Nat) (xs : List Val) (r : Val) (s : St) (h0 : id ≠ 0) :
     run (applyBinary line sop (.arr id xs) r) s =
-      run (ofExpect line (Spec.binary sop (.arr id ((s.heap.getArr id).map (reify s.heap 63))) (reify s.heap reifyDepth r)) >>= fun v => reflectM v) s := by
-  unfold applyBinary
-  rw [run_reifyM_bind]
-  show run (reifyM r >>= _) s = _
-  rw [run_reifyM_bind]
+      if expandsWithin s.heap reifyDepth (.arr id xs) = true then
+        if expandsWithin s.heap reifyDepth r = true then
+          run (ofExpect line (Spec.binary sop (.arr id ((s.heap.getArr id).map (reify s.heap 63))) (reify s.heap reifyDepth r)) >>= fun v => reflectM v) s
+        else (.error .unc, s)
+      else (.error .unc, s) := by
   have hre : reify s.heap reifyDepth (.arr id xs) = .arr id ((s.heap.getArr id).map (reify s.heap 63)) := reify_arr _ 63 _ _ h0
-  rw [hre]
-  cases sop <;> rfl
+  by_cases h1 : expandsWithin s.heap reifyDepth (.arr id xs) = true
+  · by_cases h2 : expandsWithin s.heap reifyDepth r = true
+    · rw [if_pos h1, if_pos h2]
+      unfold applyBinary
+      rw [run_reifyM_bind, if_pos h1]
+      show run (reifyM r >>= _) s = _
+      rw [run_reifyM_bind, if_pos h2, hre]
+      cases sop <;> rfl
+    · rw [if_pos h1, if_neg h2]
+      unfold applyBinary
+      rw [run_reifyM_bind, if_pos h1]
+      show run (reifyM r >>= _) s = _
+      rw [run_reifyM_bind, if_neg h2]
+  · rw [if_neg h1]
+    unfold applyBinary
+    rw [run_reifyM_bind, if_neg h1]
 
-theorem run_applyBinary_arr_right {CT : CTab} {vl wl : Val} (ho : RefFn.VR CT vl wl) (line : Nat) (sop : Spec.Op) (id : Nat) (xs : List Val) (s : St) (h0 : id ≠ 0) :
+theorem run_applyBinary_arr_right {CT : RefFn.CTab} {vl wl : Val} (ho : RefFn.VR CT vl wl) (line : Nat) (sop : Spec.Op) (id : Nat) (xs : List Val) (s : St) (h0 : id ≠ 0) :
     run (applyBinary line sop vl (.arr id xs)) s =
-      run (ofExpect line (Spec.binary sop vl (.arr id ((s.heap.getArr id).map (reify s.heap 63)))) >>= fun v => reflectM v) s := by
-  unfold applyBinary
-  rw [run_reifyM_bind]
-  show run (reifyM (.arr id xs) >>= _) s = _
-  rw [run_reifyM_bind]
+      if expandsWithin s.heap reifyDepth (.arr id xs) = true then
+        run (ofExpect line (Spec.binary sop vl (.arr id ((s.heap.getArr id).map (reify s.heap 63)))) >>= fun v => reflectM v) s
+      else (.error .unc, s) := by
   have hre : reify s.heap reifyDepth (.arr id xs) = .arr id ((s.heap.getArr id).map (reify s.heap 63)) := reify_arr _ 63 _ _ h0
-  rw [hre, reify_old ho]
-  cases sop <;> first | rfl | (cases vl <;> rfl)
+  unfold applyBinary
+  rw [ho.reifyM_eq, pure_bind]
+  by_cases h1 : expandsWithin s.heap reifyDepth (.arr id xs) = true
+  · rw [if_pos h1, run_reifyM_bind, if_pos h1, hre]
+    cases sop <;> first | rfl | (cases vl <;> rfl)
+  · rw [if_neg h1, run_reifyM_bind, if_neg h1]
 
 theorem notArr_reify {CT : CTab} {v w : Val} (h : VR CT v w) (hn : isArrV v = false) (hp : Heap) :
     isArrV (reify hp reifyDepth v) = false := by
@@ -365,13 +467,133 @@ theorem notArr_view {CT : CTab} {v w : Val} (h : VR CT v w) (hn : isArrV v = fal
   · exact hn
   · rfl
 
-theorem binary_bridge {CT : CTab} {vl wl vr wr : Val} {s : St} {a : Heap} (line : Nat) (op : Operator)
+/-! ### `+` on two arrays: a new array object holding the elements of both -/
+
+theorem VRs.append {CT : CTab} : ∀ {xs ys xs' ys' : List Val}, VRs CT xs ys → VRs CT xs' ys' → VRs CT (xs ++ xs') (ys ++ ys')
+  | [], [], _, _, _, h => h
+  | _ :: _, _ :: _, _, _, h1, h2 => ⟨h1.1, VRs.append h1.2 h2⟩
+  | [], _ :: _, _, _, h, _ => h.elim
+  | _ :: _, [], _, _, h, _ => h.elim
+
+theorem VRs.shallowR {CT : CTab} : ∀ {vs ws : List Val}, VRs CT vs ws → ∀ w ∈ ws, ∃ v, VR CT v w
+  | [], [], _, w, hw => by cases hw
+  | x :: xs, y :: ys, h, w, hw => by
+    rcases List.mem_cons.mp hw with rfl | hw
+    · exact ⟨x, h.1⟩
+    · exact VRs.shallowR h.2 w hw
+  | [], _ :: _, h, _, _ => h.elim
+  | _ :: _, [], h, _, _ => h.elim
+
+theorem reflect_reify_shallow {CT : CTab} {v w : Val} (h : VR CT v w) (hp hp' : Heap) (n m : Nat) :
+    reflect hp' (n + 1) (reify hp (m + 1) v) = (hp', v) := by
+  rcases h with ⟨hs, -⟩ | ⟨k, fd, hid, rfl, -, -⟩ | ⟨id, h0, rfl, -⟩
+  · cases v <;> first | rfl | (simp [isScalar] at hs)
+  · rfl
+  · have : (id != 0) = true := by simpa using h0
+    rw [reify_arr _ _ _ _ h0]
+    simp [reflect, this]
+
+theorem foldl_reflect_map (n : Nat) (f : Val → Val) : ∀ (xs : List Val) (hp : Heap) (ys : List Val),
+    (∀ x ∈ xs, ∀ hp', reflect hp' (n + 1) (f x) = (hp', x)) →
+    (xs.map f).foldl (fun (acc : Heap × List Val) x => let (h1, y) := reflect acc.1 (n + 1) x; (h1, acc.2 ++ [y])) (hp, ys) = (hp, ys ++ xs)
+  | [], hp, ys, _ => by simp
+  | x :: xs, hp, ys, h => by
+    simp only [List.map_cons, List.foldl_cons]
+    rw [h x (List.mem_cons_self ..) hp]
+    simp only
+    rw [foldl_reflect_map n f xs hp (ys ++ [x]) (fun y hy => h y (List.mem_cons_of_mem _ hy))]
+    simp
+
+theorem reflect_concat {CT : CTab} {X Y : List Val} (hXY : VRs CT X Y) (hp : Heap) :
+    reflect hp reifyDepth (.arr 0 (X.map (reify hp 63))) = ((hp.alloc (.arr X)).1, .arr hp.next []) := by
+  show reflect hp (62 + 1 + 1) (.arr 0 (X.map (reify hp (62 + 1)))) = _
+  have hf := foldl_reflect_map 62 (reify hp (62 + 1)) X hp [] (fun x hm hp' => by
+    obtain ⟨w, hw⟩ := hXY.shallow x hm
+    exact reflect_reify_shallow hw hp hp' 62 62)
+  simp only [reflect, bne_self_eq_false, Bool.false_eq_true, if_false]
+  rw [hf]
+  simp [Heap.alloc]
+
+theorem storeNew_reify_shallow {CT : CTab} {v w : Val} (h : VR CT v w) (a : Heap) (n : Nat) :
+    Core.Fn.storeNew a (reify a n w) = (w, a) := by
+  rcases h with ⟨hs, rfl⟩ | ⟨k, fd, hid, rfl, rfl, -⟩ | ⟨id, h0, rfl, rfl⟩
+  · cases n <;> cases w <;> first | rfl | (simp [isScalar] at hs)
+  · cases n <;> rfl
+  · have hb : (id != 0) = true := by simpa using h0
+    cases n with
+    | zero => simp [reify, Core.Fn.storeNew, hb]
+    | succ n => rw [reify_arr _ _ _ _ h0]; simp [Core.Fn.storeNew, hb]
+
+theorem storeList_map_reify {CT : CTab} (a : Heap) (n : Nat) : ∀ (ys : List Val), (∀ w ∈ ys, ∃ v, VR CT v w) →
+    Core.Fn.storeList a (ys.map (reify a n)) = (ys, a)
+  | [], _ => by simp [Core.Fn.storeList]
+  | w :: ys, h => by
+    obtain ⟨v, hv⟩ := h w (List.mem_cons_self ..)
+    simp only [List.map_cons, Core.Fn.storeList, storeNew_reify_shallow hv a n,
+      storeList_map_reify a n ys (fun x hx => h x (List.mem_cons_of_mem _ hx))]
+
+theorem opH_add_arr {CT : CTab} {a : Heap} {id1 id2 : Nat} (h1 : id1 ≠ 0) (h2 : id2 ≠ 0)
+    (hs1 : ∀ w ∈ a.getArr id1, ∃ v, VR CT v w) (hs2 : ∀ w ∈ a.getArr id2, ∃ v, VR CT v w) :
+    Core.Fn.opH a .add (.arr id1 []) (.arr id2 []) = .new (.arr a.next []) (a.alloc (.arr (a.getArr id1 ++ a.getArr id2))).1 := by
+  have hsp := P2sh.Props.C09.binary_spec .add (Core.Fn.view a (.arr id1 [])) (Core.Fn.view a (.arr id2 [])) (fun h => by cases h)
+  rw [view_arr a id1 [] h1, view_arr a id2 [] h2] at hsp
+  have hex : execOperator .add (.arr id1 ((a.getArr id1).map (reify a a.objs.length))) (.arr id2 ((a.getArr id2).map (reify a a.objs.length))) =
+      .ok (.arr 0 ((a.getArr id1).map (reify a a.objs.length) ++ (a.getArr id2).map (reify a a.objs.length))) := hsp
+  unfold Core.Fn.opH Core.Fn.cmpH
+  rw [view_arr a id1 [] h1, view_arr a id2 [] h2, hex]
+  have hsl : Core.Fn.storeList a ((a.getArr id1).map (reify a a.objs.length) ++ (a.getArr id2).map (reify a a.objs.length)) =
+      (a.getArr id1 ++ a.getArr id2, a) := by
+    rw [← List.map_append]
+    exact storeList_map_reify a _ _ (fun w hw => (List.mem_append.mp hw).elim (hs1 w) (hs2 w))
+  simp only [Core.Fn.storeNew, bne_self_eq_false, Bool.false_eq_true, if_false, hsl, allocH_eq]
+  rfl
+
+/-- what `applyBinary` may do on related operands: a scalar result, a NEW array (`+` on two arrays), an error -/
+def OpOutA (CT : CTab) (a : Heap) (op : Operator) (wl wr : Val) (s : St) : Except Err Val × St → Prop
+  | (.ok v, s') => (s' = s ∧ isScalar v = true ∧ Core.Fn.opH a op wl wr = .same v) ∨
+      (op = .add ∧ ∃ X Y, VRs CT X Y ∧ s' = { s with heap := (s.heap.alloc (.arr X)).1 } ∧ v = .arr s.heap.next [] ∧
+        Core.Fn.opH a op wl wr = .new (.arr a.next []) (a.alloc (.arr Y)).1)
+  | (.error (.rt _), _) => Core.Fn.opH a op wl wr = .fail
+  | (.error _, _) => True
+
+theorem OpOutA.ofF {CT : CTab} {a : Heap} {op : Operator} {wl wr : Val} {s : St} {o : Except Err Val × St}
+    (h : OpOutF a op wl wr s o) : OpOutA CT a op wl wr s o := by
+  rcases o with ⟨er | v, s'⟩
+  · cases er <;> exact h
+  · exact .inl h
+
+theorem add_arr_bridge {CT : CTab} {s : St} {a : Heap} (hr0 : HR CT s.heap a) (line : Nat) {id1 id2 : Nat} (h1 : id1 ≠ 0) (h2 : id2 ≠ 0) :
+    OpOutA CT a .add (.arr id1 []) (.arr id2 []) s (run (applyBinary line (specOp .add) (.arr id1 []) (.arr id2 [])) s) := by
+  rw [run_applyBinary_arr_left _ _ _ _ _ _ h1]
+  split
+  rotate_left
+  · exact True.intro
+  split
+  rotate_left
+  · exact True.intro
+  have hre : reify s.heap reifyDepth (.arr id2 []) = .arr id2 ((s.heap.getArr id2).map (reify s.heap 63)) := reify_arr _ 63 _ _ h2
+  rw [hre]
+  have hX := (hr0.arrs id1).append (hr0.arrs id2)
+  have hrun : run (ofExpect line (Spec.binary (specOp .add) (.arr id1 ((s.heap.getArr id1).map (reify s.heap 63)))
+        (.arr id2 ((s.heap.getArr id2).map (reify s.heap 63)))) >>= fun v => reflectM v) s =
+      (.ok (.arr s.heap.next []), { s with heap := (s.heap.alloc (.arr (s.heap.getArr id1 ++ s.heap.getArr id2))).1 }) := by
+    show run (reflectM (.arr 0 ((s.heap.getArr id1).map (reify s.heap 63) ++ (s.heap.getArr id2).map (reify s.heap 63)))) s = _
+    rw [← List.map_append]
+    rw [run_reflectM, reflect_concat hX]
+  rw [hrun]
+  exact .inr ⟨rfl, _, _, hX, rfl, rfl, opH_add_arr h1 h2 (VRs.shallowR (hr0.arrs id1)) (VRs.shallowR (hr0.arrs id2))⟩
+
+theorem binary_bridge {CT : CTab} {vl wl vr wr : Val} {s : St} {a : Heap} (hr0 : HR CT s.heap a) (line : Nat) (op : Operator)
     (hl : VR CT vl wl) (hr : VR CT vr wr) (hd : isDeep op = true → isArrV vl = false ∨ isArrV vr = false) :
-    OpOutF a op wl wr s (run (applyBinary line (specOp op) vl vr) s) := by
+    OpOutA CT a op wl wr s (run (applyBinary line (specOp op) vl vr) s) := by
   rcases hl.cases3 with ⟨hnl, hol⟩ | ⟨id, h0, rfl, rfl⟩
   · rcases hr.cases3 with ⟨hnr, hor⟩ | ⟨id, h0, rfl, rfl⟩
-    · exact RefFn.binary_bridge a line op hol hor s
-    · rw [run_applyBinary_arr_right hol _ _ _ _ _ h0, spec_arr_right op id _ _ (fun _ => hnl)]
+    · exact OpOutA.ofF (RefFn.binary_bridge a line op hol hor s)
+    · rw [run_applyBinary_arr_right hol _ _ _ _ _ h0]
+      split
+      rotate_left
+      · exact True.intro
+      rw [spec_arr_right op id _ _ (fun _ => hnl)]
       by_cases heq : op = .equal ∨ op = .notEqual
       · rw [if_pos heq]; exact True.intro
       · rw [if_neg heq]
@@ -385,8 +607,27 @@ theorem binary_bridge {CT : CTab} {vl wl vr wr : Val} {s : St} {a : Heap} (line 
         rw [hva, spec_arr_right op id _ _ (fun _ => notArr_view hl hnl a), if_neg heq] at hsp
         obtain ⟨msg, hm⟩ := hsp
         exact opH_err' a op (by rw [hva]; exact hm)
-  · have hd' : isDeep op = true → isArrV vr = false := fun h => (hd h).resolve_left (by simp [isArrV])
-    rw [run_applyBinary_arr_left _ _ _ _ _ _ h0, spec_arr_left op id _ _ (fun h => notArr_reify hr (hd' h) _)]
+  · by_cases hboth : isArrV vr = true ∧ op = .add
+    · obtain ⟨hav, rfl⟩ := hboth
+      rcases hr.cases3 with ⟨hnr, -⟩ | ⟨id2, h02, rfl, rfl⟩
+      · rw [hav] at hnr; cases hnr
+      · exact add_arr_bridge hr0 line h0 h02
+    have hd' : isDeepA op = true → isArrV vr = false := by
+      intro h
+      by_cases hadd : op = .add
+      · cases hv : isArrV vr
+        · rfl
+        · exact absurd ⟨hv, hadd⟩ hboth
+      · have hdp : isDeep op = true := by cases op <;> simp_all [isDeepA, isDeep]
+        exact (hd hdp).resolve_left (by simp [isArrV])
+    rw [run_applyBinary_arr_left _ _ _ _ _ _ h0]
+    split
+    rotate_left
+    · exact True.intro
+    split
+    rotate_left
+    · exact True.intro
+    rw [spec_arr_left op id _ _ (fun h => notArr_reify hr (hd' h) _)]
     by_cases heq : op = .equal ∨ op = .notEqual
     · rw [if_pos heq]; exact True.intro
     · rw [if_neg heq]
@@ -405,7 +646,7 @@ theorem binary_bridge {CT : CTab} {vl wl vr wr : Val} {s : St} {a : Heap} (line 
 
 /-- the scrutinee of a `match` after `reifyM`: a scalar / closure as it was, or an expanded array -/
 def SR (CT : CTab) (v w : Val) : Prop :=
-  RefFn.VR CT v w ∨ ∃ id L, id ≠ 0 ∧ v = .arr id L ∧ w = .arr id []
+  RefFn.VR (oldCT CT) v w ∨ ∃ id L, id ≠ 0 ∧ v = .arr id L ∧ w = .arr id []
 
 theorem eq_arr_scalar (id : Nat) (L : List Val) {w : Val} (hw : isScalar w = true) : Val.eq (.arr id L) w = false := by
   cases w <;> first | rfl | (simp [isScalar] at hw)
@@ -704,14 +945,180 @@ theorem fE_setIndex (k : Nat) (cx : Option (FnDef × Nat)) (σ : Sto) (l : Nat) 
 
 end CoreEqC
 
+/-! ## assignment to a captured variable: the oracle's environment and Core.Fn's closure object -/
+
+theorem updScopeCap_ok (name : String) (v : Val) : ∀ (sc : Scope) (v0 : Val), lookupScope name sc = some (.cap v0) →
+    ∃ sc', updScopeCap name v sc = some sc' ∧ lookupScope name sc' = some (.cap v) ∧
+      ∀ name', name' ≠ name → lookupScope name' sc' = lookupScope name' sc
+  | [], _, h => by simp [lookupScope] at h
+  | (n, b) :: rest, v0, h => by
+    simp only [lookupScope] at h
+    by_cases hn : (n == name) = true
+    · simp only [hn, if_true, Option.some.injEq] at h
+      subst h
+      refine ⟨(n, .cap v) :: rest, by simp [updScopeCap, hn], by simp [lookupScope, hn], ?_⟩
+      intro name' hne
+      have hnn : n = name := by simpa using hn
+      have : (n == name') = false := by rw [hnn]; simpa using (Ne.symm hne)
+      simp [lookupScope, this]
+    · simp only [hn, Bool.false_eq_true, if_false] at h
+      obtain ⟨sc', h1, h2, h3⟩ := updScopeCap_ok name v rest v0 h
+      refine ⟨(n, b) :: sc', by simp [updScopeCap, hn, h1], by simp [lookupScope, hn, h2], ?_⟩
+      intro name' hne
+      simp only [lookupScope]
+      rw [h3 name' hne]
+
+theorem updEnvCap_ok (name : String) (v : Val) : ∀ (env : Env) (v0 : Val), lookupEnv name env = some (.cap v0) →
+    ∃ env', updEnvCap name v env = some env' ∧ lookupEnv name env' = some (.cap v) ∧
+      ∀ name', name' ≠ name → lookupEnv name' env' = lookupEnv name' env
+  | [], _, h => by simp [lookupEnv] at h
+  | s :: rest, v0, h => by
+    simp only [lookupEnv] at h
+    cases hs : lookupScope name s with
+    | some b =>
+      rw [hs] at h
+      simp only [Option.some.injEq] at h
+      subst h
+      obtain ⟨s', h1, h2, h3⟩ := updScopeCap_ok name v s v0 hs
+      refine ⟨s' :: rest, by simp [updEnvCap, hs, h1], by simp [lookupEnv, h2], ?_⟩
+      intro name' hne
+      simp only [lookupEnv]
+      rw [h3 name' hne]
+    | none =>
+      rw [hs] at h
+      simp only at h
+      obtain ⟨env', h1, h2, h3⟩ := updEnvCap_ok name v rest v0 h
+      refine ⟨s :: env', by simp [updEnvCap, hs, h1], by simp [lookupEnv, hs, h2], ?_⟩
+      intro name' hne
+      simp only [lookupEnv]
+      rw [h3 name' hne]
+
+theorem isGlobalEnv_cons (s : Scope) (rest : Env) : isGlobalEnv (s :: rest) = (isGlobalEnv [s] && isGlobalEnv rest) := by
+  simp [isGlobalEnv]
+
+theorem isGlobalScope_cons (p : String × Bind) (sc : Scope) : isGlobalEnv [p :: sc] = (isGlobalEnv [[p]] && isGlobalEnv [sc]) := by
+  simp [isGlobalEnv]
+
+theorem notGlobal_scope {name : String} {v : Val} : ∀ (sc : Scope), lookupScope name sc = some (.cap v) → isGlobalEnv [sc] = false
+  | [], h => by simp [lookupScope] at h
+  | (n, b) :: rest, h => by
+    rw [isGlobalScope_cons]
+    simp only [lookupScope] at h
+    by_cases hn : (n == name) = true
+    · simp only [hn, if_true, Option.some.injEq] at h
+      subst h
+      rfl
+    · simp only [hn, Bool.false_eq_true, if_false] at h
+      rw [notGlobal_scope rest h, Bool.and_false]
+
+theorem isGlobalEnv_of_cap {name : String} {v : Val} : ∀ (env : Env), lookupEnv name env = some (.cap v) → isGlobalEnv env = false
+  | [], h => by simp [lookupEnv] at h
+  | s :: rest, h => by
+    rw [isGlobalEnv_cons]
+    simp only [lookupEnv] at h
+    cases hs : lookupScope name s with
+    | some b =>
+      rw [hs] at h
+      simp only [Option.some.injEq] at h
+      subst h
+      rw [notGlobal_scope s hs, Bool.false_and]
+    | none =>
+      rw [hs] at h
+      simp only at h
+      rw [isGlobalEnv_of_cap rest h, Bool.and_false]
+
+theorem updEnvCap_mkEnv_other {nm : Nat → String} {vals : Nat → Val} {base base' : Env} {name : String} {v : Val}
+    (h : ∀ i, nm i ≠ name) (hu : updEnvCap name v base = some base') :
+    ∀ {V : List (List Nat)}, updEnvCap name v (mkEnv nm V vals base) = some (mkEnv nm V vals base')
+  | [] => hu
+  | is :: rest => by
+    simp only [mkEnv, List.map_cons, List.cons_append, updEnvCap]
+    rw [lookupScope_mkScope_not (fun i _ => h i)]
+    have ih := updEnvCap_mkEnv_other (vals := vals) h hu (V := rest)
+    simp only [mkEnv] at ih
+    simp [ih]
+
+/-- the oracle's assignment to a captured variable: `unc` when the closure object is re-entered, else the
+environment is changed in place and the closure's copy is poisoned for later activations -/
+theorem run_assignIdent_cap {name : String} {v v0 : Val} {env env' : Env} {id : Nat} {f : FnDef} {fr : List Val} (s : St)
+    (h1 : lookupEnv name env = some (.cap v0)) (h2 : lookupEnv selfKey env = some (.cap (.clos f fr id)))
+    (h3 : updEnvCap name v env = some env') :
+    run (assignIdent name v env) s =
+      if s.active.count id ≥ 2 then (.error .unc, s)
+      else (.ok (.val v env'), { s with clos := s.clos.modify (id - 1) fun c =>
+              { c with captured := (name, .cap (.other "poison")) :: c.captured } }) := by
+  unfold assignIdent
+  simp only [h1, h2, h3]
+  rw [run_get_bind]
+  by_cases hc : s.active.count id ≥ 2
+  · rw [if_pos hc]
+    simp only [hc, if_true]
+    rfl
+  · rw [if_neg hc]
+    simp only [hc, if_false]
+    rfl
+
+theorem freeSet_of_get {h : List (List Val)} {id j : Nat} {w0 : Val} (w : Val) (hg : Core.Fn.freeGet h id j = some w0) :
+    ∃ fr, h[id]? = some fr ∧ j < fr.length ∧ Core.Fn.freeSet h id j w = some (h.set id (fr.set j w)) := by
+  unfold Core.Fn.freeGet at hg
+  unfold Core.Fn.freeSet
+  cases hid : h[id]? with
+  | none => simp [hid] at hg
+  | some fr =>
+    simp only [hid] at hg
+    have hlt : j < fr.length := by
+      rcases Nat.lt_or_ge j fr.length with h1 | h1
+      · exact h1
+      · rw [List.getElem?_eq_none h1] at hg; cases hg
+    exact ⟨fr, rfl, hlt, by simp [hlt]⟩
+
+theorem freeGet_set_self {h : List (List Val)} {id j : Nat} {fr : List Val} (w : Val) (hid : h[id]? = some fr) (hj : j < fr.length) :
+    Core.Fn.freeGet (h.set id (fr.set j w)) id j = some w := by
+  have hlt : id < h.length := by
+    rcases Nat.lt_or_ge id h.length with h1 | h1
+    · exact h1
+    · rw [List.getElem?_eq_none h1] at hid; cases hid
+  simp [Core.Fn.freeGet, hlt, hj]
+
+theorem freeGet_set_other {h : List (List Val)} {id j j' : Nat} {fr : List Val} (w : Val) (hid : h[id]? = some fr) (hne : j ≠ j') :
+    Core.Fn.freeGet (h.set id (fr.set j w)) id j' = Core.Fn.freeGet h id j' := by
+  have hlt : id < h.length := by
+    rcases Nat.lt_or_ge id h.length with h1 | h1
+    · exact h1
+    · rw [List.getElem?_eq_none h1] at hid; cases hid
+  have hfr : h[id] = fr := by
+    rw [List.getElem?_eq_getElem hlt] at hid; exact Option.some.inj hid
+  simp [Core.Fn.freeGet, hlt, hfr, List.getElem?_set_ne hne]
+
+section CoreEqS
+variable (Φ : FnDef → Option FDecl)
+
+def fsetK (cx : Option (FnDef × Nat)) (i : Nat) (p : Val × Sto) : Option (Val × Sto) :=
+  match cx with
+  | some (_, id) =>
+    (match Core.Fn.freeSet p.2.h id i p.1 with
+     | some h' => some (p.1, p.2.setH h')
+     | none => none)
+  | none => none
+
+theorem fE_fset (k : Nat) (cx : Option (FnDef × Nat)) (σ : Sto) (l i : Nat) (e : FExpr) :
+    Core.Fn.evalE Φ (k+1) cx σ (.fset l i e) = (Core.Fn.evalE Φ k cx σ e).bind (fsetK cx i) := by
+  simp only [Core.Fn.evalE]
+  cases Core.Fn.evalE Φ k cx σ e with
+  | none => rfl
+  | some p => rfl
+
+end CoreEqS
+
 /-! ## the fragment -/
 
 /-- expressions whose value is never an array (statically) -/
 def nonArrE : FExpr → Bool
+  | .bin _ .add _ _ => false
   | .lit .. | .tru _ | .fls _ | .null _ | .un .. | .bin .. | .lt .. | .le .. | .mkclos .. => true
   | _ => false
 
-/-- `+`, `==`, `!=` look into two arrays: one operand must be statically no array -/
+/-- `==`, `!=` compare two arrays in depth: one operand must be statically no array -/
 def deepOK (op : Operator) (a b : FExpr) : Bool := !isDeep op || nonArrE a || nonArrE b
 
 theorem deepOK_spec {op : Operator} {a b : FExpr} (h : deepOK op a b = true) :
@@ -761,11 +1168,7 @@ def paramVis (np : Nat) : List Nat := (List.range np).reverse
 
 open Classical in
 mutual
-/-- the expressions covered: literals, operators, `&&`/`||`, `if`/`else`, globals below the horizon `gh`, the
-visible local slots `vis` (inside a function), the function's own name, calls, captured variables (reads),
-function literals whose captured variables are visible and whose function constant `Φ` maps to their
-declaration (the only non-computable test: `Φ` is an arbitrary function).
-Excluded: `match`, assignment to captured variables, arrays, maps, builtins. -/
+/-- the expressions covered (see the header) -/
 noncomputable def okE (N : Names) (Φ : FnDef → Option FDecl) (c : Ctx) (gh nl : Nat) (vis : List Nat) : FExpr → Bool
   | .lit .. | .tru _ | .fls _ | .null _ => true
   | .un _ _ e => okE N Φ c gh nl vis e
@@ -782,11 +1185,13 @@ noncomputable def okE (N : Names) (Φ : FnDef → Option FDecl) (c : Ctx) (gh nl
   | .curr _ => c.self != ""
   | .call _ f args => okE N Φ c gh nl vis f && okArgs N Φ c gh nl vis args
   | .fget _ j => decide (j < c.frees.length)
+  | .fset _ j e => decide (j < c.frees.length) && okE N Φ c gh nl vis e
   | .matchE _ s arms => okE N Φ c gh nl vis s && okArms N Φ c gh nl vis arms
   | .mkclos l code lines np nl' body caps =>
     caps.all (okCap c vis) && decide (np ≤ nl') &&
     decide (Φ (mkFd code lines ⟨np, nl', body, l⟩) = some ⟨np, nl', body, l⟩) &&
-    okP N Φ ⟨c.depth + 1, "", caps.map (capName N c)⟩ gh nl' (paramVis np) body && lastOK body
+    okP N Φ ⟨c.depth + 1, "", caps.map (capName N c)⟩ gh nl' (paramVis np) body && lastOK body &&
+    decide ((caps.map (capName N c)).Nodup)
   | _ => false
 noncomputable def okArms (N : Names) (Φ : FnDef → Option FDecl) (c : Ctx) (gh nl : Nat) (vis : List Nat) : FArms → Bool
   | .last _ _ d => okE N Φ c gh nl vis d
@@ -824,89 +1229,126 @@ structure NamesOK (N : Names) : Prop where
 section Rel
 variable (N : Names) (Φ : FnDef → Option FDecl)
 
-/-- the oracle's closure `c` is Core.Fn's function constant `fd` with the closure object `hid` -/
-def ClosEntry (CT : CTab) (h : List (List Val)) (n : Nat) (c : RClos) (fd : FnDef) (hid : Nat) : Prop :=
-  ∃ (d : FDecl) (cx : Ctx) (gh : Nat), Φ fd = some d ∧ c.name = cx.self ∧ c.params = params N cx.depth d.np ∧
-    c.body.stmts = toStmtsF N cx d.body ∧ 0 < cx.depth ∧ d.np ≤ d.nl ∧ gh ≤ n ∧
-    okP N Φ cx gh d.nl (paramVis d.np) d.body = true ∧ lastOK d.body = true ∧
-    (∀ j, j < gh → N.gn j ≠ cx.self ∧ lookupScope (N.gn j) c.captured = some (.g j)) ∧
-    (∀ j name, cx.frees[j]? = some name → (∀ d' i, cx.depth ≤ d' → N.ln d' i ≠ name) ∧ name ≠ cx.self ∧ name ≠ selfKey ∧ name ≠ "" ∧
-      ∃ v w, lookupScope name c.captured = some (.cap v) ∧ Core.Fn.freeGet h hid j = some w ∧ VR CT v w) ∧
-    (∀ d' i, N.ln d' i ≠ cx.self) ∧ cx.self ≠ selfKey
+/-- the oracle's closure `c` is Core.Fn's function constant `e.fd` with the closure object `e.hid`, created in the
+context `e.cx` below the global horizon `e.gh`.  A captured copy the closure assigned in an earlier activation is
+poisoned in the oracle (what a later activation reads is not specified): nothing is demanded of it. -/
+def ClosEntry (CT : CTab) (h : List (List Val)) (n : Nat) (c : RClos) (e : CE) : Prop :=
+  ∃ (d : FDecl), Φ e.fd = some d ∧ c.name = e.cx.self ∧ c.params = params N e.cx.depth d.np ∧
+    c.body.stmts = toStmtsF N e.cx d.body ∧ 0 < e.cx.depth ∧ d.np ≤ d.nl ∧ e.gh ≤ n ∧
+    okP N Φ e.cx e.gh d.nl (paramVis d.np) d.body = true ∧ lastOK d.body = true ∧
+    (∀ j, j < e.gh → N.gn j ≠ e.cx.self ∧ lookupScope (N.gn j) c.captured = some (.g j)) ∧
+    (∀ j name, e.cx.frees[j]? = some name → (∀ d' i, e.cx.depth ≤ d' → N.ln d' i ≠ name) ∧ name ≠ e.cx.self ∧ name ≠ selfKey ∧ name ≠ "" ∧
+      (∀ i, i < e.gh → N.gn i ≠ name) ∧
+      ∃ v w, lookupScope name c.captured = some (.cap v) ∧ Core.Fn.freeGet h e.hid j = some w ∧ (v = .other "poison" ∨ VR CT v w)) ∧
+    (∀ d' i, N.ln d' i ≠ e.cx.self) ∧ e.cx.self ≠ selfKey ∧ e.cx.frees.Nodup
 
 structure Inv (CT : CTab) (n : Nat) (st : St) (σ : Sto) : Prop where
   closLen : st.clos.length = CT.length
-  clos : ∀ (k : Nat) fd hid, CT[k]? = some (fd, hid) → ∃ c, st.clos[k]? = some c ∧ ClosEntry N Φ CT σ.h n c fd hid
+  clos : ∀ (k : Nat) e, CT[k]? = some e → ∃ c, st.clos[k]? = some c ∧ ClosEntry N Φ CT σ.h n c e
   cellsLen : st.cells.length = n
   gLen : n ≤ σ.g.length
   cells : ∀ j, j < n → ∃ v w, st.cells[j]? = some v ∧ σ.g[j]? = some w ∧ VR CT v w
   fresh : ∀ i, n ≤ i → st.sites.find? (·.1 == i) = none
   heap : HR CT st.heap σ.a
+  hidInj : ∀ (k k' : Nat) (e e' : CE), CT[k]? = some e → CT[k']? = some e' → e.hid = e'.hid → k = k'
+  hidLt : ∀ (k : Nat) (e : CE), CT[k]? = some e → e.hid < σ.h.length
 
-/-- the static data of an activation -/
+/-- the static data of an activation (`act`: the oracle's list of running closure ids while this activation runs,
+its own id first) -/
 structure Act where
   c : Ctx
   gh : Nat
   nl : Nat
-  base : Env
   cx : Option (FnDef × Nat)
+  act : List Nat
 
-structure Frame (A : Act) (CT : CTab) (V : List (List Nat)) (vals : Nat → Val) (σ : Sto) : Prop where
+/-- the dynamic data of an activation on the oracle's side: the values of the local slots and the base of the
+environment (`[self, (%self, ·) :: captured]`, changed in place by an assignment to a captured variable) -/
+structure LS where
+  vals : Nat → P2sh.Val
+  base : Env
+
+def LS.upd (s : LS) (i : Nat) (v : Val) : LS := ⟨RefFn.upd s.vals i v, s.base⟩
+
+structure Frame (A : Act) (CT : CTab) (V : List (List Nat)) (vals : LS) (σ : Sto) : Prop where
   nodup : V.flatten.Nodup
-  locals : ∀ i ∈ V.flatten, ∃ w, σ.l[i]? = some w ∧ VR CT (vals i) w
+  locals : ∀ i ∈ V.flatten, ∃ w, σ.l[i]? = some w ∧ VR CT (vals.vals i) w
   lLen : σ.l.length = A.nl
-  globals : ∀ j, j < A.gh → lookupEnv (N.gn j) A.base = some (.g j)
-  self : A.c.self ≠ "" → (∀ d' i, N.ln d' i ≠ A.c.self) ∧ A.c.self ≠ selfKey ∧
-    ∃ vf fd id, lookupEnv A.c.self A.base = some (.cap vf) ∧ A.cx = some (fd, id) ∧ VR CT vf (.clos fd [] id)
+  globals : ∀ j, j < A.gh → lookupEnv (N.gn j) vals.base = some (.g j)
+  self : A.c.self ≠ "" → (∀ d' i, N.ln d' i ≠ A.c.self) ∧ A.c.self ≠ selfKey ∧ (∀ j, j < A.gh → N.gn j ≠ A.c.self) ∧
+    ∃ vf fd id, lookupEnv A.c.self vals.base = some (.cap vf) ∧ A.cx = some (fd, id) ∧ VR CT vf (.clos fd [] id)
   frees : ∀ j name, A.c.frees[j]? = some name → (∀ d' i, A.c.depth ≤ d' → N.ln d' i ≠ name) ∧ name ≠ "" ∧ name ≠ selfKey ∧
-    ∃ v w fd id, A.cx = some (fd, id) ∧ lookupEnv name A.base = some (.cap v) ∧ Core.Fn.freeGet σ.h id j = some w ∧ VR CT v w
-  infn : 0 < A.c.depth → (∃ x, A.cx = some x) ∧ isGlobalEnv A.base = false ∧ V ≠ []
+    name ≠ A.c.self ∧ (∀ i, i < A.gh → N.gn i ≠ name) ∧
+    ∃ v w fd id, A.cx = some (fd, id) ∧ lookupEnv name vals.base = some (.cap v) ∧ Core.Fn.freeGet σ.h id j = some w ∧
+      (v = .other "poison" ∨ VR CT v w)
+  freesNodup : A.c.frees.Nodup
+  infn : 0 < A.c.depth → (∃ x, A.cx = some x) ∧ isGlobalEnv vals.base = false ∧ V ≠ []
+  topg : A.c.depth = 0 → isGlobalEnv vals.base = true ∧ A.c.frees = []
+  me : ∀ fd hid, A.cx = some (fd, hid) → ∃ k, CT[k]? = some ⟨fd, hid, A.c, A.gh⟩ ∧ (k + 1) ∈ A.act ∧
+    lookupEnv selfKey vals.base = some (.cap (.clos emptyFn [] (k + 1)))
 
-structure Next (A : Act) (n : Nat) (CT : CTab) (σ : Sto) (V : List (List Nat)) (CT' : CTab) (vals' : Nat → Val) (st' : St) (σ' : Sto) : Prop where
+/-- the closure objects of the RUNNING closures are left as they were, except the object of the activation `A`
+itself -- unless that one is re-entered (it occurs twice among the running ones: then the oracle's re-entrancy rule
+makes every assignment `unc`) -/
+def Unch (A : Act) (CT : CTab) (h h' : List (List Val)) : Prop :=
+  ∀ (k : Nat) (e : CE), CT[k]? = some e → (k + 1) ∈ A.act →
+    ((∀ fd hid, A.cx = some (fd, hid) → hid ≠ e.hid) ∨ 2 ≤ A.act.count (k + 1)) → h'[e.hid]? = h[e.hid]?
+
+/-- what a call leaves alone: the closure objects of every running closure -/
+def UnchAll (CT : CTab) (act : List Nat) (h h' : List (List Val)) : Prop :=
+  ∀ (k : Nat) (e : CE), CT[k]? = some e → (k + 1) ∈ act → h'[e.hid]? = h[e.hid]?
+
+structure Next (A : Act) (n : Nat) (CT : CTab) (σ : Sto) (V : List (List Nat)) (CT' : CTab) (vals' : LS) (st' : St) (σ' : Sto) : Prop where
   ext : CT <+: CT'
-  hext : σ.h <+: σ'.h
+  hlen : σ.h.length ≤ σ'.h.length
   inv : Inv N Φ CT' n st' σ'
   frame : Frame N A CT' V vals' σ'
+  act : st'.active = A.act
+  unch : Unch A CT σ.h σ'.h
 
-theorem freeGet_prefix {h h' : List (List Val)} {id j : Nat} {w : Val} (hp : h <+: h')
-    (hg : Core.Fn.freeGet h id j = some w) : Core.Fn.freeGet h' id j = some w := by
+theorem freeGet_congr {h h' : List (List Val)} {id : Nat} (hh : h'[id]? = h[id]?) (j : Nat) :
+    Core.Fn.freeGet h' id j = Core.Fn.freeGet h id j := by
+  unfold Core.Fn.freeGet; rw [hh]
+
+theorem getElem?_prefix {α : Type} {l l' : List α} {k : Nat} {x : α} (hp : l <+: l') (h : l[k]? = some x) : l'[k]? = some x := by
   obtain ⟨t, rfl⟩ := hp
-  unfold Core.Fn.freeGet at hg ⊢
-  cases hid : h[id]? with
-  | none => simp [hid] at hg
-  | some fr =>
-    have hlt : id < h.length := by
-      rcases Nat.lt_or_ge id h.length with h1 | h1
-      · exact h1
-      · rw [List.getElem?_eq_none h1] at hid; cases hid
-    rw [List.getElem?_append_left hlt, hid]
-    simpa [hid] using hg
+  have hlt : k < l.length := by
+    rcases Nat.lt_or_ge k l.length with h1 | h1
+    · exact h1
+    · rw [List.getElem?_eq_none h1] at h; cases h
+  rw [List.getElem?_append_left hlt]; exact h
+
+theorem Unch.refl (A : Act) (CT : CTab) (h : List (List Val)) : Unch A CT h h := fun _ _ _ _ _ => rfl
+
+theorem Unch.trans {A : Act} {CT CT1 : CTab} {h h1 h2 : List (List Val)} (hp : CT <+: CT1) (a : Unch A CT h h1) (b : Unch A CT1 h1 h2) :
+    Unch A CT h h2 := fun k e hk hl hc => (b k e (getElem?_prefix hp hk) hl hc).trans (a k e hk hl hc)
 
 variable {N Φ}
 
-theorem ClosEntry.mono {CT CT' : CTab} {h h' : List (List Val)} {n n' : Nat} {c : RClos} {fd : FnDef} {hid : Nat}
-    (hc : CT <+: CT') (hh : h <+: h') (hn : n ≤ n') (he : ClosEntry N Φ CT h n c fd hid) : ClosEntry N Φ CT' h' n' c fd hid := by
-  obtain ⟨d, cx, gh, h1, h2, h3, h4, h5, h6, h7, h8, h9, h10, h11, h12⟩ := he
-  refine ⟨d, cx, gh, h1, h2, h3, h4, h5, h6, Nat.le_trans h7 hn, h8, h9, h10, ?_, h12⟩
+theorem ClosEntry.mono {CT CT' : CTab} {h h' : List (List Val)} {n n' : Nat} {c : RClos} {e : CE}
+    (hc : CT <+: CT') (hh : h'[e.hid]? = h[e.hid]?) (hn : n ≤ n') (he : ClosEntry N Φ CT h n c e) : ClosEntry N Φ CT' h' n' c e := by
+  obtain ⟨d, h1, h2, h3, h4, h5, h6, h7, h8, h9, h10, h11, h12, h13, h14⟩ := he
+  refine ⟨d, h1, h2, h3, h4, h5, h6, Nat.le_trans h7 hn, h8, h9, h10, ?_, h12, h13, h14⟩
   intro j name hj
-  obtain ⟨a1, a2, a3, a4, v, w, b1, b2, b3⟩ := h11 j name hj
-  exact ⟨a1, a2, a3, a4, v, w, b1, freeGet_prefix hh b2, b3.mono hc⟩
+  obtain ⟨a1, a2, a3, a4, a5, v, w, b1, b2, b3⟩ := h11 j name hj
+  exact ⟨a1, a2, a3, a4, a5, v, w, b1, by rw [freeGet_congr hh]; exact b2, b3.imp id (fun x => x.mono hc)⟩
 
 theorem Inv.of_gh {CT : CTab} {n : Nat} {st : St} {σ σ' : Sto} (hg : σ'.g = σ.g) (hh : σ'.h = σ.h) (ha : σ'.a = σ.a) (h : Inv N Φ CT n st σ) :
     Inv N Φ CT n st σ' :=
-  ⟨h.closLen, by rw [hh]; exact h.clos, h.cellsLen, by rw [hg]; exact h.gLen, by rw [hg]; exact h.cells, h.fresh, by rw [ha]; exact h.heap⟩
+  ⟨h.closLen, by rw [hh]; exact h.clos, h.cellsLen, by rw [hg]; exact h.gLen, by rw [hg]; exact h.cells, h.fresh, by rw [ha]; exact h.heap,
+   h.hidInj, by rw [hh]; exact h.hidLt⟩
 
 theorem Inv.setA {CT : CTab} {n : Nat} {st : St} {σ : Sto} (h : Inv N Φ CT n st σ) {hp a' : Heap} (hr : HR CT hp a') :
     Inv N Φ CT n { st with heap := hp } (σ.setA a') :=
-  ⟨h.closLen, h.clos, h.cellsLen, h.gLen, h.cells, h.fresh, hr⟩
+  ⟨h.closLen, h.clos, h.cellsLen, h.gLen, h.cells, h.fresh, hr, h.hidInj, h.hidLt⟩
 
 theorem Inv.of_active {CT : CTab} {n : Nat} {st : St} {σ : Sto} (h : Inv N Φ CT n st σ) (act : List Nat) :
     Inv N Φ CT n { st with active := act } σ :=
-  ⟨h.closLen, h.clos, h.cellsLen, h.gLen, h.cells, h.fresh, h.heap⟩
+  ⟨h.closLen, h.clos, h.cellsLen, h.gLen, h.cells, h.fresh, h.heap, h.hidInj, h.hidLt⟩
 
 theorem Inv.gset {CT : CTab} {n : Nat} {st : St} {σ : Sto} {j : Nat} {v w : Val} (h : Inv N Φ CT n st σ) (hj : j < n)
     (hv : VR CT v w) : Inv N Φ CT n { st with cells := st.cells.set j v } (σ.gset j w) := by
-  refine ⟨h.closLen, h.clos, by simp [h.cellsLen], by simp [h.gLen], ?_, h.fresh, h.heap⟩
+  refine ⟨h.closLen, h.clos, by simp [h.cellsLen], by simp [h.gLen], ?_, h.fresh, h.heap, h.hidInj, h.hidLt⟩
   intro i hi
   obtain ⟨v0, w0, h1, h2, h3⟩ := h.cells i hi
   by_cases hij : j = i
@@ -916,22 +1358,26 @@ theorem Inv.gset {CT : CTab} {n : Nat} {st : St} {σ : Sto} {j : Nat} {v w : Val
     exact ⟨v, w, by simp [hlc], by simp [hlg], hv⟩
   · exact ⟨v0, w0, by simp [List.getElem?_set_ne hij, h1], by simp [List.getElem?_set_ne hij, h2], h3⟩
 
-theorem Frame.mono {A : Act} {CT CT' : CTab} {V : List (List Nat)} {vals : Nat → Val} {σ σ' : Sto}
-    (hc : CT <+: CT') (hl : σ'.l = σ.l) (hh : σ.h <+: σ'.h) (h : Frame N A CT V vals σ) : Frame N A CT' V vals σ' := by
-  refine ⟨h.nodup, ?_, by rw [hl]; exact h.lLen, h.globals, ?_, ?_, h.infn⟩
+theorem Frame.mono {A : Act} {CT CT' : CTab} {V : List (List Nat)} {vals : LS} {σ σ' : Sto}
+    (hc : CT <+: CT') (hl : σ'.l = σ.l) (hh : ∀ fd hid, A.cx = some (fd, hid) → σ'.h[hid]? = σ.h[hid]?)
+    (h : Frame N A CT V vals σ) : Frame N A CT' V vals σ' := by
+  refine ⟨h.nodup, ?_, by rw [hl]; exact h.lLen, h.globals, ?_, ?_, h.freesNodup, h.infn, h.topg, ?_⟩
   · intro i hi
     obtain ⟨w, h1, h2⟩ := h.locals i hi
     exact ⟨w, by rw [hl]; exact h1, h2.mono hc⟩
   · intro hs
-    obtain ⟨h0, h0', vf, fd, id, h1, h2, h3⟩ := h.self hs
-    exact ⟨h0, h0', vf, fd, id, h1, h2, h3.mono hc⟩
+    obtain ⟨h0, h0', h0'', vf, fd, id, h1, h2, h3⟩ := h.self hs
+    exact ⟨h0, h0', h0'', vf, fd, id, h1, h2, h3.mono hc⟩
   · intro j name hj
-    obtain ⟨h0, h0a, h0b, v, w, fd, id, h1, h2, h3, h4⟩ := h.frees j name hj
-    exact ⟨h0, h0a, h0b, v, w, fd, id, h1, h2, freeGet_prefix hh h3, h4.mono hc⟩
+    obtain ⟨h0, h0a, h0b, h0c, h0d, v, w, fd, id, h1, h2, h3, h4⟩ := h.frees j name hj
+    exact ⟨h0, h0a, h0b, h0c, h0d, v, w, fd, id, h1, h2, by rw [freeGet_congr (hh fd id h1)]; exact h3, h4.imp (fun x => x) (fun x => x.mono hc)⟩
+  · intro fd hid hcx
+    obtain ⟨k, hk, ha, hl'⟩ := h.me fd hid hcx
+    exact ⟨k, getElem?_prefix hc hk, ha, hl'⟩
 
-theorem Frame.lset {A : Act} {CT : CTab} {V : List (List Nat)} {vals : Nat → Val} {σ : Sto} {i : Nat} {v w : Val}
-    (h : Frame N A CT V vals σ) (hv : VR CT v w) : Frame N A CT V (upd vals i v) (σ.lset i w) := by
-  refine ⟨h.nodup, ?_, by simp [h.lLen], h.globals, h.self, h.frees, h.infn⟩
+theorem Frame.lset {A : Act} {CT : CTab} {V : List (List Nat)} {vals : LS} {σ : Sto} {i : Nat} {v w : Val}
+    (h : Frame N A CT V vals σ) (hv : VR CT v w) : Frame N A CT V (vals.upd i v) (σ.lset i w) := by
+  refine ⟨h.nodup, ?_, by simp [h.lLen], h.globals, h.self, h.frees, h.freesNodup, h.infn, h.topg, h.me⟩
   intro j hj
   obtain ⟨w0, h1, h2⟩ := h.locals j hj
   by_cases hij : j = i
@@ -940,76 +1386,98 @@ theorem Frame.lset {A : Act} {CT : CTab} {V : List (List Nat)} {vals : Nat → V
       rcases Nat.lt_or_ge j σ.l.length with h3 | h3
       · exact h3
       · rw [List.getElem?_eq_none h3] at h1; cases h1
-    exact ⟨w, by simp [hlt], by simpa [upd] using hv⟩
-  · exact ⟨w0, by simp [List.getElem?_set_ne (Ne.symm hij), h1], by simpa [upd, hij] using h2⟩
+    exact ⟨w, by simp [hlt], by simpa [LS.upd, upd] using hv⟩
+  · exact ⟨w0, by simp [List.getElem?_set_ne (Ne.symm hij), h1], by simpa [LS.upd, upd, hij] using h2⟩
 
-theorem Frame.bindL {A : Act} {CT : CTab} {V0 : List Nat} {Vt : List (List Nat)} {vals : Nat → Val} {σ : Sto} {i : Nat} {v w : Val}
+theorem Frame.bindL {A : Act} {CT : CTab} {V0 : List Nat} {Vt : List (List Nat)} {vals : LS} {σ : Sto} {i : Nat} {v w : Val}
     (h : Frame N A CT (V0 :: Vt) vals σ) (hv : VR CT v w) (hi : i ∉ (V0 :: Vt).flatten) (hlt : i < σ.l.length) :
-    Frame N A CT ((i :: V0) :: Vt) (upd vals i v) (σ.lset i w) := by
+    Frame N A CT ((i :: V0) :: Vt) (vals.upd i v) (σ.lset i w) := by
   have h' := h.lset (i := i) hv
-  refine ⟨?_, ?_, h'.lLen, h.globals, h.self, h.frees, fun hd => ⟨(h.infn hd).1, (h.infn hd).2.1, by simp⟩⟩
+  refine ⟨?_, ?_, h'.lLen, h.globals, h.self, h.frees, h.freesNodup, fun hd => ⟨(h.infn hd).1, (h.infn hd).2.1, by simp⟩, h.topg, h.me⟩
   · have := h.nodup
     simp only [List.flatten_cons, List.cons_append] at this hi ⊢
     exact List.nodup_cons.mpr ⟨hi, this⟩
   · intro j hj
     simp only [List.flatten_cons, List.cons_append, List.mem_cons] at hj
     rcases hj with rfl | hj
-    · exact ⟨w, by simp [hlt], by simpa [upd] using hv⟩
+    · exact ⟨w, by simp [hlt], by simpa [LS.upd, upd] using hv⟩
     · exact h'.locals j (by simpa using hj)
 
-theorem Frame.push {A : Act} {CT : CTab} {V : List (List Nat)} {vals : Nat → Val} {σ : Sto}
+theorem Frame.push {A : Act} {CT : CTab} {V : List (List Nat)} {vals : LS} {σ : Sto}
     (h : Frame N A CT V vals σ) : Frame N A CT ([] :: V) vals σ :=
-  ⟨by simpa using h.nodup, by simpa using h.locals, h.lLen, h.globals, h.self, h.frees,
-   fun hd => ⟨(h.infn hd).1, (h.infn hd).2.1, by simp⟩⟩
+  ⟨by simpa using h.nodup, by simpa using h.locals, h.lLen, h.globals, h.self, h.frees, h.freesNodup,
+   fun hd => ⟨(h.infn hd).1, (h.infn hd).2.1, by simp⟩, h.topg, h.me⟩
 
-theorem Frame.pop {A : Act} {CT : CTab} {V0 : List Nat} {V : List (List Nat)} {vals : Nat → Val} {σ : Sto}
+theorem Frame.pop {A : Act} {CT : CTab} {V0 : List Nat} {V : List (List Nat)} {vals : LS} {σ : Sto}
     (h : Frame N A CT (V0 :: V) vals σ) (hne : 0 < A.c.depth → V ≠ []) : Frame N A CT V vals σ := by
-  refine ⟨?_, ?_, h.lLen, h.globals, h.self, h.frees, fun hd => ⟨(h.infn hd).1, (h.infn hd).2.1, hne hd⟩⟩
+  refine ⟨?_, ?_, h.lLen, h.globals, h.self, h.frees, h.freesNodup, fun hd => ⟨(h.infn hd).1, (h.infn hd).2.1, hne hd⟩, h.topg, h.me⟩
   · have := h.nodup
     simp only [List.flatten_cons] at this
     exact (List.nodup_append.mp this).2.1
   · intro i hi
     exact h.locals i (by simp [hi])
 
-theorem Next.refl {A : Act} {n : Nat} {CT : CTab} {σ : Sto} {V : List (List Nat)} {vals : Nat → Val} {st : St}
-    (hI : Inv N Φ CT n st σ) (hF : Frame N A CT V vals σ) : Next N Φ A n CT σ V CT vals st σ :=
-  ⟨List.prefix_refl _, List.prefix_refl _, hI, hF⟩
+theorem Next.refl {A : Act} {n : Nat} {CT : CTab} {σ : Sto} {V : List (List Nat)} {vals : LS} {st : St}
+    (hI : Inv N Φ CT n st σ) (hF : Frame N A CT V vals σ) (hL : st.active = A.act) : Next N Φ A n CT σ V CT vals st σ :=
+  ⟨List.prefix_refl _, Nat.le_refl _, hI, hF, hL, Unch.refl _ _ _⟩
 
-theorem Next.trans {A : Act} {n : Nat} {CT CT1 CT2 : CTab} {σ σ1 σ2 : Sto} {V V' : List (List Nat)} {vals1 vals2 : Nat → Val} {st1 st2 : St}
+theorem Next.trans {A : Act} {n : Nat} {CT CT1 CT2 : CTab} {σ σ1 σ2 : Sto} {V V' : List (List Nat)} {vals1 vals2 : LS} {st1 st2 : St}
     (h1 : Next N Φ A n CT σ V CT1 vals1 st1 σ1) (h2 : Next N Φ A n CT1 σ1 V' CT2 vals2 st2 σ2) :
     Next N Φ A n CT σ V' CT2 vals2 st2 σ2 :=
-  ⟨h1.ext.trans h2.ext, h1.hext.trans h2.hext, h2.inv, h2.frame⟩
+  ⟨h1.ext.trans h2.ext, Nat.le_trans h1.hlen h2.hlen, h2.inv, h2.frame, h2.act, h1.unch.trans h1.ext h2.unch⟩
+
+/-- a step that leaves the closure objects alone -/
+theorem Next.same {A : Act} {n : Nat} {CT CT1 : CTab} {σ σ1 σ' : Sto} {V V' : List (List Nat)} {vals1 vals' : LS} {st1 st' : St}
+    (h1 : Next N Φ A n CT σ V CT1 vals1 st1 σ1) (hh : σ'.h = σ1.h) (ha : st'.active = A.act) (hI : Inv N Φ CT1 n st' σ')
+    (hF : Frame N A CT1 V' vals' σ') : Next N Φ A n CT σ V' CT1 vals' st' σ' :=
+  ⟨h1.ext, by rw [hh]; exact h1.hlen, hI, hF, ha, by rw [hh]; exact h1.unch⟩
 
 theorem freeGet_new (h : List (List Val)) (ws : List Val) (j : Nat) : Core.Fn.freeGet (h ++ [ws]) h.length j = ws[j]? := by
   simp [Core.Fn.freeGet]
 
+theorem getElem?_push_lt {h : List (List Val)} {ws : List Val} {i : Nat} (hi : i < h.length) : (h ++ [ws])[i]? = h[i]? :=
+  List.getElem?_append_left hi
+
 /-- a new closure: the table, the oracle's closure list and the closure heap grow by one entry -/
-theorem Inv.pushClos {CT : CTab} {n : Nat} {st : St} {σ : Sto} (hI : Inv N Φ CT n st σ) (c : RClos) (fd : FnDef) (ws : List Val)
-    (he : ClosEntry N Φ (CT ++ [(fd, σ.h.length)]) (σ.h ++ [ws]) n c fd σ.h.length) :
-    Inv N Φ (CT ++ [(fd, σ.h.length)]) n { st with clos := st.clos ++ [c] } (σ.pushH ws) := by
-  have hp : CT <+: CT ++ [(fd, σ.h.length)] := List.prefix_append _ _
-  have hh : σ.h <+: σ.h ++ [ws] := List.prefix_append _ _
-  refine ⟨by simp [hI.closLen], ?_, hI.cellsLen, hI.gLen, ?_, hI.fresh, hI.heap.mono hp⟩
-  · intro k fd' hid' hk
+theorem Inv.pushClos {CT : CTab} {n : Nat} {st : St} {σ : Sto} (hI : Inv N Φ CT n st σ) (c : RClos) (e : CE) (ws : List Val)
+    (hid : e.hid = σ.h.length) (he : ClosEntry N Φ (CT ++ [e]) (σ.h ++ [ws]) n c e) :
+    Inv N Φ (CT ++ [e]) n { st with clos := st.clos ++ [c] } (σ.pushH ws) := by
+  have hp : CT <+: CT ++ [e] := List.prefix_append _ _
+  have hget : ∀ k e', (CT ++ [e])[k]? = some e' → (k < CT.length ∧ CT[k]? = some e') ∨ (k = CT.length ∧ e' = e) := by
+    intro k e' hk
     by_cases hlt : k < CT.length
-    · rw [List.getElem?_append_left hlt] at hk
-      obtain ⟨c0, hc0, he0⟩ := hI.clos k fd' hid' hk
-      refine ⟨c0, ?_, he0.mono hp hh (Nat.le_refl _)⟩
-      show (st.clos ++ [c])[k]? = some c0
-      rw [List.getElem?_append_left (by rw [hI.closLen]; exact hlt)]; exact hc0
+    · rw [List.getElem?_append_left hlt] at hk; exact .inl ⟨hlt, hk⟩
     · have hk' : k = CT.length := by
         rcases Nat.lt_or_ge k (CT.length + 1) with h1 | h1
         · omega
         · rw [List.getElem?_eq_none (by simp; omega)] at hk; cases hk
       subst hk'
-      simp only [List.getElem?_concat_length, Option.some.injEq, Prod.mk.injEq] at hk
-      obtain ⟨rfl, rfl⟩ := hk
-      refine ⟨c, ?_, he⟩
+      simp only [List.getElem?_concat_length, Option.some.injEq] at hk
+      exact .inr ⟨rfl, hk.symm⟩
+  refine ⟨by simp [hI.closLen], ?_, hI.cellsLen, hI.gLen, ?_, hI.fresh, hI.heap.mono hp, ?_, ?_⟩
+  · intro k e' hk
+    rcases hget k e' hk with ⟨hlt, hk0⟩ | ⟨rfl, rfl⟩
+    · obtain ⟨c0, hc0, he0⟩ := hI.clos k e' hk0
+      refine ⟨c0, ?_, he0.mono hp (getElem?_push_lt (hI.hidLt k e' hk0)) (Nat.le_refl _)⟩
+      show (st.clos ++ [c])[k]? = some c0
+      rw [List.getElem?_append_left (by rw [hI.closLen]; exact hlt)]; exact hc0
+    · refine ⟨c, ?_, he⟩
       show (st.clos ++ [c])[CT.length]? = some c
       rw [← hI.closLen]; simp
   · intro j hj
     obtain ⟨v, w, h1, h2, h3⟩ := hI.cells j hj
     exact ⟨v, w, h1, h2, h3.mono hp⟩
+  · intro k k' e1 e2 hk hk' heq
+    rcases hget k e1 hk with ⟨hlt, hk0⟩ | ⟨rfl, rfl⟩ <;> rcases hget k' e2 hk' with ⟨hlt', hk0'⟩ | ⟨rfl, rfl⟩
+    · exact hI.hidInj k k' e1 e2 hk0 hk0' heq
+    · have := hI.hidLt k e1 hk0; omega
+    · have := hI.hidLt k' e2 hk0'; omega
+    · rfl
+  · intro k e' hk
+    show e'.hid < (σ.h ++ [ws]).length
+    rcases hget k e' hk with ⟨hlt, hk0⟩ | ⟨rfl, rfl⟩
+    · have := hI.hidLt k e' hk0; simp; omega
+    · simp; omega
 
 end Rel
 
@@ -1018,7 +1486,7 @@ end Rel
 section Main
 variable (N : Names) (Φ : FnDef → Option FDecl)
 
-def envOf (A : Act) (V : List (List Nat)) (vals : Nat → Val) : Env := mkEnv (N.ln A.c.depth) V vals A.base
+def envOf (A : Act) (V : List (List Nat)) (vals : LS) : Env := mkEnv (N.ln A.c.depth) V vals.vals vals.base
 
 def EQ (A : Act) (n : Nat) (CT : CTab) (σ : Sto) (V : List (List Nat)) (r : R Val) (y : Val × Sto) (st' : St) : Prop :=
   ∃ v vals' CT', r = .val v (envOf N A V vals') ∧ VR CT' v y.1 ∧ Next N Φ A n CT σ V CT' vals' st' y.2
@@ -1052,8 +1520,9 @@ def BQ (A : Act) (n : Nat) (CT : CTab) (σ : Sto) (V : List (List Nat)) (ss : Li
   ∃ vals' CT', r.2.2 = envOf N A V vals' ∧ FR CT' r.1 y.2.1 ∧ Next N Φ A n CT σ V CT' vals' st' y.1 ∧
     (y.2.1 = .normal → VR CT' r.2.1 y.2.2 ∧ NormalOK ss y.2.2)
 
-def CQ (n : Nat) (CT : CTab) (σ : Sto) (r : Val) (y : Val × Sto) (st' : St) : Prop :=
-  ∃ CT', VR CT' r y.1 ∧ CT <+: CT' ∧ σ.h <+: y.2.h ∧ Inv N Φ CT' n st' y.2 ∧ y.2.l = σ.l
+def CQ (n : Nat) (CT : CTab) (σ : Sto) (act : List Nat) (r : Val) (y : Val × Sto) (st' : St) : Prop :=
+  ∃ CT', VR CT' r y.1 ∧ CT <+: CT' ∧ σ.h.length ≤ y.2.h.length ∧ UnchAll CT act σ.h y.2.h ∧ st'.active = act ∧
+    Inv N Φ CT' n st' y.2 ∧ y.2.l = σ.l
 
 def mkLoopF (l : Nat) (lbl : Option String) : Option FExpr → List FStmt → FStmt
   | none, body => .loopS l lbl body
@@ -1064,31 +1533,31 @@ noncomputable def condOKF (N : Names) (Φ : FnDef → Option FDecl) (c : Ctx) (g
   | some e => okE N Φ c gh nl vis e
 
 structure AllOK (fuel : Nat) : Prop where
-  E : ∀ (A : Act) n CT V vals st σ e, Inv N Φ CT n st σ → Frame N A CT V vals σ → A.gh ≤ n →
+  E : ∀ (A : Act) n CT V vals st σ e, Inv N Φ CT n st σ → Frame N A CT V vals σ → A.gh ≤ n → st.active = A.act →
     okE N Φ A.c A.gh A.nl V.flatten e = true →
     Post (EQe N Φ e A n CT σ V) (fun k => Core.Fn.evalE Φ k A.cx σ e) (run (Ref.evalE fuel (envOf N A V vals) (toAstF N A.c e)) st)
-  Arms : ∀ (A : Act) n CT V vals st σ v w arms, Inv N Φ CT n st σ → Frame N A CT V vals σ → A.gh ≤ n →
+  Arms : ∀ (A : Act) n CT V vals st σ v w arms, Inv N Φ CT n st σ → Frame N A CT V vals σ → A.gh ≤ n → st.active = A.act →
     okArms N Φ A.c A.gh A.nl V.flatten arms = true → SR CT v w →
     Post (EQ N Φ A n CT σ V) (fun k => Core.Fn.evalArms Φ k A.cx σ w arms)
       (run (Ref.evalArms fuel (envOf N A V vals) v (toArmsF N A.c arms)) st)
-  Args : ∀ (A : Act) n CT V vals st σ e, Inv N Φ CT n st σ → Frame N A CT V vals σ → A.gh ≤ n →
+  Args : ∀ (A : Act) n CT V vals st σ e, Inv N Φ CT n st σ → Frame N A CT V vals σ → A.gh ≤ n → st.active = A.act →
     okArgs N Φ A.c A.gh A.nl V.flatten e = true →
     Post (AQ N Φ A n CT σ V) (fun k => Core.Fn.evalArgs Φ k A.cx σ e) (run (Ref.evalArgs fuel (envOf N A V vals) (toArgsF N A.c e)) st)
-  S : ∀ (A : Act) n CT V vals st σ s, Inv N Φ CT n st σ → Frame N A CT V vals σ → A.gh ≤ n →
+  S : ∀ (A : Act) n CT V vals st σ s, Inv N Φ CT n st σ → Frame N A CT V vals σ → A.gh ≤ n → st.active = A.act →
     okS N Φ A.c A.gh A.nl V.flatten s = true →
     Post (SQ N Φ A n CT σ V [s]) (fun k => Core.Fn.evalS Φ k A.cx σ s) (run (Ref.evalStmt fuel (envOf N A V vals) (toStmtF N A.c s)) st)
-  P : ∀ (A : Act) n CT V vals st σ ss last, Inv N Φ CT n st σ → Frame N A CT V vals σ → A.gh ≤ n →
+  P : ∀ (A : Act) n CT V vals st σ ss last, Inv N Φ CT n st σ → Frame N A CT V vals σ → A.gh ≤ n → st.active = A.act →
     okP N Φ A.c A.gh A.nl V.flatten ss = true → (ss = [] → last = .null) →
     Post (SQ N Φ A n CT σ V ss) (fun k => Core.Fn.evalP Φ k A.cx σ ss) (run (Ref.evalStmts fuel (envOf N A V vals) (toStmtsF N A.c ss) last) st)
-  B : ∀ (A : Act) n CT V vals st σ ss l, Inv N Φ CT n st σ → Frame N A CT V vals σ → A.gh ≤ n →
+  B : ∀ (A : Act) n CT V vals st σ ss l, Inv N Φ CT n st σ → Frame N A CT V vals σ → A.gh ≤ n → st.active = A.act →
     okP N Φ A.c A.gh A.nl V.flatten ss = true →
     Post (BQ N Φ A n CT σ V ss) (fun k => Core.Fn.evalP Φ k A.cx σ ss) (run (Ref.evalBlock fuel (envOf N A V vals) (.mk l (toStmtsF N A.c ss))) st)
-  L : ∀ (A : Act) n CT V vals st σ l lbl cond body, Inv N Φ CT n st σ → Frame N A CT V vals σ → A.gh ≤ n →
+  L : ∀ (A : Act) n CT V vals st σ l lbl cond body, Inv N Φ CT n st σ → Frame N A CT V vals σ → A.gh ≤ n → st.active = A.act →
     condOKF N Φ A.c A.gh A.nl V.flatten cond = true → okP N Φ A.c A.gh A.nl V.flatten body = true →
     Post (BQ N Φ A n CT σ V [mkLoopF l lbl cond body]) (fun k => Core.Fn.evalS Φ k A.cx σ (mkLoopF l lbl cond body))
       (run (Ref.evalLoop fuel (envOf N A V vals) lbl (cond.map (toAstF N A.c)) (.mk l (toStmtsF N A.c body))) st)
   C : ∀ n CT st σ l vf wf vargs wargs, Inv N Φ CT n st σ → VR CT vf wf → VRs CT vargs wargs →
-    Post (CQ N Φ n CT σ) (fun k => callF Φ k wf wargs σ) (run (Ref.callValue fuel l vf vargs) st)
+    Post (CQ N Φ n CT σ st.active) (fun k => callF Φ k wf wargs σ) (run (Ref.callValue fuel l vf vargs) st)
 
 theorem callValue_zero (l : Nat) (vf : Val) (vargs : List Val) : callValue 0 l vf vargs = throw .fuel := by rw [callValue]
 
@@ -1105,30 +1574,30 @@ theorem all_zero : AllOK N Φ 0 := by
 
 variable {N Φ} (hN : NamesOK N)
 
-theorem AllOK.E' {fuel : Nat} (h : AllOK N Φ fuel) (A : Act) (n : Nat) (CT : CTab) (V : List (List Nat)) (vals : Nat → Val) (st : St) (σ : Sto)
-    (e : FExpr) (hI : Inv N Φ CT n st σ) (hF : Frame N A CT V vals σ) (hgh : A.gh ≤ n)
+theorem AllOK.E' {fuel : Nat} (h : AllOK N Φ fuel) (A : Act) (n : Nat) (CT : CTab) (V : List (List Nat)) (vals : LS) (st : St) (σ : Sto)
+    (e : FExpr) (hI : Inv N Φ CT n st σ) (hF : Frame N A CT V vals σ) (hgh : A.gh ≤ n) (hL : st.active = A.act)
     (hok : okE N Φ A.c A.gh A.nl V.flatten e = true) :
     Post (EQ N Φ A n CT σ V) (fun k => Core.Fn.evalE Φ k A.cx σ e) (run (Ref.evalE fuel (envOf N A V vals) (toAstF N A.c e)) st) :=
-  Post.mono (fun _ _ _ h => h.1) (h.E A n CT V vals st σ e hI hF hgh hok)
+  Post.mono (fun _ _ _ h => h.1) (h.E A n CT V vals st σ e hI hF hgh hL hok)
 
 theorem NAQ.scalar {e : FExpr} {v : Val} {env : Env} (hs : isScalar v = true) : NAQ e (.val v env) :=
   fun _ v' env' h => by cases h; exact notArr_of_scalar hs
 
 include hN in
-theorem lookup_global {A : Act} {CT : CTab} {V : List (List Nat)} {vals : Nat → Val} {σ : Sto} (hF : Frame N A CT V vals σ)
+theorem lookup_global {A : Act} {CT : CTab} {V : List (List Nat)} {vals : LS} {σ : Sto} (hF : Frame N A CT V vals σ)
     {j : Nat} (hj : j < A.gh) : lookupEnv (N.gn j) (envOf N A V vals) = some (.g j) := by
   unfold envOf
   rw [lookupEnv_mkEnv_other (fun i => (hN.gn_ln j _ i).symm)]
   exact hF.globals j hj
 
 include hN in
-theorem lookup_local {A : Act} {V : List (List Nat)} {vals : Nat → Val} {i : Nat} (hi : i ∈ V.flatten) :
-    lookupEnv (N.ln A.c.depth i) (envOf N A V vals) = some (.l (vals i)) :=
+theorem lookup_local {A : Act} {V : List (List Nat)} {vals : LS} {i : Nat} (hi : i ∈ V.flatten) :
+    lookupEnv (N.ln A.c.depth i) (envOf N A V vals) = some (.l (vals.vals i)) :=
   lookupEnv_mkEnv_mem (fun a b h => (hN.ln_inj _ _ a b h).2) hi
 
 include hN in
-theorem upd_local {A : Act} {V : List (List Nat)} {vals : Nat → Val} {i : Nat} {v : Val} (hi : i ∈ V.flatten) (hnd : V.flatten.Nodup) :
-    updEnv (N.ln A.c.depth i) v (envOf N A V vals) = some (envOf N A V (upd vals i v)) :=
+theorem upd_local {A : Act} {V : List (List Nat)} {vals : LS} {i : Nat} {v : Val} (hi : i ∈ V.flatten) (hnd : V.flatten.Nodup) :
+    updEnv (N.ln A.c.depth i) v (envOf N A V vals) = some (envOf N A V (vals.upd i v)) :=
   updEnv_mkEnv (fun a b h => (hN.ln_inj _ _ a b h).2) hi hnd
 
 theorem mono_callF (wf : Val) (ws : List Val) (σ : Sto) : FMono (fun k => callF Φ k wf ws σ) := by
@@ -1153,15 +1622,16 @@ theorem mono_callF (wf : Val) (ws : List Val) (σ : Sto) : FMono (fun k => callF
 
 include hN in
 /-- a captured variable: its current value in the creating activation, on both sides -/
-theorem cap_ok {A : Act} {CT : CTab} {V : List (List Nat)} {vals : Nat → Val} {σ : Sto} (hF : Frame N A CT V vals σ)
+theorem cap_ok {A : Act} {CT : CTab} {V : List (List Nat)} {vals : LS} {σ : Sto} (hF : Frame N A CT V vals σ)
     (cap : Cap) (hc : okCap A.c V.flatten cap = true) :
     ∃ v w, Core.Fn.capVal A.cx σ cap = some w ∧ (lookupEnv (capName N A.c cap) (envOf N A V vals)).map capB = some (.cap v) ∧
-      VR CT v w ∧ (∀ d' i, A.c.depth + 1 ≤ d' → N.ln d' i ≠ capName N A.c cap) ∧ capName N A.c cap ≠ "" ∧ capName N A.c cap ≠ selfKey := by
+      (v = .other "poison" ∨ VR CT v w) ∧ (∀ d' i, A.c.depth + 1 ≤ d' → N.ln d' i ≠ capName N A.c cap) ∧ capName N A.c cap ≠ "" ∧
+      capName N A.c cap ≠ selfKey ∧ (∀ i, i < A.gh → N.gn i ≠ capName N A.c cap) := by
   cases cap with
   | loc i =>
     simp only [okCap, List.contains_iff_mem] at hc
     obtain ⟨w, hw, hvr⟩ := hF.locals i hc
-    refine ⟨vals i, w, hw, by rw [capName, lookup_local hN hc]; rfl, hvr, ?_, hN.ln_ne _ _, hN.ln_key _ _⟩
+    refine ⟨vals.vals i, w, hw, by rw [capName, lookup_local hN hc]; rfl, .inr hvr, ?_, hN.ln_ne _ _, hN.ln_key _ _, fun i' _ => hN.gn_ln i' _ _⟩
     intro d' i' hd h
     have := (hN.ln_inj _ _ _ _ h).1
     omega
@@ -1169,25 +1639,26 @@ theorem cap_ok {A : Act} {CT : CTab} {V : List (List Nat)} {vals : Nat → Val} 
     simp only [okCap, decide_eq_true_eq] at hc
     have hj : A.c.frees[j]? = some (A.c.frees.getD j "") := by
       rw [List.getD_eq_getElem?_getD, List.getElem?_eq_getElem hc]; rfl
-    obtain ⟨h0, h1, h2, v, w, fd, id, hcx, hlk, hfg, hvr⟩ := hF.frees j _ hj
-    refine ⟨v, w, by simp [Core.Fn.capVal, hcx, hfg], ?_, hvr, fun d' i hd => h0 d' i (by omega), h1, h2⟩
+    obtain ⟨h0, h1, h2, -, h4, v, w, fd, id, hcx, hlk, hfg, hvr⟩ := hF.frees j _ hj
+    refine ⟨v, w, by simp [Core.Fn.capVal, hcx, hfg], ?_, hvr, fun d' i hd => h0 d' i (by omega), h1, h2, h4⟩
     show (lookupEnv (A.c.frees.getD j "") (envOf N A V vals)).map capB = _
     unfold envOf
     rw [lookupEnv_mkEnv_other (fun i => h0 _ i (Nat.le_refl _)), hlk]; rfl
   | self =>
     simp only [okCap, bne_iff_ne, ne_eq] at hc
-    obtain ⟨h0, h1, vf, fd, id, hlk, hcx, hvr⟩ := hF.self hc
-    refine ⟨vf, .clos fd [] id, by simp [Core.Fn.capVal, hcx], ?_, hvr, fun d' i _ => h0 d' i, hc, h1⟩
+    obtain ⟨h0, h1, h1', vf, fd, id, hlk, hcx, hvr⟩ := hF.self hc
+    refine ⟨vf, .clos fd [] id, by simp [Core.Fn.capVal, hcx], ?_, .inr hvr, fun d' i _ => h0 d' i, hc, h1, h1'⟩
     show (lookupEnv A.c.self (envOf N A V vals)).map capB = _
     unfold envOf
     rw [lookupEnv_mkEnv_other (fun i => h0 _ i), hlk]; rfl
 
 include hN in
-theorem caps_ok {A : Act} {CT : CTab} {V : List (List Nat)} {vals : Nat → Val} {σ : Sto} (hF : Frame N A CT V vals σ) :
+theorem caps_ok {A : Act} {CT : CTab} {V : List (List Nat)} {vals : LS} {σ : Sto} (hF : Frame N A CT V vals σ) :
     ∀ caps : List Cap, caps.all (okCap A.c V.flatten) = true →
     ∃ ws : List Val, Core.Fn.capVals A.cx σ caps = some ws ∧ ∀ (j : Nat) cap, caps[j]? = some cap → ∃ v w,
-      (lookupEnv (capName N A.c cap) (envOf N A V vals)).map capB = some (.cap v) ∧ ws[j]? = some w ∧ VR CT v w ∧
-      (∀ d' i, A.c.depth + 1 ≤ d' → N.ln d' i ≠ capName N A.c cap) ∧ capName N A.c cap ≠ "" ∧ capName N A.c cap ≠ selfKey
+      (lookupEnv (capName N A.c cap) (envOf N A V vals)).map capB = some (.cap v) ∧ ws[j]? = some w ∧ (v = .other "poison" ∨ VR CT v w) ∧
+      (∀ d' i, A.c.depth + 1 ≤ d' → N.ln d' i ≠ capName N A.c cap) ∧ capName N A.c cap ≠ "" ∧ capName N A.c cap ≠ selfKey ∧
+      (∀ i, i < A.gh → N.gn i ≠ capName N A.c cap)
   | [], _ => ⟨[], rfl, fun j cap h => by simp at h⟩
   | cap :: rest, h => by
     simp only [List.all_cons, Bool.and_eq_true] at h
@@ -1205,55 +1676,68 @@ theorem caps_ok {A : Act} {CT : CTab} {V : List (List Nat)} {vals : Nat → Val}
       exact ⟨v', w', a1, by simpa using a2, a3⟩
 
 /-- the shape shared by `a op b`, `a < b`, `a <= b` (`x` is evaluated first) -/
-theorem binop_ok {f : Nat} (hE : AllOK N Φ f) (A : Act) (n : Nat) (CT : CTab) (V : List (List Nat)) (vals : Nat → Val) (st : St) (σ : Sto)
-    (x y : FExpr) (op : Operator) (line : Nat) (hI : Inv N Φ CT n st σ) (hF : Frame N A CT V vals σ) (hgh : A.gh ≤ n)
+theorem binop_ok {f : Nat} (hE : AllOK N Φ f) (A : Act) (n : Nat) (CT : CTab) (V : List (List Nat)) (vals : LS) (st : St) (σ : Sto)
+    (x y : FExpr) (op : Operator) (line : Nat) (hI : Inv N Φ CT n st σ) (hF : Frame N A CT V vals σ) (hgh : A.gh ≤ n) (hL : st.active = A.act)
     (hx : okE N Φ A.c A.gh A.nl V.flatten x = true) (hy : okE N Φ A.c A.gh A.nl V.flatten y = true)
     (hdeep : isDeep op = true → nonArrE x = true ∨ nonArrE y = true) :
-    Post (fun r y s => EQ N Φ A n CT σ V r y s ∧ ∀ v env, r = .val v env → isArrV v = false) (fun k => (Core.Fn.evalE Φ k A.cx σ x).bind fun p => (Core.Fn.evalE Φ k A.cx p.2 y).bind (opK op p.1))
+    Post (fun r y s => EQ N Φ A n CT σ V r y s ∧ (op ≠ .add → ∀ v env, r = .val v env → isArrV v = false)) (fun k => (Core.Fn.evalE Φ k A.cx σ x).bind fun p => (Core.Fn.evalE Φ k A.cx p.2 y).bind (opK op p.1))
       (run (bindR (Ref.evalE f (envOf N A V vals) (toAstF N A.c x)) fun vx env =>
         bindR (Ref.evalE f env (toAstF N A.c y)) fun vy env =>
           applyBinary line (specOp op) vx vy >>= fun r => pure (.val r env)) st) := by
   unfold bindR
-  refine Post.bind (mono_E _ _ _ _) (fun p => FMono.bind (mono_E _ _ _ _) (fun _ => FMono.const _)) (hE.E A n CT V vals st σ x hI hF hgh hx) ?_
+  refine Post.bind (mono_E _ _ _ _) (fun p => FMono.bind (mono_E _ _ _ _) (fun _ => FMono.const _)) (hE.E A n CT V vals st σ x hI hF hgh hL hx) ?_
   rintro r ⟨wx, σ1⟩ s1 ⟨⟨vx, vals1, CT1, rfl, hvx, hn1⟩, hna1⟩
   dsimp only
-  refine Post.bind (mono_E _ _ _ _) (fun _ => FMono.const _) (hE.E A n CT1 V vals1 s1 σ1 y hn1.inv hn1.frame hgh hy) ?_
+  refine Post.bind (mono_E _ _ _ _) (fun _ => FMono.const _) (hE.E A n CT1 V vals1 s1 σ1 y hn1.inv hn1.frame hgh hn1.act hy) ?_
   rintro r ⟨wy, σ2⟩ s2 ⟨⟨vy, vals2, CT2, rfl, hvy, hn2⟩, hna2⟩
   dsimp only
   have hd : isDeep op = true → isArrV vx = false ∨ isArrV vy = false := fun h =>
     (hdeep h).elim (fun h1 => .inl (hna1 h1 _ _ rfl)) (fun h2 => .inr (hna2 h2 _ _ rfl))
-  have hb := binary_bridge (s := s2) (a := σ2.a) line op (hvx.mono hn2.ext) hvy hd
+  have hb := binary_bridge (s := s2) (a := σ2.a) hn2.inv.heap line op (hvx.mono hn2.ext) hvy hd
   rw [run_bind]
   generalize run (applyBinary line (specOp op) vx vy) s2 = o at hb ⊢
   rcases o with ⟨er | r, s3⟩
   · cases er
     · intro k; simp [opK, show Core.Fn.opH σ2.a op wx wy = .fail from hb]
     all_goals exact True.intro
-  · obtain ⟨rfl, hs, hop⟩ := hb
-    exact Post.ok 0 (r, σ2) (by simp [opK, hop]) ⟨⟨r, vals2, CT2, rfl, VR.scalar hs, hn1.trans hn2⟩, fun v env h => by cases h; exact notArr_of_scalar hs⟩
+  · rcases hb with ⟨rfl, hs, hop⟩ | ⟨hadd, X, Y, hXY, rfl, rfl, hop⟩
+    · exact Post.ok 0 (r, σ2) (by simp [opK, hop]) ⟨⟨r, vals2, CT2, rfl, VR.scalar hs, hn1.trans hn2⟩, fun _ v env h => by cases h; exact notArr_of_scalar hs⟩
+    · have hH := hn2.inv.heap
+      have hfr2 : Frame N A CT2 V vals2 σ2 := hn2.frame
+      have hiv2 : Inv N Φ CT2 n s2 σ2 := hn2.inv
+      have hvr : VR CT2 (.arr s2.heap.next []) (.arr σ2.a.next []) := by rw [← hH.next]; exact VR.arr hH.pos
+      exact Post.ok 0 (.arr σ2.a.next [], σ2.setA (σ2.a.alloc (.arr Y)).1) (by simp [opK, hop])
+        ⟨⟨_, vals2, CT2, rfl, hvr, hn1.trans (hn2.same rfl hn2.act (hiv2.setA (hH.alloc hXY))
+          (Frame.mono (σ := σ2) (σ' := σ2.setA (σ2.a.alloc (.arr Y)).1) (List.prefix_refl _) rfl (fun _ _ _ => rfl) hfr2))⟩,
+         fun hne => absurd hadd hne⟩
 
 /-- callee, arguments, the call -/
-theorem callCore_ok {f : Nat} (hE : AllOK N Φ f) (A : Act) (n : Nat) (CT : CTab) (V : List (List Nat)) (vals : Nat → Val) (st : St) (σ : Sto)
+theorem callCore_ok {f : Nat} (hE : AllOK N Φ f) (A : Act) (n : Nat) (CT : CTab) (V : List (List Nat)) (vals : LS) (st : St) (σ : Sto)
     (fn : FExpr) (args : FArgs) (l : Nat) (K : Env → Val → M (R Val))
     (hK : ∀ env r, poisonK env r = pure (.val r env) → K env r = pure (.val r env))
-    (hI : Inv N Φ CT n st σ) (hF : Frame N A CT V vals σ) (hgh : A.gh ≤ n)
+    (hI : Inv N Φ CT n st σ) (hF : Frame N A CT V vals σ) (hgh : A.gh ≤ n) (hL : st.active = A.act)
     (hfn : okE N Φ A.c A.gh A.nl V.flatten fn = true) (hargs : okArgs N Φ A.c A.gh A.nl V.flatten args = true) :
     Post (EQ N Φ A n CT σ V)
       (fun k => (Core.Fn.evalE Φ k A.cx σ fn).bind fun p => (Core.Fn.evalArgs Φ k A.cx p.2 args).bind fun q => callF Φ k p.1 q.1 q.2)
       (run (callCore f (envOf N A V vals) l (toAstF N A.c fn) (toArgsF N A.c args) K) st) := by
   unfold callCore bindR
   refine Post.bind (mono_E _ _ _ _) (fun p => FMono.bind (mono_Args _ _ _ _) (fun q => mono_callF _ _ _))
-    (hE.E' A n CT V vals st σ fn hI hF hgh hfn) ?_
+    (hE.E' A n CT V vals st σ fn hI hF hgh hL hfn) ?_
   rintro r ⟨wf, σ1⟩ s1 ⟨vf, vals1, CT1, rfl, hvf, hn1⟩
   dsimp only
-  refine Post.bind (mono_Args _ _ _ _) (fun q => mono_callF _ _ _) (hE.Args A n CT1 V vals1 s1 σ1 args hn1.inv hn1.frame hgh hargs) ?_
+  refine Post.bind (mono_Args _ _ _ _) (fun q => mono_callF _ _ _) (hE.Args A n CT1 V vals1 s1 σ1 args hn1.inv hn1.frame hgh hn1.act hargs) ?_
   rintro r ⟨ws, σ2⟩ s2 ⟨vs, vals2, CT2, rfl, hvs, hn2⟩
   dsimp only
   refine Res.bind (hE.C n CT2 s2 σ2 l vf wf vs ws hn2.inv (hvf.mono hn2.ext) hvs) id ?_
-  rintro r s3 ⟨k, ⟨w, σ3⟩, hk, CT3, hvr, hext3, hh3, hinv3, hl3⟩
+  rintro r s3 ⟨k, ⟨w, σ3⟩, hk, CT3, hvr, hext3, hlen3, hun3, hact3, hinv3, hl3⟩
   rw [hK _ _ (poisonK_ok _ hvr)]
+  have hown : ∀ fd hid, A.cx = some (fd, hid) → σ3.h[hid]? = σ2.h[hid]? := by
+    intro fd hid hcx
+    obtain ⟨k0, hk0, hk0a, -⟩ := hn2.frame.me fd hid hcx
+    exact hun3 k0 _ hk0 (by rw [hn2.act]; exact hk0a)
   exact Post.ok k (w, σ3) hk ⟨r, vals2, CT3, rfl, hvr,
-    hn1.trans (hn2.trans ⟨hext3, hh3, hinv3, hn2.frame.mono hext3 hl3 hh3⟩)⟩
+    hn1.trans (hn2.trans ⟨hext3, hlen3, hinv3, hn2.frame.mono hext3 hl3 hown, hact3.trans hn2.act,
+      fun k e hk hl _ => hun3 k e hk (by rw [hn2.act]; exact hl)⟩)⟩
 
 theorem evalP_single (k : Nat) (cx : Option (FnDef × Nat)) (σ : Sto) (l : Nat) (t : FExpr) :
     Core.Fn.evalP Φ (k+2) cx σ [.expr l t] = (Core.Fn.evalE Φ k cx σ t).bind fun p => some (p.2, .normal, p.1) := by
@@ -1265,8 +1749,8 @@ theorem evalP_single (k : Nat) (cx : Option (FnDef × Nat)) (σ : Sto) (l : Nat)
 theorem setTop_headD (V : List (List Nat)) : setTop (V.headD []) V = V := by cases V <;> rfl
 
 /-- a branch `{ t }` of an `if` expression -/
-theorem branch_expr_ok {f0 : Nat} (hB : ∀ f', f' ≤ f0 → AllOK N Φ f') (A : Act) (n : Nat) (CT : CTab) (V : List (List Nat)) (vals : Nat → Val) (st : St) (σ : Sto)
-    (t : FExpr) (l : Nat) (hI : Inv N Φ CT n st σ) (hF : Frame N A CT V vals σ) (hgh : A.gh ≤ n)
+theorem branch_expr_ok {f0 : Nat} (hB : ∀ f', f' ≤ f0 → AllOK N Φ f') (A : Act) (n : Nat) (CT : CTab) (V : List (List Nat)) (vals : LS) (st : St) (σ : Sto)
+    (t : FExpr) (l : Nat) (hI : Inv N Φ CT n st σ) (hF : Frame N A CT V vals σ) (hgh : A.gh ≤ n) (hL : st.active = A.act)
     (ht : okE N Φ A.c A.gh A.nl V.flatten t = true) :
     Post (EQ N Φ A n CT σ V) (fun k => Core.Fn.evalE Φ k A.cx σ t)
       (run (evalBranch f0 (envOf N A V vals) (exprBlock l (toAstF N A.c t))) st) := by
@@ -1277,7 +1761,7 @@ theorem branch_expr_ok {f0 : Nat} (hB : ∀ f', f' ≤ f0 → AllOK N Φ f') (A 
     have hblk : exprBlock l (toAstF N A.c t) = .mk l (toStmtsF N A.c [.expr l t]) := by
       simp [exprBlock, toStmtsF, toStmtF]
     rw [hblk]
-    have hb := (hB f1 (Nat.le_succ f1)).B A n CT V vals st σ [.expr l t] l hI hF hgh (by simp [okP, okS, ht])
+    have hb := (hB f1 (Nat.le_succ f1)).B A n CT V vals st σ [.expr l t] l hI hF hgh hL (by simp [okP, okS, ht])
     refine Res.bind hb ?_ ?_
     · intro h k
       have : Core.Fn.evalP Φ (k + 2) A.cx σ [.expr l t] = none := h (k + 2)
@@ -1309,36 +1793,36 @@ theorem branch_expr_ok {f0 : Nat} (hB : ∀ f', f' ≤ f0 → AllOK N Φ f') (A 
 
 include hN in
 theorem expr_succ (f : Nat) (ih : ∀ f', f' ≤ f → AllOK N Φ f') :
-    ∀ (A : Act) n CT V vals st σ e, Inv N Φ CT n st σ → Frame N A CT V vals σ → A.gh ≤ n →
+    ∀ (A : Act) n CT V vals st σ e, Inv N Φ CT n st σ → Frame N A CT V vals σ → A.gh ≤ n → st.active = A.act →
     okE N Φ A.c A.gh A.nl V.flatten e = true →
     Post (EQe N Φ e A n CT σ V) (fun k => Core.Fn.evalE Φ k A.cx σ e) (run (Ref.evalE (f+1) (envOf N A V vals) (toAstF N A.c e)) st) := by
-  intro A n CT V vals st σ e hI hF hgh hok
+  intro A n CT V vals st σ e hI hF hgh hL hok
   have hf := ih f (Nat.le_refl f)
   cases e with
   | lit l v =>
     rw [toAstF, evalE_lit]
     cases hc : isLit v with
     | true =>
-      exact Post.ok 1 (v, σ) (by simp [Core.Fn.evalE]) ⟨⟨v, vals, CT, rfl, VR.scalar (isLit_scalar hc), Next.refl hI hF⟩, NAQ.scalar (isLit_scalar hc)⟩
+      exact Post.ok 1 (v, σ) (by simp [Core.Fn.evalE]) ⟨⟨v, vals, CT, rfl, VR.scalar (isLit_scalar hc), Next.refl hI hF hL⟩, NAQ.scalar (isLit_scalar hc)⟩
     | false => exact True.intro
   | tru l =>
     rw [toAstF, evalE_bool]
-    exact Post.ok 1 (.bool true, σ) (by simp [Core.Fn.evalE]) ⟨⟨_, vals, CT, rfl, VR.scalar rfl, Next.refl hI hF⟩, NAQ.scalar rfl⟩
+    exact Post.ok 1 (.bool true, σ) (by simp [Core.Fn.evalE]) ⟨⟨_, vals, CT, rfl, VR.scalar rfl, Next.refl hI hF hL⟩, NAQ.scalar rfl⟩
   | fls l =>
     rw [toAstF, evalE_bool]
-    exact Post.ok 1 (.bool false, σ) (by simp [Core.Fn.evalE]) ⟨⟨_, vals, CT, rfl, VR.scalar rfl, Next.refl hI hF⟩, NAQ.scalar rfl⟩
+    exact Post.ok 1 (.bool false, σ) (by simp [Core.Fn.evalE]) ⟨⟨_, vals, CT, rfl, VR.scalar rfl, Next.refl hI hF hL⟩, NAQ.scalar rfl⟩
   | null l =>
     rw [toAstF, evalE_null]
-    exact Post.ok 1 (.null, σ) (by simp [Core.Fn.evalE]) ⟨⟨_, vals, CT, rfl, VR.scalar rfl, Next.refl hI hF⟩, NAQ.scalar rfl⟩
+    exact Post.ok 1 (.null, σ) (by simp [Core.Fn.evalE]) ⟨⟨_, vals, CT, rfl, VR.scalar rfl, Next.refl hI hF hL⟩, NAQ.scalar rfl⟩
   | un l op a =>
     simp only [okE] at hok
     rw [toAstF, evalE_un]
     refine Post.shift (fE_zero _ _ _ _) (fun k => fE_un Φ k A.cx σ l op a) ?_
     unfold bindR
-    refine Post.bind (mono_E _ _ _ _) (fun _ => FMono.const _) (hf.E' A n CT V vals st σ a hI hF hgh hok) ?_
+    refine Post.bind (mono_E _ _ _ _) (fun _ => FMono.const _) (hf.E' A n CT V vals st σ a hI hF hgh hL hok) ?_
     rintro r ⟨w, σ1⟩ s1 ⟨v, vals1, CT1, rfl, hvr, hn1⟩
     dsimp only
-    rw [run_reifyM_bind]
+    refine Post.reify _ _ _ (fun _ => ?_)
     have hb := unary_bridge hn1.inv.heap op hvr
     generalize Spec.unary (specUn op) (reify s1.heap reifyDepth v) = ex at hb ⊢
     cases ex with
@@ -1352,27 +1836,28 @@ theorem expr_succ (f : Nat) (ih : ∀ f', f' ≤ f → AllOK N Φ f') :
     simp only [okE, Bool.and_eq_true] at hok
     rw [toAstF, evalE_bin]
     exact Post.shift (fE_zero _ _ _ _) (fun k => fE_bin Φ k A.cx σ l op a b)
-      (Post.mono (fun r y s h => ⟨h.1, fun _ => h.2⟩) (binop_ok hf A n CT V vals st σ a b op l hI hF hgh hok.1.1 hok.1.2 (deepOK_spec hok.2)))
+      (Post.mono (fun r y s h => ⟨h.1, fun hna => h.2 (by rintro rfl; simp [nonArrE] at hna)⟩)
+        (binop_ok hf A n CT V vals st σ a b op l hI hF hgh hL hok.1.1 hok.1.2 (deepOK_spec hok.2)))
   | lt l a b =>
     simp only [okE, Bool.and_eq_true] at hok
     rw [toAstF, evalE_lt]
     exact Post.shift (fE_zero _ _ _ _) (fun k => fE_lt Φ k A.cx σ l a b)
-      (Post.mono (fun r y s h => ⟨h.1, fun _ => h.2⟩) (binop_ok hf A n CT V vals st σ b a .greater l hI hF hgh hok.2 hok.1 (fun h => by simp [isDeep] at h)))
+      (Post.mono (fun r y s h => ⟨h.1, fun _ => h.2 (by decide)⟩) (binop_ok hf A n CT V vals st σ b a .greater l hI hF hgh hL hok.2 hok.1 (fun h => by simp [isDeep] at h)))
   | le l a b =>
     simp only [okE, Bool.and_eq_true] at hok
     rw [toAstF, evalE_le]
     exact Post.shift (fE_zero _ _ _ _) (fun k => fE_le Φ k A.cx σ l a b)
-      (Post.mono (fun r y s h => ⟨h.1, fun _ => h.2⟩) (binop_ok hf A n CT V vals st σ b a .greaterEq l hI hF hgh hok.2 hok.1 (fun h => by simp [isDeep] at h)))
+      (Post.mono (fun r y s h => ⟨h.1, fun _ => h.2 (by decide)⟩) (binop_ok hf A n CT V vals st σ b a .greaterEq l hI hF hgh hL hok.2 hok.1 (fun h => by simp [isDeep] at h)))
   | and l a b =>
     refine Post.mono (fun r y s h => ⟨h, fun hna => by simp [nonArrE] at hna⟩) ?_
     simp only [okE, Bool.and_eq_true] at hok
     rw [toAstF, evalE_and]
     refine Post.shift (fE_zero _ _ _ _) (fun k => fE_and Φ k A.cx σ l a b) ?_
     unfold bindR
-    refine Post.bind (mono_E _ _ _ _) (fun p => FMono.ite (FMono.const _) (mono_E _ _ _ _)) (hf.E' A n CT V vals st σ a hI hF hgh hok.1) ?_
+    refine Post.bind (mono_E _ _ _ _) (fun p => FMono.ite (FMono.const _) (mono_E _ _ _ _)) (hf.E' A n CT V vals st σ a hI hF hgh hL hok.1) ?_
     rintro r ⟨wa, σ1⟩ s1 ⟨va, vals1, CT1, rfl, hva, hn1⟩
     dsimp only
-    rw [run_truthy_bind hn1.inv.heap hva]
+    refine Post.truthy hn1.inv.heap hva _ ?_
     cases hfal : Core.Fn.falseyH σ1.a wa with
     | true =>
       simp only [Bool.not_true, Bool.false_eq_true, if_false]
@@ -1380,7 +1865,7 @@ theorem expr_succ (f : Nat) (ih : ∀ f', f' ≤ f → AllOK N Φ f') :
     | false =>
       simp only [Bool.not_false, if_true]
       refine Post.congr (ev' := fun k => Core.Fn.evalE Φ k A.cx σ1 b) (fun k => by simp [hfal]) ?_
-      refine Post.mono ?_ (hf.E' A n CT1 V vals1 s1 σ1 b hn1.inv hn1.frame hgh hok.2)
+      refine Post.mono ?_ (hf.E' A n CT1 V vals1 s1 σ1 b hn1.inv hn1.frame hgh hn1.act hok.2)
       rintro r y s ⟨v, vals2, CT2, rfl, hv, hn2⟩
       exact ⟨v, vals2, CT2, rfl, hv, hn1.trans hn2⟩
   | or l a b =>
@@ -1389,10 +1874,10 @@ theorem expr_succ (f : Nat) (ih : ∀ f', f' ≤ f → AllOK N Φ f') :
     rw [toAstF, evalE_or]
     refine Post.shift (fE_zero _ _ _ _) (fun k => fE_or Φ k A.cx σ l a b) ?_
     unfold bindR
-    refine Post.bind (mono_E _ _ _ _) (fun p => FMono.ite (mono_E _ _ _ _) (FMono.const _)) (hf.E' A n CT V vals st σ a hI hF hgh hok.1) ?_
+    refine Post.bind (mono_E _ _ _ _) (fun p => FMono.ite (mono_E _ _ _ _) (FMono.const _)) (hf.E' A n CT V vals st σ a hI hF hgh hL hok.1) ?_
     rintro r ⟨wa, σ1⟩ s1 ⟨va, vals1, CT1, rfl, hva, hn1⟩
     dsimp only
-    rw [run_truthy_bind hn1.inv.heap hva]
+    refine Post.truthy hn1.inv.heap hva _ ?_
     cases hfal : Core.Fn.falseyH σ1.a wa with
     | false =>
       simp only [Bool.not_false, if_true]
@@ -1400,7 +1885,7 @@ theorem expr_succ (f : Nat) (ih : ∀ f', f' ≤ f → AllOK N Φ f') :
     | true =>
       simp only [Bool.not_true, Bool.false_eq_true, if_false]
       refine Post.congr (ev' := fun k => Core.Fn.evalE Φ k A.cx σ1 b) (fun k => by simp [hfal]) ?_
-      refine Post.mono ?_ (hf.E' A n CT1 V vals1 s1 σ1 b hn1.inv hn1.frame hgh hok.2)
+      refine Post.mono ?_ (hf.E' A n CT1 V vals1 s1 σ1 b hn1.inv hn1.frame hgh hn1.act hok.2)
       rintro r y s ⟨v, vals2, CT2, rfl, hv, hn2⟩
       exact ⟨v, vals2, CT2, rfl, hv, hn1.trans hn2⟩
   | ite l c t e =>
@@ -1409,21 +1894,21 @@ theorem expr_succ (f : Nat) (ih : ∀ f', f' ≤ f → AllOK N Φ f') :
     rw [toAstF, evalE_ite]
     refine Post.shift (fE_zero _ _ _ _) (fun k => fE_ite Φ k A.cx σ l c t e) ?_
     unfold bindR
-    refine Post.bind (mono_E _ _ _ _) (fun p => FMono.ite (mono_E _ _ _ _) (mono_E _ _ _ _)) (hf.E' A n CT V vals st σ c hI hF hgh hok.1.1) ?_
+    refine Post.bind (mono_E _ _ _ _) (fun p => FMono.ite (mono_E _ _ _ _) (mono_E _ _ _ _)) (hf.E' A n CT V vals st σ c hI hF hgh hL hok.1.1) ?_
     rintro r ⟨wc, σ1⟩ s1 ⟨vc, vals1, CT1, rfl, hvc, hn1⟩
     dsimp only
-    rw [run_truthy_bind hn1.inv.heap hvc]
+    refine Post.truthy hn1.inv.heap hvc _ ?_
     cases hfal : Core.Fn.falseyH σ1.a wc with
     | true =>
       simp only [Bool.not_true, Bool.false_eq_true, if_false]
       refine Post.congr (ev' := fun k => Core.Fn.evalE Φ k A.cx σ1 e) (fun k => by simp [hfal]) ?_
-      refine Post.mono ?_ (branch_expr_ok ih A n CT1 V vals1 s1 σ1 e l hn1.inv hn1.frame hgh hok.2)
+      refine Post.mono ?_ (branch_expr_ok ih A n CT1 V vals1 s1 σ1 e l hn1.inv hn1.frame hgh hn1.act hok.2)
       rintro r y s ⟨v, vals2, CT2, rfl, hv, hn2⟩
       exact ⟨v, vals2, CT2, rfl, hv, hn1.trans hn2⟩
     | false =>
       simp only [Bool.not_false, if_true]
       refine Post.congr (ev' := fun k => Core.Fn.evalE Φ k A.cx σ1 t) (fun k => by simp [hfal]) ?_
-      refine Post.mono ?_ (branch_expr_ok ih A n CT1 V vals1 s1 σ1 t l hn1.inv hn1.frame hgh hok.1.2)
+      refine Post.mono ?_ (branch_expr_ok ih A n CT1 V vals1 s1 σ1 t l hn1.inv hn1.frame hgh hn1.act hok.1.2)
       rintro r y s ⟨v, vals2, CT2, rfl, hv, hn2⟩
       exact ⟨v, vals2, CT2, rfl, hv, hn1.trans hn2⟩
   | gget l i =>
@@ -1433,14 +1918,14 @@ theorem expr_succ (f : Nat) (ih : ∀ f', f' ≤ f → AllOK N Φ f') :
     obtain ⟨v, w, hc, hg, hvr⟩ := hI.cells i (Nat.lt_of_lt_of_le hok hgh)
     have hget : st.cells.getD i .null = v := by simp [List.getD_eq_getElem?_getD, hc]
     rw [hget, poisonK_ok _ hvr]
-    exact Post.ok 1 (w, σ) (by simp [Core.Fn.evalE, List.getD_eq_getElem?_getD, hg]) ⟨v, vals, CT, rfl, hvr, Next.refl hI hF⟩
+    exact Post.ok 1 (w, σ) (by simp [Core.Fn.evalE, List.getD_eq_getElem?_getD, hg]) ⟨v, vals, CT, rfl, hvr, Next.refl hI hF hL⟩
   | gset l i e =>
     refine Post.mono (fun r y s h => ⟨h, fun hna => by simp [nonArrE] at hna⟩) ?_
     simp only [okE, Bool.and_eq_true, decide_eq_true_eq] at hok
     rw [toAstF, evalE_gset]
     refine Post.shift (fE_zero _ _ _ _) (fun k => fE_gset Φ k A.cx σ l i e) ?_
     unfold bindR
-    refine Post.bind (mono_E _ _ _ _) (fun _ => FMono.const _) (hf.E' A n CT V vals st σ e hI hF hgh hok.2) ?_
+    refine Post.bind (mono_E _ _ _ _) (fun _ => FMono.const _) (hf.E' A n CT V vals st σ e hI hF hgh hL hok.2) ?_
     rintro r ⟨w, σ1⟩ s1 ⟨v, vals1, CT1, rfl, hv, hn1⟩
     dsimp only
     rw [assignIdent_g (lookup_global hN hn1.frame hok.1), run_setCell_bind]
@@ -1449,20 +1934,20 @@ theorem expr_succ (f : Nat) (ih : ∀ f', f' ≤ f → AllOK N Φ f') :
     have hfr1 : Frame N A CT1 V vals1 σ1 := hn1.frame
     have hiv1 : Inv N Φ CT1 n s1 σ1 := hn1.inv
     exact Post.ok 0 (w, σ1.gset i w) (by simp [hlt]) ⟨v, vals1, CT1, rfl, hv,
-      ⟨hn1.ext, hn1.hext, hiv1.gset hin hv, Frame.mono (σ := σ1) (σ' := σ1.gset i w) (List.prefix_refl _) rfl (List.prefix_refl _) hfr1⟩⟩
+      hn1.same rfl hn1.act (hiv1.gset hin hv) (Frame.mono (σ := σ1) (σ' := σ1.gset i w) (List.prefix_refl _) rfl (fun _ _ _ => rfl) hfr1)⟩
   | lget l i =>
     refine Post.mono (fun r y s h => ⟨h, fun hna => by simp [nonArrE] at hna⟩) ?_
     simp only [okE, Bool.and_eq_true, decide_eq_true_eq, List.contains_iff_mem] at hok
     rw [toAstF, evalE_ident_l _ _ _ _ _ _ (lookup_local hN hok.2)]
     obtain ⟨w, hw, hvr⟩ := hF.locals i hok.2
-    exact Post.ok 1 (w, σ) (by simp [Core.Fn.evalE, hw]) ⟨vals i, vals, CT, rfl, hvr, Next.refl hI hF⟩
+    exact Post.ok 1 (w, σ) (by simp [Core.Fn.evalE, hw]) ⟨vals.vals i, vals, CT, rfl, hvr, Next.refl hI hF hL⟩
   | lset l i e =>
     refine Post.mono (fun r y s h => ⟨h, fun hna => by simp [nonArrE] at hna⟩) ?_
     simp only [okE, Bool.and_eq_true, decide_eq_true_eq, List.contains_iff_mem] at hok
     rw [toAstF, evalE_gset]
     refine Post.shift (fE_zero _ _ _ _) (fun k => fE_lset Φ k A.cx σ l i e) ?_
     unfold bindR
-    refine Post.bind (mono_E _ _ _ _) (fun _ => FMono.const _) (hf.E' A n CT V vals st σ e hI hF hgh hok.2) ?_
+    refine Post.bind (mono_E _ _ _ _) (fun _ => FMono.const _) (hf.E' A n CT V vals st σ e hI hF hgh hL hok.2) ?_
     rintro r ⟨w, σ1⟩ s1 ⟨v, vals1, CT1, rfl, hv, hn1⟩
     dsimp only
     rw [assignIdent_l (lookup_local hN hok.1.2) (upd_local hN hok.1.2 hn1.frame.nodup)]
@@ -1473,33 +1958,33 @@ theorem expr_succ (f : Nat) (ih : ∀ f', f' ≤ f → AllOK N Φ f') :
       · rw [List.getElem?_eq_none h3] at hw0; cases hw0
     have hfr1 : Frame N A CT1 V vals1 σ1 := hn1.frame
     have hiv1 : Inv N Φ CT1 n s1 σ1 := hn1.inv
-    exact Post.ok 0 (w, σ1.lset i w) (by simp [hlt]) ⟨v, upd vals1 i v, CT1, rfl, hv,
-      ⟨hn1.ext, hn1.hext, Inv.of_gh (σ := σ1) (σ' := σ1.lset i w) rfl rfl rfl hiv1, hfr1.lset hv⟩⟩
+    exact Post.ok 0 (w, σ1.lset i w) (by simp [hlt]) ⟨v, vals1.upd i v, CT1, rfl, hv,
+      hn1.same rfl hn1.act (Inv.of_gh (σ := σ1) (σ' := σ1.lset i w) rfl rfl rfl hiv1) (hfr1.lset hv)⟩
   | curr l =>
     refine Post.mono (fun r y s h => ⟨h, fun hna => by simp [nonArrE] at hna⟩) ?_
     simp only [okE, bne_iff_ne, ne_eq] at hok
-    obtain ⟨hne, -, vf, fd, id, hlk, hcx, hvr⟩ := hF.self hok
+    obtain ⟨hne, -, -, vf, fd, id, hlk, hcx, hvr⟩ := hF.self hok
     have hlk' : lookupEnv A.c.self (envOf N A V vals) = some (.cap vf) := by
       unfold envOf; rw [lookupEnv_mkEnv_other (fun i => hne _ i)]; exact hlk
     rw [toAstF, evalE_ident_cap _ _ _ _ _ _ hlk', poisonK_ok _ hvr]
-    exact Post.ok 1 (.clos fd [] id, σ) (by simp [Core.Fn.evalE, hcx]) ⟨vf, vals, CT, rfl, hvr, Next.refl hI hF⟩
+    exact Post.ok 1 (.clos fd [] id, σ) (by simp [Core.Fn.evalE, hcx]) ⟨vf, vals, CT, rfl, hvr, Next.refl hI hF hL⟩
   | call l fn args =>
     refine Post.mono (fun r y s h => ⟨h, fun hna => by simp [nonArrE] at hna⟩) ?_
     simp only [okE, Bool.and_eq_true] at hok
     rw [toAstF, evalE_call]
     refine Post.shift (fE_zero _ _ _ _) (fun k => fE_call Φ k A.cx σ l fn args) ?_
-    exact callCore_ok hf A n CT V vals st σ fn args l poisonK (fun env r hr => hr) hI hF hgh hok.1 hok.2
+    exact callCore_ok hf A n CT V vals st σ fn args l poisonK (fun env r hr => hr) hI hF hgh hL hok.1 hok.2
   | matchE l sc arms =>
     refine Post.mono (fun r y s h => ⟨h, fun hna => by simp [nonArrE] at hna⟩) ?_
     simp only [okE, Bool.and_eq_true] at hok
     rw [toAstF, evalE_match]
     refine Post.shift (fE_zero _ _ _ _) (fun k => fE_match Φ k A.cx σ l sc arms) ?_
     unfold bindR
-    refine Post.bind (mono_E _ _ _ _) (fun p => mono_Arms _ _ _ _ _) (hf.E' A n CT V vals st σ sc hI hF hgh hok.1) ?_
+    refine Post.bind (mono_E _ _ _ _) (fun p => mono_Arms _ _ _ _ _) (hf.E' A n CT V vals st σ sc hI hF hgh hL hok.1) ?_
     rintro r ⟨w, σ1⟩ s1 ⟨v, vals1, CT1, rfl, hv, hn1⟩
     dsimp only
-    rw [run_reifyM_bind]
-    refine Post.mono ?_ (hf.Arms A n CT1 V vals1 s1 σ1 _ w arms hn1.inv hn1.frame hgh hok.2 (SR.ofReify hv _))
+    refine Post.reify _ _ _ (fun _ => ?_)
+    refine Post.mono ?_ (hf.Arms A n CT1 V vals1 s1 σ1 _ w arms hn1.inv hn1.frame hgh hn1.act hok.2 (SR.ofReify hv _))
     rintro r y s ⟨v2, vals2, CT2, rfl, hv2, hn2⟩
     exact ⟨v2, vals2, CT2, rfl, hv2, hn1.trans hn2⟩
   | fget l j =>
@@ -1507,42 +1992,201 @@ theorem expr_succ (f : Nat) (ih : ∀ f', f' ≤ f → AllOK N Φ f') :
     simp only [okE, decide_eq_true_eq] at hok
     have hj : A.c.frees[j]? = some (A.c.frees.getD j "") := by
       rw [List.getD_eq_getElem?_getD, List.getElem?_eq_getElem hok]; rfl
-    obtain ⟨h0, -, -, v, w, fd, id, hcx, hlk, hfg, hvr⟩ := hF.frees j _ hj
+    obtain ⟨h0, -, -, -, -, v, w, fd, id, hcx, hlk, hfg, hpv⟩ := hF.frees j _ hj
     have hlk' : lookupEnv (A.c.frees.getD j "") (envOf N A V vals) = some (.cap v) := by
       unfold envOf; rw [lookupEnv_mkEnv_other (fun i => h0 _ i (Nat.le_refl _))]; exact hlk
-    rw [toAstF, evalE_ident_cap _ _ _ _ _ _ hlk', poisonK_ok _ hvr]
-    exact Post.ok 1 (w, σ) (by simp [Core.Fn.evalE, hcx, hfg]) ⟨v, vals, CT, rfl, hvr, Next.refl hI hF⟩
+    rw [toAstF, evalE_ident_cap _ _ _ _ _ _ hlk']
+    rcases hpv with rfl | hvr
+    · exact True.intro
+    rw [poisonK_ok _ hvr]
+    exact Post.ok 1 (w, σ) (by simp [Core.Fn.evalE, hcx, hfg]) ⟨v, vals, CT, rfl, hvr, Next.refl hI hF hL⟩
   | mkclos l code lines np nl' body caps =>
     simp only [okE, Bool.and_eq_true, decide_eq_true_eq] at hok
-    obtain ⟨⟨⟨⟨hcaps, hnp⟩, hΦ⟩, hbody⟩, hlast⟩ := hok
+    obtain ⟨⟨⟨⟨⟨hcaps, hnp⟩, hΦ⟩, hbody⟩, hlast⟩, hnd⟩ := hok
     rw [toAstF, evalE_fn, run_mkClos_bind]
     obtain ⟨ws, hws, hinfo⟩ := caps_ok hN hF caps hcaps
-    have hp : CT <+: CT ++ [(mkFd code lines ⟨np, nl', body, l⟩, σ.h.length)] := List.prefix_append _ _
-    have hentry : ClosEntry N Φ (CT ++ [(mkFd code lines ⟨np, nl', body, l⟩, σ.h.length)]) (σ.h ++ [ws]) n
+    let e0 : CE := ⟨mkFd code lines ⟨np, nl', body, l⟩, σ.h.length, ⟨A.c.depth + 1, "", caps.map (capName N A.c)⟩, A.gh⟩
+    have hp : CT <+: CT ++ [e0] := List.prefix_append _ _
+    have hentry : ClosEntry N Φ (CT ++ [e0]) (σ.h ++ [ws]) n
         { name := "", params := params N (A.c.depth + 1) np,
           body := .mk l (toStmtsF N ⟨A.c.depth + 1, "", caps.map (capName N A.c)⟩ body),
-          captured := captureEnv (envOf N A V vals), line := l } (mkFd code lines ⟨np, nl', body, l⟩) σ.h.length := by
-      refine ⟨⟨np, nl', body, l⟩, ⟨A.c.depth + 1, "", caps.map (capName N A.c)⟩, A.gh, hΦ, rfl, rfl, rfl, Nat.succ_pos _, hnp, hgh,
-        hbody, hlast, ?_, ?_, fun d' i => hN.ln_ne d' i, (show "" ≠ selfKey by decide)⟩
+          captured := captureEnv (envOf N A V vals), line := l } e0 := by
+      refine ⟨⟨np, nl', body, l⟩, hΦ, rfl, rfl, rfl, Nat.succ_pos _, hnp, hgh,
+        hbody, hlast, ?_, ?_, fun d' i => hN.ln_ne d' i, (show "" ≠ selfKey by decide), hnd⟩
       · intro j hj
         exact ⟨hN.gn_ne j, by rw [lookupScope_captureEnv, lookup_global hN hF hj]; rfl⟩
       · intro j name hj
-        simp only [List.getElem?_map, Option.map_eq_some_iff] at hj
+        simp only [e0, List.getElem?_map, Option.map_eq_some_iff] at hj
         obtain ⟨cap, hcap, rfl⟩ := hj
-        obtain ⟨v, w, a1, a2, a3, a4, a5, a6⟩ := hinfo j cap hcap
-        exact ⟨a4, a5, a6, a5, v, w, by rw [lookupScope_captureEnv]; exact a1, by rw [freeGet_new]; exact a2, a3.mono hp⟩
-    have hfr : Frame N A (CT ++ [(mkFd code lines ⟨np, nl', body, l⟩, σ.h.length)]) V vals (σ.pushH ws) :=
-      Frame.mono (σ := σ) (σ' := σ.pushH ws) hp rfl (List.prefix_append _ _) hF
+        obtain ⟨v, w, a1, a2, a3, a4, a5, a6, a7⟩ := hinfo j cap hcap
+        exact ⟨a4, a5, a6, a5, a7, v, w, by rw [lookupScope_captureEnv]; exact a1, by rw [freeGet_new]; exact a2, a3.imp id (fun x => x.mono hp)⟩
+    have hown : ∀ fd hid, A.cx = some (fd, hid) → (σ.pushH ws).h[hid]? = σ.h[hid]? := by
+      intro fd hid hcx
+      obtain ⟨k0, hk0, -, -⟩ := hF.me fd hid hcx
+      exact getElem?_push_lt (hI.hidLt k0 _ hk0)
+    have hfr : Frame N A (CT ++ [e0]) V vals (σ.pushH ws) :=
+      Frame.mono (σ := σ) (σ' := σ.pushH ws) hp rfl hown hF
+    have hun : Unch A CT σ.h (σ.pushH ws).h := fun k e hk _ _ => getElem?_push_lt (hI.hidLt k e hk)
     exact Post.ok 1 (.clos (mkFd code lines ⟨np, nl', body, l⟩) [] σ.h.length, σ.pushH ws) (by simp [Core.Fn.evalE, hws])
-      ⟨⟨_, vals, _, rfl, .inr (.inl ⟨st.clos.length, _, _, rfl, rfl, by rw [hI.closLen]; simp⟩),
-       ⟨hp, List.prefix_append _ _, hI.pushClos _ _ ws hentry, hfr⟩⟩, fun _ v' env' h => by cases h; rfl⟩
+      ⟨⟨_, vals, _, rfl, .inr (.inl ⟨st.clos.length, _, _, rfl, rfl, by rw [hI.closLen]; simp [oldCT, e0]⟩),
+       ⟨hp, by simp, hI.pushClos _ e0 ws rfl hentry, hfr, hL, hun⟩⟩, fun _ v' env' h => by cases h; rfl⟩
+  | fset l j e =>
+    refine Post.mono (fun r y s h => ⟨h, fun hna => by simp [nonArrE] at hna⟩) ?_
+    simp only [okE, Bool.and_eq_true, decide_eq_true_eq] at hok
+    obtain ⟨hjlt, hoke⟩ := hok
+    have hj : A.c.frees[j]? = some (A.c.frees.getD j "") := by
+      rw [List.getD_eq_getElem?_getD, List.getElem?_eq_getElem hjlt]; rfl
+    rw [toAstF, evalE_gset]
+    refine Post.shift (fE_zero _ _ _ _) (fun k => fE_fset Φ k A.cx σ l j e) ?_
+    unfold bindR
+    refine Post.bind (mono_E _ _ _ _) (fun _ => FMono.const _) (hf.E' A n CT V vals st σ e hI hF hgh hL hoke) ?_
+    rintro r ⟨w, σ1⟩ s1 ⟨v, vals1, CT1, rfl, hv, hn1⟩
+    dsimp only
+    have hF1 : Frame N A CT1 V vals1 σ1 := hn1.frame
+    have hI1 : Inv N Φ CT1 n s1 σ1 := hn1.inv
+    generalize hname : A.c.frees.getD j "" = name at hj ⊢
+    obtain ⟨h0, hne, hkey, hself, hgn, v0, w0, fd, hid, hcx, hlk, hfg, -⟩ := hF1.frees j name hj
+    obtain ⟨k, hk, hkact, hlkself⟩ := hF1.me fd hid hcx
+    have hlkE : lookupEnv name (envOf N A V vals1) = some (.cap v0) := by
+      unfold envOf; rw [lookupEnv_mkEnv_other (fun i => h0 _ i (Nat.le_refl _))]; exact hlk
+    have hlkS : lookupEnv selfKey (envOf N A V vals1) = some (.cap (.clos emptyFn [] (k + 1))) := by
+      unfold envOf; rw [lookupEnv_mkEnv_other (fun i => hN.ln_key _ i)]; exact hlkself
+    obtain ⟨base', hupd, hlk', hother⟩ := updEnvCap_ok name v vals1.base v0 hlk
+    have hupdE : updEnvCap name v (envOf N A V vals1) = some (envOf N A V ⟨vals1.vals, base'⟩) := by
+      unfold envOf
+      exact updEnvCap_mkEnv_other (fun i => h0 _ i (Nat.le_refl _)) hupd
+    rw [run_assignIdent_cap s1 hlkE hlkS hupdE]
+    by_cases hcnt : s1.active.count (k + 1) ≥ 2
+    · rw [if_pos hcnt]; exact True.intro
+    rw [if_neg hcnt]
+    obtain ⟨fr, hfr, hjfr, hfs⟩ := freeSet_of_get w hfg
+    have hidlt : hid < σ1.h.length := hI1.hidLt k _ hk
+    -- the new closure object
+    have hget_other : ∀ hid', hid' ≠ hid → (σ1.h.set hid (fr.set j w))[hid']? = σ1.h[hid']? :=
+      fun hid' hne' => List.getElem?_set_ne (Ne.symm hne')
+    have hnames : ∀ j2 name2, A.c.frees[j2]? = some name2 → (name2 = name ↔ j2 = j) := by
+      intro j2 name2 hj2
+      constructor
+      · intro hnn
+        subst hnn
+        have h2 : j2 < A.c.frees.length := by
+          rcases Nat.lt_or_ge j2 A.c.frees.length with h1 | h1
+          · exact h1
+          · rw [List.getElem?_eq_none h1] at hj2; cases hj2
+        have e1 : A.c.frees[j2] = name2 := by
+          rw [List.getElem?_eq_getElem h2] at hj2; exact Option.some.inj hj2
+        have e2 : A.c.frees[j] = name2 := by
+          rw [List.getElem?_eq_getElem hjlt] at hj; exact Option.some.inj hj
+        exact (List.getElem_inj hF1.freesNodup).mp (e1.trans e2.symm)
+      · intro hjj
+        subst hjj
+        rw [hj] at hj2
+        exact (Option.some.inj hj2).symm
+    -- the frame
+    have hF2 : Frame N A CT1 V ⟨vals1.vals, base'⟩ (σ1.setH (σ1.h.set hid (fr.set j w))) := by
+      refine ⟨hF1.nodup, hF1.locals, hF1.lLen, ?_, ?_, ?_, hF1.freesNodup, ?_, ?_, ?_⟩
+      · intro j0 hj0
+        show lookupEnv (N.gn j0) base' = _
+        rw [hother _ (hgn j0 hj0)]
+        exact hF1.globals j0 hj0
+      · intro hs
+        obtain ⟨a1, a2, a3, vf, fd', id', b1, b2, b3⟩ := hF1.self hs
+        refine ⟨a1, a2, a3, vf, fd', id', ?_, b2, b3⟩
+        show lookupEnv A.c.self base' = _
+        rw [hother _ (Ne.symm hself)]
+        exact b1
+      · intro j2 name2 hj2
+        obtain ⟨a1, a2, a3, a4, a5, v2, w2, fd', id', b1, b2, b3, b4⟩ := hF1.frees j2 name2 hj2
+        have hfd : (fd', id') = (fd, hid) := Option.some.inj (b1.symm.trans hcx)
+        cases hfd
+        by_cases hnn : name2 = name
+        · have hjj : j2 = j := (hnames j2 name2 hj2).mp hnn
+          subst hnn hjj
+          exact ⟨a1, a2, a3, a4, a5, v, w, fd, hid, hcx, hlk', freeGet_set_self w hfr hjfr, .inr (hv)⟩
+        · have hjj : j ≠ j2 := fun e => hnn ((hnames j2 name2 hj2).mpr e.symm)
+          refine ⟨a1, a2, a3, a4, a5, v2, w2, fd, hid, hcx, ?_, ?_, b4⟩
+          · show lookupEnv name2 base' = _
+            rw [hother _ hnn]; exact b2
+          · show Core.Fn.freeGet (σ1.h.set hid (fr.set j w)) hid j2 = some w2
+            rw [freeGet_set_other w hfr hjj]; exact b3
+      · intro hd
+        exact ⟨(hF1.infn hd).1, isGlobalEnv_of_cap base' hlk', (hF1.infn hd).2.2⟩
+      · intro h0'
+        have := (hF1.topg h0').2
+        rw [this] at hj
+        simp at hj
+      · intro fd' hid' hcx'
+        have hfd : (fd', hid') = (fd, hid) := Option.some.inj (hcx'.symm.trans hcx)
+        cases hfd
+        refine ⟨k, hk, hkact, ?_⟩
+        show lookupEnv selfKey base' = _
+        rw [hother _ (Ne.symm hkey)]
+        exact hlkself
+    -- the invariant
+    obtain ⟨c, hc, d, hΦ, hcname, hcparams, hcbody, hcdepth, hcnpnl, hcghn, hcokb, hclast, hcglob, hcfrees, hclnself, hcselfkey, hcnd⟩ := hI1.clos k _ hk
+    dsimp only at hΦ hcname hcparams hcbody hcdepth hcghn hcokb hcglob hcfrees hclnself hcselfkey hcnd
+    have hI2 : Inv N Φ CT1 n
+        { s1 with clos := s1.clos.modify (k + 1 - 1) fun c => { c with captured := (name, .cap (.other "poison")) :: c.captured } }
+        (σ1.setH (σ1.h.set hid (fr.set j w))) := by
+      refine ⟨by simp [hI1.closLen], ?_, hI1.cellsLen, hI1.gLen, hI1.cells, hI1.fresh, hI1.heap, hI1.hidInj, ?_⟩
+      · intro k2 e2 hk2
+        by_cases hkk : k2 = k
+        · subst hkk
+          have he2 : e2 = ⟨fd, hid, A.c, A.gh⟩ := Option.some.inj (hk2.symm.trans hk)
+          subst he2
+          refine ⟨{ c with captured := (name, .cap (.other "poison")) :: c.captured }, ?_, ?_⟩
+          · show (s1.clos.modify (k2 + 1 - 1) _)[k2]? = _
+            simp [hc]
+          · refine ⟨d, hΦ, hcname, hcparams, hcbody, hcdepth, hcnpnl, hcghn, hcokb, hclast, ?_, ?_, hclnself, hcselfkey, hcnd⟩
+            · intro j0 hj0
+              refine ⟨(hcglob j0 hj0).1, ?_⟩
+              show lookupScope (N.gn j0) ((name, .cap (.other "poison")) :: c.captured) = _
+              have : (name == N.gn j0) = false := by simpa using (Ne.symm (hgn j0 hj0))
+              simp only [lookupScope, this, Bool.false_eq_true, if_false]
+              exact (hcglob j0 hj0).2
+            · intro j2 name2 hj2
+              obtain ⟨a1, a2, a3, a4, a5, v2, w2, b1, b2, b3⟩ := hcfrees j2 name2 hj2
+              by_cases hnn : name2 = name
+              · have hjj : j2 = j := (hnames j2 name2 hj2).mp hnn
+                subst hnn hjj
+                refine ⟨a1, a2, a3, a4, a5, .other "poison", w, ?_, freeGet_set_self w hfr hjfr, .inl rfl⟩
+                show lookupScope name2 ((name2, .cap (.other "poison")) :: c.captured) = _
+                simp [lookupScope]
+              · have hjj : j ≠ j2 := fun e => hnn ((hnames j2 name2 hj2).mpr e.symm)
+                refine ⟨a1, a2, a3, a4, a5, v2, w2, ?_, ?_, b3⟩
+                · show lookupScope name2 ((name, .cap (.other "poison")) :: c.captured) = _
+                  have : (name == name2) = false := by simpa using (Ne.symm hnn)
+                  simp only [lookupScope, this, Bool.false_eq_true, if_false]
+                  exact b1
+                · show Core.Fn.freeGet (σ1.h.set hid (fr.set j w)) hid j2 = some w2
+                  rw [freeGet_set_other w hfr hjj]; exact b2
+        · obtain ⟨c2, hc2, he2⟩ := hI1.clos k2 e2 hk2
+          refine ⟨c2, ?_, he2.mono (List.prefix_refl _) (hget_other _ (fun e => hkk (hI1.hidInj k2 k e2 _ hk2 hk e))) (Nat.le_refl _)⟩
+          show (s1.clos.modify (k + 1 - 1) _)[k2]? = _
+          rw [List.getElem?_modify_ne _ _ (by omega)]
+          exact hc2
+      · intro k2 e2 hk2
+        show e2.hid < (σ1.h.set hid (fr.set j w)).length
+        rw [List.length_set]
+        exact hI1.hidLt k2 e2 hk2
+    have hun : Unch A CT1 σ1.h (σ1.setH (σ1.h.set hid (fr.set j w))).h := by
+      intro k2 e2 hk2 hl2 hc2
+      refine hget_other _ (fun e => ?_)
+      rcases hc2 with hc2 | hc2
+      · exact hc2 fd hid hcx e.symm
+      · have hkk : k2 = k := hI1.hidInj k2 k e2 _ hk2 hk e
+        subst hkk
+        rw [← hn1.act] at hc2
+        exact hcnt hc2
+    exact Post.ok 0 (w, σ1.setH (σ1.h.set hid (fr.set j w))) (by simp [fsetK, hcx, hfs])
+      ⟨v, ⟨vals1.vals, base'⟩, CT1, rfl, hv, hn1.trans ⟨List.prefix_refl _, by simp, hI2, hF2, hn1.act, hun⟩⟩
   | arrLit l es =>
     refine Post.mono (fun r y s h => ⟨h, fun hna => by simp [nonArrE] at hna⟩) ?_
     simp only [okE] at hok
     rw [toAstF, evalE_arr]
     refine Post.shift (fE_zero _ _ _ _) (fun k => fE_arrLit Φ k A.cx σ l es) ?_
     unfold bindR
-    refine Post.bind (mono_Args _ _ _ _) (fun _ => FMono.const _) (hf.Args A n CT V vals st σ es hI hF hgh hok) ?_
+    refine Post.bind (mono_Args _ _ _ _) (fun _ => FMono.const _) (hf.Args A n CT V vals st σ es hI hF hgh hL hok) ?_
     rintro r ⟨ws, σ1⟩ s1 ⟨vs, vals1, CT1, rfl, hvs, hn1⟩
     dsimp only
     rw [run_reflectM_bind, reflect_lit hvs]
@@ -1552,18 +2196,18 @@ theorem expr_succ (f : Nat) (ih : ∀ f', f' ≤ f → AllOK N Φ f') :
     have hvr : VR CT1 (.arr s1.heap.next []) (.arr σ1.a.next []) := by rw [← hH.next]; exact VR.arr hH.pos
     exact Post.ok 0 (.arr σ1.a.next [], σ1.setA (σ1.a.alloc (.arr ws)).1) rfl
       ⟨.arr s1.heap.next [], vals1, CT1, rfl, hvr,
-       ⟨hn1.ext, hn1.hext, hiv1.setA (hH.alloc hvs),
-        Frame.mono (σ := σ1) (σ' := σ1.setA (σ1.a.alloc (.arr ws)).1) (List.prefix_refl _) rfl (List.prefix_refl _) hfr1⟩⟩
+       hn1.same rfl hn1.act (hiv1.setA (hH.alloc hvs))
+        (Frame.mono (σ := σ1) (σ' := σ1.setA (σ1.a.alloc (.arr ws)).1) (List.prefix_refl _) rfl (fun _ _ _ => rfl) hfr1)⟩
   | index l c i =>
     refine Post.mono (fun r y s h => ⟨h, fun hna => by simp [nonArrE] at hna⟩) ?_
     simp only [okE, Bool.and_eq_true] at hok
     rw [toAstF, evalE_index]
     refine Post.shift (fE_zero _ _ _ _) (fun k => fE_index Φ k A.cx σ l c i) ?_
     unfold bindR
-    refine Post.bind (mono_E _ _ _ _) (fun p => FMono.bind (mono_E _ _ _ _) (fun _ => FMono.const _)) (hf.E' A n CT V vals st σ c hI hF hgh hok.1) ?_
+    refine Post.bind (mono_E _ _ _ _) (fun p => FMono.bind (mono_E _ _ _ _) (fun _ => FMono.const _)) (hf.E' A n CT V vals st σ c hI hF hgh hL hok.1) ?_
     rintro r ⟨wc, σ1⟩ s1 ⟨vc, vals1, CT1, rfl, hvc, hn1⟩
     dsimp only
-    refine Post.bind (mono_E _ _ _ _) (fun _ => FMono.const _) (hf.E' A n CT1 V vals1 s1 σ1 i hn1.inv hn1.frame hgh hok.2) ?_
+    refine Post.bind (mono_E _ _ _ _) (fun _ => FMono.const _) (hf.E' A n CT1 V vals1 s1 σ1 i hn1.inv hn1.frame hgh hn1.act hok.2) ?_
     rintro r ⟨wi, σ2⟩ s2 ⟨vi, vals2, CT2, rfl, hvi, hn2⟩
     dsimp only
     have hb := index_bridge hn2.inv.heap (hvc.mono hn2.ext) hvi l
@@ -1583,14 +2227,14 @@ theorem expr_succ (f : Nat) (ih : ∀ f', f' ≤ f → AllOK N Φ f') :
     unfold bindR
     refine Post.bind (mono_E _ _ _ _)
       (fun p => FMono.bind (mono_E _ _ _ _) (fun q => FMono.bind (mono_E _ _ _ _) (fun _ => FMono.const _)))
-      (hf.E' A n CT V vals st σ e hI hF hgh hok.2) ?_
+      (hf.E' A n CT V vals st σ e hI hF hgh hL hok.2) ?_
     rintro r ⟨w, σ1⟩ s1 ⟨v, vals1, CT1, rfl, hv, hn1⟩
     dsimp only
     refine Post.bind (mono_E _ _ _ _) (fun q => FMono.bind (mono_E _ _ _ _) (fun _ => FMono.const _))
-      (hf.E' A n CT1 V vals1 s1 σ1 c hn1.inv hn1.frame hgh hok.1.1) ?_
+      (hf.E' A n CT1 V vals1 s1 σ1 c hn1.inv hn1.frame hgh hn1.act hok.1.1) ?_
     rintro r ⟨wc, σ2⟩ s2 ⟨vc, vals2, CT2, rfl, hvc, hn2⟩
     dsimp only
-    refine Post.bind (mono_E _ _ _ _) (fun _ => FMono.const _) (hf.E' A n CT2 V vals2 s2 σ2 i hn2.inv hn2.frame hgh hok.1.2) ?_
+    refine Post.bind (mono_E _ _ _ _) (fun _ => FMono.const _) (hf.E' A n CT2 V vals2 s2 σ2 i hn2.inv hn2.frame hgh hn2.act hok.1.2) ?_
     rintro r ⟨wi, σ3⟩ s3 ⟨vi, vals3, CT3, rfl, hvi, hn3⟩
     dsimp only
     have hv3 : VR CT3 v w := (hv.mono hn2.ext).mono hn3.ext
@@ -1605,16 +2249,16 @@ theorem expr_succ (f : Nat) (ih : ∀ f', f' ≤ f → AllOK N Φ f') :
       have hfr3 : Frame N A CT3 V vals3 σ3 := hn3.frame
       have hiv3 : Inv N Φ CT3 n s3 σ3 := hn3.inv
       exact Post.ok 0 (w, σ3.setA a') (by simp [setIdxK, ha']) ⟨v, vals3, CT3, rfl, hv3,
-        hn1.trans (hn2.trans ⟨hn3.ext, hn3.hext, hiv3.setA hH',
-          Frame.mono (σ := σ3) (σ' := σ3.setA a') (List.prefix_refl _) rfl (List.prefix_refl _) hfr3⟩)⟩
+        hn1.trans (hn2.trans (hn3.same rfl hn3.act (hiv3.setA hH')
+          (Frame.mono (σ := σ3) (σ' := σ3.setA a') (List.prefix_refl _) rfl (fun _ _ _ => rfl) hfr3)))⟩
   | _ => simp [okE] at hok
 
 theorem arms_succ (f : Nat) (ih : ∀ f', f' ≤ f → AllOK N Φ f') :
-    ∀ (A : Act) n CT V vals st σ v w arms, Inv N Φ CT n st σ → Frame N A CT V vals σ → A.gh ≤ n →
+    ∀ (A : Act) n CT V vals st σ v w arms, Inv N Φ CT n st σ → Frame N A CT V vals σ → A.gh ≤ n → st.active = A.act →
     okArms N Φ A.c A.gh A.nl V.flatten arms = true → SR CT v w →
     Post (EQ N Φ A n CT σ V) (fun k => Core.Fn.evalArms Φ k A.cx σ w arms)
       (run (Ref.evalArms (f+1) (envOf N A V vals) v (toArmsF N A.c arms)) st) := by
-  intro A n CT V vals st σ v w arms hI hF hgh hok hvw
+  intro A n CT V vals st σ v w arms hI hF hgh hL hok hvw
   cases arms with
   | last la lp d =>
     simp only [okArms] at hok
@@ -1625,7 +2269,7 @@ theorem arms_succ (f : Nat) (ih : ∀ f', f' ≤ f → AllOK N Φ f') :
     have hb' : b = true := by simpa [Core.Fn.patsTestH, Core.Fn.patTestH, Core.erasePat] using hb.symm
     subst hb'
     simp only [if_true]
-    exact branch_expr_ok ih A n CT V vals st σ d la hI hF hgh hok
+    exact branch_expr_ok ih A n CT V vals st σ d la hI hF hgh hL hok
   | cons la pats body rest =>
     simp only [okArms, Bool.and_eq_true] at hok
     rw [toArmsF, evalArms_cons]
@@ -1636,36 +2280,36 @@ theorem arms_succ (f : Nat) (ih : ∀ f', f' ≤ f → AllOK N Φ f') :
     | true =>
       simp only [if_true]
       refine Post.shift (fArms_zero _ _ _ _ _) (fun k => fArms_cons_true Φ k A.cx σ w la pats body rest hb) ?_
-      exact branch_expr_ok ih A n CT V vals st σ body la hI hF hgh hok.1
+      exact branch_expr_ok ih A n CT V vals st σ body la hI hF hgh hL hok.1
     | false =>
       simp only [Bool.false_eq_true, if_false]
       refine Post.shift (fArms_zero _ _ _ _ _) (fun k => fArms_cons_false Φ k A.cx σ w la pats body rest hb) ?_
-      exact (ih f (Nat.le_refl f)).Arms A n CT V vals st σ v w rest hI hF hgh hok.2 hvw
+      exact (ih f (Nat.le_refl f)).Arms A n CT V vals st σ v w rest hI hF hgh hL hok.2 hvw
 
 include hN in
 theorem args_succ (f : Nat) (hf : AllOK N Φ f) :
-    ∀ (A : Act) n CT V vals st σ e, Inv N Φ CT n st σ → Frame N A CT V vals σ → A.gh ≤ n →
+    ∀ (A : Act) n CT V vals st σ e, Inv N Φ CT n st σ → Frame N A CT V vals σ → A.gh ≤ n → st.active = A.act →
     okArgs N Φ A.c A.gh A.nl V.flatten e = true →
     Post (AQ N Φ A n CT σ V) (fun k => Core.Fn.evalArgs Φ k A.cx σ e) (run (Ref.evalArgs (f+1) (envOf N A V vals) (toArgsF N A.c e)) st) := by
-  intro A n CT V vals st σ e hI hF hgh hok
+  intro A n CT V vals st σ e hI hF hgh hL hok
   cases e with
   | nil =>
     rw [toArgsF, evalArgs_nil]
-    exact Post.ok 1 ([], σ) (by simp [Core.Fn.evalArgs]) ⟨[], vals, CT, rfl, True.intro, Next.refl hI hF⟩
+    exact Post.ok 1 ([], σ) (by simp [Core.Fn.evalArgs]) ⟨[], vals, CT, rfl, True.intro, Next.refl hI hF hL⟩
   | cons a rest =>
     simp only [okArgs, Bool.and_eq_true] at hok
     rw [toArgsF, evalArgs_cons]
     refine Post.shift (fArgs_zero _ _ _ _) (fun k => fArgs_cons Φ k A.cx σ a rest) ?_
     unfold bindR
-    refine Post.bind (mono_E _ _ _ _) (fun p => FMono.bind (mono_Args _ _ _ _) (fun _ => FMono.const _)) (hf.E' A n CT V vals st σ a hI hF hgh hok.1) ?_
+    refine Post.bind (mono_E _ _ _ _) (fun p => FMono.bind (mono_Args _ _ _ _) (fun _ => FMono.const _)) (hf.E' A n CT V vals st σ a hI hF hgh hL hok.1) ?_
     rintro r ⟨w, σ1⟩ s1 ⟨v, vals1, CT1, rfl, hv, hn1⟩
     dsimp only
-    refine Post.bind (mono_Args _ _ _ _) (fun _ => FMono.const _) (hf.Args A n CT1 V vals1 s1 σ1 rest hn1.inv hn1.frame hgh hok.2) ?_
+    refine Post.bind (mono_Args _ _ _ _) (fun _ => FMono.const _) (hf.Args A n CT1 V vals1 s1 σ1 rest hn1.inv hn1.frame hgh hn1.act hok.2) ?_
     rintro r ⟨ws, σ2⟩ s2 ⟨vs, vals2, CT2, rfl, hvs, hn2⟩
     dsimp only
     exact Post.ok 0 (w :: ws, σ2) rfl ⟨v :: vs, vals2, CT2, rfl, ⟨hv.mono hn2.ext, hvs⟩, hn1.trans hn2⟩
 
-theorem SQ.same {A : Act} {n : Nat} {CT CT' : CTab} {σ : Sto} {V : List (List Nat)} {ss : List FStmt} {vals' : Nat → Val}
+theorem SQ.same {A : Act} {n : Nat} {CT CT' : CTab} {σ : Sto} {V : List (List Nat)} {ss : List FStmt} {vals' : LS}
     {r : Flow × Val × Env} {y : Sto × FFlow × Val} {st' : St}
     (henv : r.2.2 = envOf N A V vals') (hfr : FR CT' r.1 y.2.1) (hn : Next N Φ A n CT σ V CT' vals' st' y.1)
     (hnorm : y.2.1 = .normal → VR CT' r.2.1 y.2.2 ∧ NormalOK ss y.2.2) (hd : defs ss (V.headD []) = V.headD []) :
@@ -1690,9 +2334,9 @@ theorem lastRet_single (s : FStmt) : lastRet [s] = s.isRet := rfl
 theorem lastExpr_single (s : FStmt) : lastExpr [s] = s.isExprStmt := rfl
 
 /-- a branch of a statement-level `if` -/
-theorem branch_stmts_ok {f0 : Nat} (hB : ∀ f', f' ≤ f0 → AllOK N Φ f') (A : Act) (n : Nat) (CT : CTab) (V : List (List Nat)) (vals : Nat → Val) (st : St) (σ : Sto)
+theorem branch_stmts_ok {f0 : Nat} (hB : ∀ f', f' ≤ f0 → AllOK N Φ f') (A : Act) (n : Nat) (CT : CTab) (V : List (List Nat)) (vals : LS) (st : St) (σ : Sto)
     (body : List FStmt) (l : Nat) (s0 : FStmt) (hs0 : s0.isRet = false ∧ s0.isExprStmt = true ∧ defs [s0] (V.headD []) = V.headD [])
-    (hI : Inv N Φ CT n st σ) (hF : Frame N A CT V vals σ) (hgh : A.gh ≤ n)
+    (hI : Inv N Φ CT n st σ) (hF : Frame N A CT V vals σ) (hgh : A.gh ≤ n) (hL : st.active = A.act)
     (hb : okP N Φ A.c A.gh A.nl V.flatten body = true) :
     Post (SQ N Φ A n CT σ V [s0]) (fun k => Core.Fn.evalP Φ k A.cx σ body)
       (run (evalBranch f0 (envOf N A V vals) (.mk l (toStmtsF N A.c body)) >>= exprK) st) := by
@@ -1700,7 +2344,7 @@ theorem branch_stmts_ok {f0 : Nat} (hB : ∀ f', f' ≤ f0 → AllOK N Φ f') (A
   | zero => rw [evalBranch_zero]; exact True.intro
   | succ f1 =>
     rw [evalBranch_succ, bind_assoc]
-    refine Res.bind ((hB f1 (Nat.le_succ f1)).B A n CT V vals st σ body l hI hF hgh hb) id ?_
+    refine Res.bind ((hB f1 (Nat.le_succ f1)).B A n CT V vals st σ body l hI hF hgh hL hb) id ?_
     rintro ⟨fl, v, env'⟩ s2 ⟨k, ⟨σ2, fl', bv⟩, hk, vals2, CT2, henv, hfr, hn2, hnorm⟩
     have hN0 : NormalOK [s0] bv := ⟨by rw [lastRet_single]; exact hs0.1, by rw [lastExpr_single, hs0.2.1]; intro h; cases h⟩
     cases fl with
@@ -1721,23 +2365,23 @@ theorem branch_stmts_ok {f0 : Nat} (hB : ∀ f', f' ≤ f0 → AllOK N Φ f') (A
 
 include hN in
 theorem stmt_succ (f : Nat) (ih : ∀ f', f' ≤ f → AllOK N Φ f') :
-    ∀ (A : Act) n CT V vals st σ s, Inv N Φ CT n st σ → Frame N A CT V vals σ → A.gh ≤ n →
+    ∀ (A : Act) n CT V vals st σ s, Inv N Φ CT n st σ → Frame N A CT V vals σ → A.gh ≤ n → st.active = A.act →
     okS N Φ A.c A.gh A.nl V.flatten s = true →
     Post (SQ N Φ A n CT σ V [s]) (fun k => Core.Fn.evalS Φ k A.cx σ s) (run (Ref.evalStmt (f+1) (envOf N A V vals) (toStmtF N A.c s)) st) := by
-  intro A n CT V vals st σ s hI hF hgh hok
+  intro A n CT V vals st σ s hI hF hgh hL hok
   have hf := ih f (Nat.le_refl f)
   cases s with
   | letG l i e => simp [okS] at hok
   | whileS l lbl c body =>
     simp only [okS, Bool.and_eq_true] at hok
     rw [toStmtF, evalStmt_while]
-    refine Post.mono ?_ (hf.L A n CT V vals st σ l lbl (some c) body hI hF hgh hok.1 hok.2)
+    refine Post.mono ?_ (hf.L A n CT V vals st σ l lbl (some c) body hI hF hgh hL hok.1 hok.2)
     rintro r y s ⟨vals', CT', h1, h2, h3, h4⟩
     exact SQ.same h1 h2 h3 h4 rfl
   | loopS l lbl body =>
     simp only [okS] at hok
     rw [toStmtF, evalStmt_loop]
-    refine Post.mono ?_ (hf.L A n CT V vals st σ l lbl none body hI hF hgh rfl hok)
+    refine Post.mono ?_ (hf.L A n CT V vals st σ l lbl none body hI hF hgh hL rfl hok)
     rintro r y s ⟨vals', CT', h1, h2, h3, h4⟩
     exact SQ.same h1 h2 h3 h4 rfl
   | letL l i e =>
@@ -1750,17 +2394,17 @@ theorem stmt_succ (f : Nat) (ih : ∀ f', f' ≤ f → AllOK N Φ f') :
       | cons a b => exact ⟨a, b, rfl⟩
     rw [toStmtF, evalStmt_let]
     refine Post.shift (fS_zero _ _ _ _) (fun k => fS_letL Φ k A.cx σ l i e) ?_
-    refine Post.bind (mono_E _ _ _ _) (fun _ => FMono.const _) (hf.E' A n CT _ vals st σ e hI hF hgh hoke) ?_
+    refine Post.bind (mono_E _ _ _ _) (fun _ => FMono.const _) (hf.E' A n CT _ vals st σ e hI hF hgh hL hoke) ?_
     rintro r ⟨w, σ1⟩ s1 ⟨v, vals1, CT1, rfl, hv, hn1⟩
     have hfr1 : Frame N A CT1 (V0 :: Vt) vals1 σ1 := hn1.frame
     have hiv1 : Inv N Φ CT1 n s1 σ1 := hn1.inv
     have hlt : i < σ1.l.length := by rw [hfr1.lLen]; exact hinl
-    have hge : isGlobalEnv (envOf N A (V0 :: Vt) vals1) = false := isGlobalEnv_mkEnv_false hglob
+    have hge : isGlobalEnv (envOf N A (V0 :: Vt) vals1) = false := isGlobalEnv_mkEnv_false (hfr1.infn hd).2.1
     simp only [letK, hge, Bool.false_eq_true, if_false]
     unfold envOf
     rw [bindTop_mkEnv hnotin]
-    exact Post.ok 0 (σ1.lset i w, .normal, .null) (by simp [letLK, hlt]) ⟨i :: V0, upd vals1 i v, CT1, rfl, True.intro,
-      ⟨hn1.ext, hn1.hext, Inv.of_gh (σ := σ1) (σ' := σ1.lset i w) rfl rfl rfl hiv1, hfr1.bindL hv hnotin hlt⟩,
+    exact Post.ok 0 (σ1.lset i w, .normal, .null) (by simp [letLK, hlt]) ⟨i :: V0, vals1.upd i v, CT1, rfl, True.intro,
+      hn1.same rfl hn1.act (Inv.of_gh (σ := σ1) (σ' := σ1.lset i w) rfl rfl rfl hiv1) (hfr1.bindL hv hnotin hlt),
       fun _ => ⟨rfl, VR.scalar rfl, rfl, fun _ => rfl⟩⟩
   | expr l e =>
     simp only [okS] at hok
@@ -1769,7 +2413,7 @@ theorem stmt_succ (f : Nat) (ih : ∀ f', f' ≤ f → AllOK N Φ f') :
       simp only [okE, Bool.and_eq_true] at hok
       rw [toStmtF, toAstF, evalStmt_exprCall]
       refine Post.shift (fS_zero _ _ _ _) (fun k => fS_expr Φ k A.cx σ l (.call l' fn as)) ?_
-      have hc := callCore_ok hf A n CT V vals st σ fn as l' (fun env r => pure (.val r env)) (fun _ _ _ => rfl) hI hF hgh hok.1 hok.2
+      have hc := callCore_ok hf A n CT V vals st σ fn as l' (fun env r => pure (.val r env)) (fun _ _ _ => rfl) hI hF hgh hL hok.1 hok.2
       have hc' := Post.shift (ev := fun k => Core.Fn.evalE Φ k A.cx σ (.call l' fn as)) (fE_zero _ _ _ _) (fun k => fE_call Φ k A.cx σ l' fn as) hc
       refine Post.bind (mono_E _ _ _ _) (fun _ => FMono.const _) hc' ?_
       rintro r ⟨w, σ1⟩ s1 ⟨v, vals1, CT1, rfl, hv, hn1⟩
@@ -1778,24 +2422,24 @@ theorem stmt_succ (f : Nat) (ih : ∀ f', f' ≤ f → AllOK N Φ f') :
         toAstF_not_call A.c e (fun l' f a h => hcall ⟨l', f, a, h⟩)
       rw [toStmtF, evalStmt_expr _ _ _ _ hx]
       refine Post.shift (fS_zero _ _ _ _) (fun k => fS_expr Φ k A.cx σ l e) ?_
-      refine Post.bind (mono_E _ _ _ _) (fun _ => FMono.const _) (hf.E' A n CT V vals st σ e hI hF hgh hok) ?_
+      refine Post.bind (mono_E _ _ _ _) (fun _ => FMono.const _) (hf.E' A n CT V vals st σ e hI hF hgh hL hok) ?_
       rintro r ⟨w, σ1⟩ s1 ⟨v, vals1, CT1, rfl, hv, hn1⟩
       exact Post.ok 0 (σ1, .normal, w) rfl (SQ.same rfl True.intro hn1 (fun _ => ⟨hv, rfl, fun h => by cases h⟩) rfl)
   | block l body =>
     simp only [okS] at hok
     rw [toStmtF, evalStmt_block]
     refine Post.shift (fS_zero _ _ _ _) (fun k => fS_block Φ k A.cx σ l body) ?_
-    refine Post.bind (mono_P _ _ _ _) (fun _ => FMono.const _) (hf.B A n CT V vals st σ body l hI hF hgh hok) ?_
+    refine Post.bind (mono_P _ _ _ _) (fun _ => FMono.const _) (hf.B A n CT V vals st σ body l hI hF hgh hL hok) ?_
     rintro ⟨fl, v, env'⟩ ⟨σ1, fl', bv⟩ s1 ⟨vals1, CT1, henv, hfr, hn1, hnorm⟩
     exact Post.ok 0 (σ1, fl', .null) rfl (SQ.same henv hfr hn1 (fun _ => ⟨VR.scalar rfl, rfl, fun _ => rfl⟩) rfl)
   | breakS l lbl =>
     rw [toStmtF, evalStmt_break]
     exact Post.ok 1 (σ, .brk lbl, .null) (by simp [Core.Fn.evalS])
-      (SQ.same (r := (Flow.brk lbl, Val.null, envOf N A V vals)) rfl rfl (Next.refl hI hF) (fun h => by cases h) rfl)
+      (SQ.same (r := (Flow.brk lbl, Val.null, envOf N A V vals)) rfl rfl (Next.refl hI hF hL) (fun h => by cases h) rfl)
   | continueS l lbl =>
     rw [toStmtF, evalStmt_continue]
     exact Post.ok 1 (σ, .cont lbl, .null) (by simp [Core.Fn.evalS])
-      (SQ.same (r := (Flow.cont lbl, Val.null, envOf N A V vals)) rfl rfl (Next.refl hI hF) (fun h => by cases h) rfl)
+      (SQ.same (r := (Flow.cont lbl, Val.null, envOf N A V vals)) rfl rfl (Next.refl hI hF hL) (fun h => by cases h) rfl)
   | ifS ls l c t e =>
     simp only [okS, Bool.and_eq_true] at hok
     rw [toStmtF, evalStmt_expr _ _ _ _ (fun _ _ _ h => by cases h)]
@@ -1807,10 +2451,11 @@ theorem stmt_succ (f : Nat) (ih : ∀ f', f' ≤ f → AllOK N Φ f') :
       unfold bindR
       rw [bind_assoc]
       have hf0 := ih f0 (Nat.le_succ f0)
-      refine Post.bind (mono_E _ _ _ _) (fun p => FMono.ite (mono_P _ _ _ _) (mono_P _ _ _ _)) (hf0.E' A n CT V vals st σ c hI hF hgh hok.1.1) ?_
+      refine Post.bind (mono_E _ _ _ _) (fun p => FMono.ite (mono_P _ _ _ _) (mono_P _ _ _ _)) (hf0.E' A n CT V vals st σ c hI hF hgh hL hok.1.1) ?_
       rintro r ⟨wc, σ1⟩ s1 ⟨vc, vals1, CT1, rfl, hvc, hn1⟩
       dsimp only
-      rw [bind_assoc, run_truthy_bind hn1.inv.heap hvc]
+      rw [bind_assoc]
+      refine Post.truthy hn1.inv.heap hvc _ ?_
       have hB : ∀ f', f' ≤ f0 → AllOK N Φ f' := fun f' h => ih f' (Nat.le_succ_of_le h)
       have hs0 : (FStmt.ifS ls l c t e).isRet = false ∧ (FStmt.ifS ls l c t e).isExprStmt = true ∧
           defs [FStmt.ifS ls l c t e] (V.headD []) = V.headD [] := ⟨rfl, rfl, rfl⟩
@@ -1818,35 +2463,35 @@ theorem stmt_succ (f : Nat) (ih : ∀ f', f' ≤ f → AllOK N Φ f') :
       | true =>
         simp only [Bool.not_true, Bool.false_eq_true, if_false]
         refine Post.congr (ev' := fun k => Core.Fn.evalP Φ k A.cx σ1 e) (fun k => by simp [hfal]) ?_
-        refine Post.mono ?_ (branch_stmts_ok hB A n CT1 V vals1 s1 σ1 e l _ hs0 hn1.inv hn1.frame hgh hok.2)
+        refine Post.mono ?_ (branch_stmts_ok hB A n CT1 V vals1 s1 σ1 e l _ hs0 hn1.inv hn1.frame hgh hn1.act hok.2)
         rintro r y s ⟨V0', vals2, CT2, h1, h2, hn2, h3⟩
         exact ⟨V0', vals2, CT2, h1, h2, hn1.trans hn2, h3⟩
       | false =>
         simp only [Bool.not_false, if_true]
         refine Post.congr (ev' := fun k => Core.Fn.evalP Φ k A.cx σ1 t) (fun k => by simp [hfal]) ?_
-        refine Post.mono ?_ (branch_stmts_ok hB A n CT1 V vals1 s1 σ1 t l _ hs0 hn1.inv hn1.frame hgh hok.1.2)
+        refine Post.mono ?_ (branch_stmts_ok hB A n CT1 V vals1 s1 σ1 t l _ hs0 hn1.inv hn1.frame hgh hn1.act hok.1.2)
         rintro r y s ⟨V0', vals2, CT2, h1, h2, hn2, h3⟩
         exact ⟨V0', vals2, CT2, h1, h2, hn1.trans hn2, h3⟩
   | ret l e =>
     simp only [okS, Bool.and_eq_true, decide_eq_true_eq] at hok
     obtain ⟨⟨x, hx⟩, -, -⟩ := hF.infn hok.1
-    obtain ⟨c0, gh0, nl0, base0, cx0⟩ := A
+    obtain ⟨c0, gh0, nl0, cx0, sf0⟩ := A
     have hx' : cx0 = some x := hx
     subst hx'
     rw [toStmtF, evalStmt_ret]
     refine Post.shift (fS_zero _ _ _ _) (fun k => fS_ret Φ k x σ l e) ?_
-    refine Post.bind (mono_E _ _ _ _) (fun _ => FMono.const _) (hf.E' ⟨c0, gh0, nl0, base0, some x⟩ n CT V vals st σ e hI hF hgh hok.2) ?_
+    refine Post.bind (mono_E _ _ _ _) (fun _ => FMono.const _) (hf.E' ⟨c0, gh0, nl0, some x, sf0⟩ n CT V vals st σ e hI hF hgh hL hok.2) ?_
     rintro r ⟨w, σ1⟩ s1 ⟨v, vals1, CT1, rfl, hv, hn1⟩
     exact Post.ok 0 (σ1, .ret w, .null) rfl (SQ.same (r := (Flow.ret v, Val.null, _)) rfl hv hn1 (fun h => by cases h) rfl)
   | retN l =>
     simp only [okS, decide_eq_true_eq] at hok
     obtain ⟨⟨x, hx⟩, -, -⟩ := hF.infn hok
-    obtain ⟨c0, gh0, nl0, base0, cx0⟩ := A
+    obtain ⟨c0, gh0, nl0, cx0, sf0⟩ := A
     have hx' : cx0 = some x := hx
     subst hx'
     rw [toStmtF, evalStmt_retN]
     exact Post.ok 1 (σ, .ret .null, .null) (fS_retN Φ 0 x σ l)
-      (SQ.same (r := (Flow.ret Val.null, Val.null, _)) rfl (VR.scalar rfl) (Next.refl hI hF) (fun h => by cases h) rfl)
+      (SQ.same (r := (Flow.ret Val.null, Val.null, _)) rfl (VR.scalar rfl) (Next.refl hI hF hL) (fun h => by cases h) rfl)
 
 theorem mono_stmtsSK (k0 : Unit) (cx : Option (FnDef × Nat)) (rest : List FStmt) (q : Sto × FFlow × Val) :
     FMono (fun k => stmtsSK Φ k cx rest q) := by
@@ -1865,15 +2510,15 @@ theorem lastExpr_cons2 (s s2 : FStmt) (r : List FStmt) : lastExpr (s :: s2 :: r)
   simp [lastExpr, List.getLast?_cons_cons]
 
 theorem stmts_succ (f : Nat) (hf : AllOK N Φ f) :
-    ∀ (A : Act) n CT V vals st σ ss last, Inv N Φ CT n st σ → Frame N A CT V vals σ → A.gh ≤ n →
+    ∀ (A : Act) n CT V vals st σ ss last, Inv N Φ CT n st σ → Frame N A CT V vals σ → A.gh ≤ n → st.active = A.act →
     okP N Φ A.c A.gh A.nl V.flatten ss = true → (ss = [] → last = .null) →
     Post (SQ N Φ A n CT σ V ss) (fun k => Core.Fn.evalP Φ k A.cx σ ss) (run (Ref.evalStmts (f+1) (envOf N A V vals) (toStmtsF N A.c ss) last) st) := by
-  intro A n CT V vals st σ ss last hI hF hgh hok hlast
+  intro A n CT V vals st σ ss last hI hF hgh hL hok hlast
   cases ss with
   | nil =>
     rw [toStmtsF, evalStmts_nil, hlast rfl]
     exact Post.ok 1 (σ, .normal, .null) (by simp [Core.Fn.evalP])
-      (SQ.same (r := (Flow.normal, Val.null, envOf N A V vals)) rfl True.intro (Next.refl hI hF) (fun _ => ⟨VR.scalar rfl, rfl, fun _ => rfl⟩) rfl)
+      (SQ.same (r := (Flow.normal, Val.null, envOf N A V vals)) rfl True.intro (Next.refl hI hF hL) (fun _ => ⟨VR.scalar rfl, rfl, fun _ => rfl⟩) rfl)
   | cons s rest =>
     simp only [okP, Bool.and_eq_true] at hok
     have hvis0 : V = [] → visAfter s [] = [] := by
@@ -1883,7 +2528,7 @@ theorem stmts_succ (f : Nat) (hf : AllOK N Φ f) :
       exact absurd hV (hF.infn hok.1.1.1.1).2.2
     rw [toStmtsF, evalStmts_cons]
     refine Post.shift (fP_zero _ _ _ _) (fun k => fP_cons Φ k A.cx σ s rest) ?_
-    refine Post.bind (mono_S _ _ _ _) (fun q => mono_stmtsSK () _ _ q) (hf.S A n CT V vals st σ s hI hF hgh hok.1) ?_
+    refine Post.bind (mono_S _ _ _ _) (fun q => mono_stmtsSK () _ _ q) (hf.S A n CT V vals st σ s hI hF hgh hL hok.1) ?_
     rintro ⟨fl, v, env1⟩ ⟨σ1, fl', bv⟩ s1 ⟨V0', vals1, CT1, henv, hfr, hn1, hnorm⟩
     have henv' : env1 = envOf N A (setTop V0' V) vals1 := henv
     subst henv'
@@ -1909,7 +2554,7 @@ theorem stmts_succ (f : Nat) (hf : AllOK N Φ f) :
             rw [visAfter_append]
         have hokr : okP N Φ A.c A.gh A.nl (setTop V0' V).flatten (s2 :: rest2) = true := by rw [hflat]; exact hok.2
         refine Post.congr (ev' := fun k => Core.Fn.evalP Φ k A.cx σ1 (s2 :: rest2)) (fun k => by simp [stmtsSK]) ?_
-        refine Post.mono ?_ (hf.P A n CT1 (setTop V0' V) vals1 s1 σ1 (s2 :: rest2) v hn1.inv hn1.frame hgh hokr (fun h => by cases h))
+        refine Post.mono ?_ (hf.P A n CT1 (setTop V0' V) vals1 s1 σ1 (s2 :: rest2) v hn1.inv hn1.frame hgh hn1.act hokr (fun h => by cases h))
         rintro r y s ⟨V0'', vals2, CT2, h1, h2, hn2, h3⟩
         rw [setTop_setTop] at h1 hn2
         refine ⟨V0'', vals2, CT2, h1, h2, hn1.trans hn2, fun h => ?_⟩
@@ -1930,18 +2575,18 @@ theorem stmts_succ (f : Nat) (hf : AllOK N Φ f) :
       exact Post.ok 0 (σ1, .ret w, .null) (by simp [stmtsSK]) ⟨V0', vals1, CT1, rfl, hfr, hn1, fun h => by cases h⟩
 
 theorem block_succ (f : Nat) (hf : AllOK N Φ f) :
-    ∀ (A : Act) n CT V vals st σ ss l, Inv N Φ CT n st σ → Frame N A CT V vals σ → A.gh ≤ n →
+    ∀ (A : Act) n CT V vals st σ ss l, Inv N Φ CT n st σ → Frame N A CT V vals σ → A.gh ≤ n → st.active = A.act →
     okP N Φ A.c A.gh A.nl V.flatten ss = true →
     Post (BQ N Φ A n CT σ V ss) (fun k => Core.Fn.evalP Φ k A.cx σ ss) (run (Ref.evalBlock (f+1) (envOf N A V vals) (.mk l (toStmtsF N A.c ss))) st) := by
-  intro A n CT V vals st σ ss l hI hF hgh hok
+  intro A n CT V vals st σ ss l hI hF hgh hL hok
   rw [evalBlock_succ]
-  have h := hf.P A n CT ([] :: V) vals st σ ss .null hI hF.push hgh (by simpa using hok) (fun _ => rfl)
+  have h := hf.P A n CT ([] :: V) vals st σ ss .null hI hF.push hgh hL (by simpa using hok) (fun _ => rfl)
   refine Res.bind h id ?_
   rintro ⟨fl, v, env'⟩ s1 ⟨k, ⟨σ1, fl', bv⟩, hk, V0', vals1, CT1, henv, hfr, hn1, hnorm⟩
   have henv' : env' = envOf N A (V0' :: V) vals1 := henv
   subst henv'
   exact Post.ok k (σ1, fl', bv) hk ⟨vals1, CT1, rfl, hfr,
-    ⟨hn1.ext, hn1.hext, hn1.inv, Frame.pop (V0 := V0') hn1.frame (fun hd => (hF.infn hd).2.2)⟩, fun h => (hnorm h).2⟩
+    hn1.same rfl hn1.act hn1.inv (Frame.pop (V0 := V0') hn1.frame (fun hd => (hF.infn hd).2.2)), fun h => (hnorm h).2⟩
 
 theorem mono_loopSK (cx : Option (FnDef × Nat)) (lbl : Option String) (loop : FStmt) (q : Sto × FFlow × Val) :
     FMono (fun k => loopSK Φ k cx lbl loop q) := by
@@ -1955,15 +2600,15 @@ theorem mkLoopF_normalOK (l : Nat) (lbl : Option String) (cond : Option FExpr) (
   cases cond <;> exact ⟨rfl, fun _ => rfl⟩
 
 /-- the body of a loop, then what the loop does with the flow -/
-theorem loop_body_ok {f : Nat} (hf : AllOK N Φ f) (A : Act) (n : Nat) (CT : CTab) (V : List (List Nat)) (vals : Nat → Val) (st : St) (σ : Sto)
+theorem loop_body_ok {f : Nat} (hf : AllOK N Φ f) (A : Act) (n : Nat) (CT : CTab) (V : List (List Nat)) (vals : LS) (st : St) (σ : Sto)
     (l : Nat) (lbl : Option String) (cond : Option FExpr) (body : List FStmt)
-    (hI : Inv N Φ CT n st σ) (hF : Frame N A CT V vals σ) (hgh : A.gh ≤ n)
+    (hI : Inv N Φ CT n st σ) (hF : Frame N A CT V vals σ) (hgh : A.gh ≤ n) (hL : st.active = A.act)
     (hc : condOKF N Φ A.c A.gh A.nl V.flatten cond = true) (hb : okP N Φ A.c A.gh A.nl V.flatten body = true) :
     Post (BQ N Φ A n CT σ V [mkLoopF l lbl cond body])
       (fun k => (Core.Fn.evalP Φ k A.cx σ body).bind (loopSK Φ k A.cx lbl (mkLoopF l lbl cond body)))
       (run (evalBlock f (envOf N A V vals) (.mk l (toStmtsF N A.c body)) >>=
         loopBodyK f lbl (cond.map (toAstF N A.c)) (.mk l (toStmtsF N A.c body))) st) := by
-  refine Post.bind (mono_P _ _ _ _) (fun q => mono_loopSK _ _ _ q) (hf.B A n CT V vals st σ body l hI hF hgh hb) ?_
+  refine Post.bind (mono_P _ _ _ _) (fun q => mono_loopSK _ _ _ q) (hf.B A n CT V vals st σ body l hI hF hgh hL hb) ?_
   rintro ⟨fl, v, env1⟩ ⟨σ1, fl', bv⟩ s1 ⟨vals1, CT1, henv, hfr, hn1, -⟩
   have henv' : env1 = envOf N A V vals1 := henv
   subst henv'
@@ -1973,7 +2618,7 @@ theorem loop_body_ok {f : Nat} (hf : AllOK N Φ f) (A : Act) (n : Nat) (CT : CTa
         (run (evalLoop f (envOf N A V vals1) lbl (cond.map (toAstF N A.c)) (.mk l (toStmtsF N A.c body))) s1) := by
     intro hact
     refine Post.congr (ev' := fun k => Core.Fn.evalS Φ k A.cx σ1 (mkLoopF l lbl cond body)) (fun k => by simp [loopSK, hact]) ?_
-    refine Post.mono ?_ (hf.L A n CT1 V vals1 s1 σ1 l lbl cond body hn1.inv hn1.frame hgh hc hb)
+    refine Post.mono ?_ (hf.L A n CT1 V vals1 s1 σ1 l lbl cond body hn1.inv hn1.frame hgh hn1.act hc hb)
     rintro r y s ⟨vals2, CT2, h1, h2, hn2, h4⟩
     exact ⟨vals2, CT2, h1, h2, hn1.trans hn2, h4⟩
   cases fl' with
@@ -2015,26 +2660,26 @@ theorem loop_body_ok {f : Nat} (hf : AllOK N Φ f) (A : Act) (n : Nat) (CT : CTa
       ⟨vals1, CT1, rfl, hfr, hn1, fun h => by cases h⟩
 
 theorem loop_succ (f : Nat) (hf : AllOK N Φ f) :
-    ∀ (A : Act) n CT V vals st σ l lbl cond body, Inv N Φ CT n st σ → Frame N A CT V vals σ → A.gh ≤ n →
+    ∀ (A : Act) n CT V vals st σ l lbl cond body, Inv N Φ CT n st σ → Frame N A CT V vals σ → A.gh ≤ n → st.active = A.act →
     condOKF N Φ A.c A.gh A.nl V.flatten cond = true → okP N Φ A.c A.gh A.nl V.flatten body = true →
     Post (BQ N Φ A n CT σ V [mkLoopF l lbl cond body]) (fun k => Core.Fn.evalS Φ k A.cx σ (mkLoopF l lbl cond body))
       (run (Ref.evalLoop (f+1) (envOf N A V vals) lbl (cond.map (toAstF N A.c)) (.mk l (toStmtsF N A.c body))) st) := by
-  intro A n CT V vals st σ l lbl cond body hI hF hgh hc hb
+  intro A n CT V vals st σ l lbl cond body hI hF hgh hL hc hb
   rw [evalLoop_succ]
   cases cond with
   | none =>
     simp only [Option.map_none, loopCond, pure_bind]
     refine Post.shift (fS_zero _ _ _ _) (fun k => fS_loop Φ k A.cx σ l lbl body) ?_
-    exact loop_body_ok hf A n CT V vals st σ l lbl none body hI hF hgh rfl hb
+    exact loop_body_ok hf A n CT V vals st σ l lbl none body hI hF hgh hL rfl hb
   | some c =>
     simp only [Option.map_some, loopCond, bind_assoc]
     refine Post.shift (fS_zero _ _ _ _) (fun k => fS_while Φ k A.cx σ l lbl c body) ?_
     refine Post.bind (mono_E _ _ _ _)
       (fun p => FMono.ite (FMono.const _) (FMono.bind (mono_P _ _ _ _) (fun q => mono_loopSK _ _ _ q)))
-      (hf.E' A n CT V vals st σ c hI hF hgh hc) ?_
+      (hf.E' A n CT V vals st σ c hI hF hgh hL hc) ?_
     rintro r ⟨wc, σ1⟩ s1 ⟨vc, vals1, CT1, rfl, hvc, hn1⟩
     simp only [condK, bind_assoc, pure_bind]
-    rw [run_truthy_bind hn1.inv.heap hvc]
+    refine Post.truthy hn1.inv.heap hvc _ ?_
     cases hfal : Core.Fn.falseyH σ1.a wc with
     | true =>
       simp only [Bool.not_true]
@@ -2044,7 +2689,7 @@ theorem loop_succ (f : Nat) (hf : AllOK N Φ f) :
       simp only [Bool.not_false]
       refine Post.congr (ev' := fun k => (Core.Fn.evalP Φ k A.cx σ1 body).bind (loopSK Φ k A.cx lbl (mkLoopF l lbl (some c) body)))
         (fun k => by simp [hfal, mkLoopF]) ?_
-      refine Post.mono ?_ (loop_body_ok hf A n CT1 V vals1 s1 σ1 l lbl (some c) body hn1.inv hn1.frame hgh hc hb)
+      refine Post.mono ?_ (loop_body_ok hf A n CT1 V vals1 s1 σ1 l lbl (some c) body hn1.inv hn1.frame hgh hn1.act hc hb)
       rintro r y s ⟨vals2, CT2, h1, h2, hn2, h4⟩
       exact ⟨vals2, CT2, h1, h2, hn1.trans hn2, h4⟩
 
@@ -2152,6 +2797,15 @@ theorem lookup_base (c : RClos) (vf : Val) (name : String) (b : Bind) (h1 : name
     · simp [lookupScope, Ne.symm h1]
   simp [lookupEnv, hs, lookupScope, Ne.symm h2, h]
 
+theorem lookup_selfKey (c : RClos) (vf : Val) (h : c.name ≠ selfKey) :
+    lookupEnv selfKey [selfScope c vf, (selfKey, .cap vf) :: c.captured] = some (.cap vf) := by
+  have hs : lookupScope selfKey (selfScope c vf) = none := by
+    unfold selfScope
+    split
+    · rfl
+    · simp [lookupScope, h]
+  simp [lookupEnv, hs, lookupScope]
+
 theorem lookup_self (c : RClos) (vf : Val) (h : c.name ≠ "") :
     lookupEnv c.name [selfScope c vf, (selfKey, .cap vf) :: c.captured] = some (.cap vf) := by
   simp [lookupEnv, selfScope, h, lookupScope]
@@ -2184,7 +2838,7 @@ variable {N : Names} {Φ : FnDef → Option FDecl} (hN : NamesOK N)
 include hN in
 theorem call_succ (f : Nat) (hf : AllOK N Φ f) :
     ∀ n CT st σ l vf wf vargs wargs, Inv N Φ CT n st σ → VR CT vf wf → VRs CT vargs wargs →
-    Post (CQ N Φ n CT σ) (fun k => callF Φ k wf wargs σ) (run (Ref.callValue (f+1) l vf vargs) st) := by
+    Post (CQ N Φ n CT σ st.active) (fun k => callF Φ k wf wargs σ) (run (Ref.callValue (f+1) l vf vargs) st) := by
   intro n CT st σ l vf wf vargs wargs hI hvf hargs
   rcases hvf.cases3 with ⟨hn, ho⟩ | ⟨id, h0, rfl, rfl⟩
   rotate_left
@@ -2192,7 +2846,10 @@ theorem call_succ (f : Nat) (hf : AllOK N Φ f) :
   rcases ho with ⟨hs, rfl⟩ | ⟨k, fd, hid, rfl, rfl, hk⟩
   · rw [run_callValue_scalar _ _ _ _ _ hs]
     intro k; exact callF_scalar Φ k _ _ _ hs
-  · obtain ⟨c, hc, d, cx, gh, hΦ, hname, hparams, hbody, hdepth, hnpnl, hghn, hokb, hlast, hglob, hfrees, hlnself, hselfkey⟩ := hI.clos k fd hid hk
+  · obtain ⟨e, he, hfd, hhid⟩ := oldCT_get hk
+    obtain ⟨cx, gh, he'⟩ : ∃ cx gh, CT[k]? = some ⟨fd, hid, cx, gh⟩ := ⟨e.cx, e.gh, by rw [he, ← hfd, ← hhid]⟩
+    obtain ⟨c, hc, d, hΦ, hname, hparams, hbody, hdepth, hnpnl, hghn, hokb, hlast, hglob, hfrees, hlnself, hselfkey, hfnd⟩ := hI.clos k _ he'
+    dsimp only at hΦ hname hparams hbody hdepth hghn hokb hglob hfrees hlnself hselfkey hfnd
     rw [run_callValue_clos f l emptyFn [] (k+1) vargs st c (by simpa using hc)]
     have hplen : c.params.length = d.np := by rw [hparams]; simp [params]
     have hlen := hargs.length
@@ -2203,14 +2860,16 @@ theorem call_succ (f : Nat) (hf : AllOK N Φ f) :
       have hwl : wargs.length = d.np := by omega
       have hvfr : VR CT (.clos emptyFn [] (k+1)) (.clos fd [] hid) := .inr (.inl ⟨k, fd, hid, rfl, rfl, hk⟩)
       have henv : callEnv c (.clos emptyFn [] (k+1)) vargs =
-          envOf N ⟨cx, gh, d.nl, [selfScope c (.clos emptyFn [] (k+1)), (selfKey, .cap (.clos emptyFn [] (k+1))) :: c.captured], some (fd, hid)⟩
-            [paramVis d.np] (fun i => vargs.getD i .null) := by
+          envOf N ⟨cx, gh, d.nl, some (fd, hid), (k + 1) :: st.active⟩ [paramVis d.np]
+            ⟨fun i => vargs.getD i .null, [selfScope c (.clos emptyFn [] (k+1)), (selfKey, .cap (.clos emptyFn [] (k+1))) :: c.captured]⟩ := by
         unfold callEnv envOf mkEnv
         rw [hparams, param_scope N cx.depth d.np vargs hne]
         rfl
-      have hF' : Frame N ⟨cx, gh, d.nl, [selfScope c (.clos emptyFn [] (k+1)), (selfKey, .cap (.clos emptyFn [] (k+1))) :: c.captured], some (fd, hid)⟩
-          CT [paramVis d.np] (fun i => vargs.getD i .null) (σ.enter (wargs ++ List.replicate (d.nl - d.np) .null)) := by
-        refine ⟨?_, ?_, ?_, ?_, ?_, ?_, ?_⟩
+      have hcn : c.name ≠ selfKey := by rw [hname]; exact hselfkey
+      have hF' : Frame N ⟨cx, gh, d.nl, some (fd, hid), (k + 1) :: st.active⟩ CT [paramVis d.np]
+          ⟨fun i => vargs.getD i .null, [selfScope c (.clos emptyFn [] (k+1)), (selfKey, .cap (.clos emptyFn [] (k+1))) :: c.captured]⟩
+          (σ.enter (wargs ++ List.replicate (d.nl - d.np) .null)) := by
+        refine ⟨?_, ?_, ?_, ?_, ?_, ?_, hfnd, ?_, ?_, ?_⟩
         · simp only [paramVis, List.flatten_cons, List.flatten_nil, List.append_nil]
           exact (List.reverse_perm _).nodup_iff.mpr List.nodup_range
         · intro i hi
@@ -2222,15 +2881,20 @@ theorem call_succ (f : Nat) (hf : AllOK N Φ f) :
           obtain ⟨h1, h2⟩ := hglob j hj
           exact lookup_base c _ _ _ (by rw [hname]; exact h1) (hN.gn_key j) h2
         · intro hs
-          refine ⟨hlnself, hselfkey, _, fd, hid, ?_, rfl, hvfr⟩
+          refine ⟨hlnself, hselfkey, fun j hj => (hglob j hj).1, _, fd, hid, ?_, rfl, hvfr⟩
           show lookupEnv cx.self _ = _
           rw [← hname]
           exact lookup_self c _ (by rw [hname]; exact hs)
         · intro j name hj
-          obtain ⟨a1, a2, a3, a4, v, w, b1, b2, b3⟩ := hfrees j name hj
-          exact ⟨a1, a4, a3, v, w, fd, hid, rfl, lookup_base c _ _ _ (by rw [hname]; exact a2) a3 b1, b2, b3⟩
+          obtain ⟨a1, a2, a3, a4, a5, v, w, b1, b2, b3⟩ := hfrees j name hj
+          exact ⟨a1, a4, a3, a2, a5, v, w, fd, hid, rfl, lookup_base c _ _ _ (by rw [hname]; exact a2) a3 b1, b2, b3⟩
         · intro _
           exact ⟨⟨_, rfl⟩, by simp [isGlobalEnv], by simp⟩
+        · intro h0
+          exact absurd h0 (Nat.ne_of_gt hdepth)
+        · intro fd' hid' hcx
+          cases hcx
+          exact ⟨k, he', List.mem_cons_self, lookup_selfKey c _ hcn⟩
       have hI' : Inv N Φ CT n { st with active := (k + 1) :: st.active } (σ.enter (wargs ++ List.replicate (d.nl - d.np) .null)) :=
         Inv.of_gh (σ := σ) rfl rfl rfl (hI.of_active _)
       have hbody' : c.body = .mk c.body.line (toStmtsF N cx d.body) := by
@@ -2240,12 +2904,31 @@ theorem call_succ (f : Nat) (hf : AllOK N Φ f) :
           simp only [Block.stmts] at hbody
           rw [hbody]; rfl
       rw [henv, hbody']
-      have hb := hf.B _ n CT [paramVis d.np] _ { st with active := (k + 1) :: st.active } _ d.body c.body.line hI' hF' hghn (by simpa using hokb)
+      have hb := hf.B _ n CT [paramVis d.np] _ { st with active := (k + 1) :: st.active } _ d.body c.body.line hI' hF' hghn rfl (by simpa using hokb)
       refine Res.bind hb ?_ ?_
       · intro h k'
         exact callF_none Φ k' fd [] hid wargs σ d hΦ hwl (h k')
       · rintro ⟨fl, v, env'⟩ s1 ⟨k', ⟨σ3, fl', bv⟩, hk', vals1, CT1, henv1, hfr, hn1, hnorm⟩
         have hk'' : Core.Fn.evalP Φ k' (some (fd, hid)) (σ.enter (wargs ++ List.replicate (d.nl - d.np) .null)) d.body = some (σ3, fl', bv) := hk'
+        have hunAll : UnchAll CT st.active σ.h (σ.back σ3).h := by
+          intro k2 e2 hk2 hl2
+          refine hn1.unch k2 e2 hk2 (List.mem_cons_of_mem _ hl2) ?_
+          by_cases hhid2 : e2.hid = hid
+          · right
+            have hkk : k2 = k := hI.hidInj k2 k e2 _ hk2 he' hhid2
+            subst hkk
+            show 2 ≤ ((k2 + 1) :: st.active).count (k2 + 1)
+            have := List.count_pos_iff.mpr hl2
+            simp only [List.count_cons_self]
+            omega
+          · left
+            intro fd' hid' hcx'
+            cases hcx'
+            exact fun e => hhid2 e.symm
+        have hactpop : ({ s1 with active := s1.active.tail } : St).active = st.active := by
+          show s1.active.tail = st.active
+          rw [hn1.act]
+          rfl
         have hI3 : Inv N Φ CT1 n { s1 with active := s1.active.tail } (σ.back σ3) :=
           Inv.of_gh (σ := σ3) rfl rfl rfl (hn1.inv.of_active _)
         show Res _ _ (run (popActive >>= fun _ => retKV c (fl, v, env')) s1)
@@ -2256,7 +2939,7 @@ theorem call_succ (f : Nat) (hf : AllOK N Φ f) :
           cases fl <;> first | exact hfr.elim | skip
           obtain ⟨hvr, hN1, hN2⟩ := hnorm rfl
           rw [retKV_normal N cx c d.body v env' hbody hlast hN1]
-          refine Post.ok k' (bv, σ.back σ3) (callF_normal Φ k' fd [] hid wargs σ σ3 d bv hΦ hwl hk'') ⟨CT1, ?_, hn1.ext, hn1.hext, hI3, rfl⟩
+          refine Post.ok k' (bv, σ.back σ3) (callF_normal Φ k' fd [] hid wargs σ σ3 d bv hΦ hwl hk'') ⟨CT1, ?_, hn1.ext, hn1.hlen, hunAll, hactpop, hI3, rfl⟩
           cases hle : lastExpr d.body with
           | true => exact hvr
           | false =>
@@ -2265,7 +2948,7 @@ theorem call_succ (f : Nat) (hf : AllOK N Φ f) :
             rw [hbv]; exact VR.scalar rfl
         | ret w =>
           cases fl <;> first | exact hfr.elim | skip
-          exact Post.ok k' (w, σ.back σ3) (callF_ret Φ k' fd [] hid wargs σ σ3 d w bv hΦ hwl hk'') ⟨CT1, hfr, hn1.ext, hn1.hext, hI3, rfl⟩
+          exact Post.ok k' (w, σ.back σ3) (callF_ret Φ k' fd [] hid wargs σ σ3 d w bv hΦ hwl hk'') ⟨CT1, hfr, hn1.ext, hn1.hlen, hunAll, hactpop, hI3, rfl⟩
         | brk lb =>
           cases fl <;> first | exact hfr.elim | skip
           exact True.intro
@@ -2306,7 +2989,7 @@ theorem ref_call_fn_partial {fuel n l : Nat} {CT : CTab} {st st' : St} {σ : Sto
     ∃ k w σ' CT', callF Φ k wf wargs σ = some (w, σ') ∧ VR CT' r w ∧ CT <+: CT' ∧ Inv N Φ CT' n st' σ' ∧ σ'.l = σ.l := by
   have hm := (all_ok hN fuel).C n CT st σ l vf wf vargs wargs hI hf ha
   rw [h] at hm
-  obtain ⟨k, ⟨w, σ'⟩, hk, CT', h1, h2, -, h4, h5⟩ := hm
+  obtain ⟨k, ⟨w, σ'⟩, hk, CT', h1, h2, -, -, -, h4, h5⟩ := hm
   exact ⟨k, w, σ', CT', hk, h1, h2, h4, h5⟩
 
 /-- the oracle's runtime error in a call: no fuel makes Core.Fn's call succeed -/
@@ -2319,46 +3002,46 @@ theorem ref_call_fn_error_partial {fuel n l l' : Nat} {CT : CTab} {st st' : St} 
   exact hm
 
 /-- **expressions** (inside a function activation or at top level) -/
-theorem ref_expr_fn_partial {fuel n : Nat} {A : Act} {CT : CTab} {V : List (List Nat)} {vals : Nat → Val} {st st' : St} {σ : Sto}
+theorem ref_expr_fn_partial {fuel n : Nat} {A : Act} {CT : CTab} {V : List (List Nat)} {vals : LS} {st st' : St} {σ : Sto}
     {e : FExpr} {v : Val} {env' : Env}
-    (hI : Inv N Φ CT n st σ) (hF : Frame N A CT V vals σ) (hgh : A.gh ≤ n) (hok : okE N Φ A.c A.gh A.nl V.flatten e = true)
+    (hI : Inv N Φ CT n st σ) (hF : Frame N A CT V vals σ) (hgh : A.gh ≤ n) (hL : st.active = A.act) (hok : okE N Φ A.c A.gh A.nl V.flatten e = true)
     (h : run (Ref.evalE fuel (envOf N A V vals) (toAstF N A.c e)) st = (.ok (.val v env'), st')) :
     ∃ k w σ' CT' vals', Core.Fn.evalE Φ k A.cx σ e = some (w, σ') ∧ VR CT' v w ∧ env' = envOf N A V vals' ∧
       Inv N Φ CT' n st' σ' ∧ Frame N A CT' V vals' σ' := by
-  have hm := (all_ok hN fuel).E' A n CT V vals st σ e hI hF hgh hok
+  have hm := (all_ok hN fuel).E' A n CT V vals st σ e hI hF hgh hL hok
   rw [h] at hm
   obtain ⟨k, ⟨w, σ'⟩, hk, v0, vals', CT', h1, h2, h3⟩ := hm
   cases h1
   exact ⟨k, w, σ', CT', vals', hk, h2, rfl, h3.inv, h3.frame⟩
 
-theorem ref_expr_fn_error_partial {fuel n l : Nat} {A : Act} {CT : CTab} {V : List (List Nat)} {vals : Nat → Val} {st st' : St} {σ : Sto}
+theorem ref_expr_fn_error_partial {fuel n l : Nat} {A : Act} {CT : CTab} {V : List (List Nat)} {vals : LS} {st st' : St} {σ : Sto}
     {e : FExpr}
-    (hI : Inv N Φ CT n st σ) (hF : Frame N A CT V vals σ) (hgh : A.gh ≤ n) (hok : okE N Φ A.c A.gh A.nl V.flatten e = true)
+    (hI : Inv N Φ CT n st σ) (hF : Frame N A CT V vals σ) (hgh : A.gh ≤ n) (hL : st.active = A.act) (hok : okE N Φ A.c A.gh A.nl V.flatten e = true)
     (h : run (Ref.evalE fuel (envOf N A V vals) (toAstF N A.c e)) st = (.error (.rt l), st')) :
     ∀ k, Core.Fn.evalE Φ k A.cx σ e = none := by
-  have hm := (all_ok hN fuel).E' A n CT V vals st σ e hI hF hgh hok
+  have hm := (all_ok hN fuel).E' A n CT V vals st σ e hI hF hgh hL hok
   rw [h] at hm
   exact hm
 
 /-- **statement lists**: the flows are related (`return v` carries related values), the value of the list is
 related when the flow is normal -/
-theorem ref_stmts_fn_partial {fuel n : Nat} {A : Act} {CT : CTab} {V : List (List Nat)} {vals : Nat → Val} {st st' : St} {σ : Sto}
+theorem ref_stmts_fn_partial {fuel n : Nat} {A : Act} {CT : CTab} {V : List (List Nat)} {vals : LS} {st st' : St} {σ : Sto}
     {ss : List FStmt} {fl : Flow} {v : Val} {env' : Env}
-    (hI : Inv N Φ CT n st σ) (hF : Frame N A CT V vals σ) (hgh : A.gh ≤ n) (hok : okP N Φ A.c A.gh A.nl V.flatten ss = true)
+    (hI : Inv N Φ CT n st σ) (hF : Frame N A CT V vals σ) (hgh : A.gh ≤ n) (hL : st.active = A.act) (hok : okP N Φ A.c A.gh A.nl V.flatten ss = true)
     (h : run (Ref.evalStmts fuel (envOf N A V vals) (toStmtsF N A.c ss) .null) st = (.ok (fl, v, env'), st')) :
     ∃ k σ' fl' bv CT', Core.Fn.evalP Φ k A.cx σ ss = some (σ', fl', bv) ∧ FR CT' fl fl' ∧ (fl' = .normal → VR CT' v bv) ∧
       Inv N Φ CT' n st' σ' := by
-  have hm := (all_ok hN fuel).P A n CT V vals st σ ss .null hI hF hgh hok (fun _ => rfl)
+  have hm := (all_ok hN fuel).P A n CT V vals st σ ss .null hI hF hgh hL hok (fun _ => rfl)
   rw [h] at hm
   obtain ⟨k, ⟨σ', fl', bv⟩, hk, V0', vals', CT', h1, h2, h3, h4⟩ := hm
   exact ⟨k, σ', fl', bv, CT', hk, h2, fun hn => (h4 hn).2.1, h3.inv⟩
 
-theorem ref_stmts_fn_error_partial {fuel n l : Nat} {A : Act} {CT : CTab} {V : List (List Nat)} {vals : Nat → Val} {st st' : St} {σ : Sto}
+theorem ref_stmts_fn_error_partial {fuel n l : Nat} {A : Act} {CT : CTab} {V : List (List Nat)} {vals : LS} {st st' : St} {σ : Sto}
     {ss : List FStmt}
-    (hI : Inv N Φ CT n st σ) (hF : Frame N A CT V vals σ) (hgh : A.gh ≤ n) (hok : okP N Φ A.c A.gh A.nl V.flatten ss = true)
+    (hI : Inv N Φ CT n st σ) (hF : Frame N A CT V vals σ) (hgh : A.gh ≤ n) (hL : st.active = A.act) (hok : okP N Φ A.c A.gh A.nl V.flatten ss = true)
     (h : run (Ref.evalStmts fuel (envOf N A V vals) (toStmtsF N A.c ss) .null) st = (.error (.rt l), st')) :
     ∀ k, Core.Fn.evalP Φ k A.cx σ ss = none := by
-  have hm := (all_ok hN fuel).P A n CT V vals st σ ss .null hI hF hgh hok (fun _ => rfl)
+  have hm := (all_ok hN fuel).P A n CT V vals st σ ss .null hI hF hgh hL hok (fun _ => rfl)
   rw [h] at hm
   exact hm
 
@@ -2454,22 +3137,23 @@ structure TopR (N : Names) (Φ : FnDef → Option FDecl) (G n : Nat) (base : Env
   gl : g.length = G
   glob : isGlobalEnv base = true
   bound : ∀ j, j < n → lookupEnv (N.gn j) base = some (.g j)
+  act : st.active = []
 
-def topAct (n : Nat) (base : Env) : Act := ⟨topCtx, n, 0, base, none⟩
+def topAct (n : Nat) : Act := ⟨topCtx, n, 0, none, []⟩
 
 theorem TopR.frame {n : Nat} {base : Env} {CT : CTab} {st : St} {g : List Val} {h : List (List Val)} {a : Heap}
-    (hr : TopR N Φ G n base CT st g h a) (vals : Nat → Val) : Frame N (topAct n base) CT [] vals ⟨[], g, h, a⟩ :=
+    (hr : TopR N Φ G n base CT st g h a) (vals : Nat → Val) : Frame N (topAct n) CT [] ⟨vals, base⟩ ⟨[], g, h, a⟩ :=
   ⟨by simp, by simp, rfl, hr.bound, fun hs => absurd rfl hs, fun j name hj => by simp [topAct, topCtx] at hj,
-   fun hd => absurd hd (Nat.lt_irrefl 0)⟩
+   by simp [topAct, topCtx], fun hd => absurd hd (Nat.lt_irrefl 0), fun _ => ⟨hr.glob, rfl⟩, fun fd hid hcx => by cases hcx⟩
 
 /-- a new global: cell `n` of the oracle, slot `n` of Core.Fn -/
 theorem Inv.defGlobal {CT : CTab} {n : Nat} {st : St} {σ : Sto} {v w : Val} (hI : Inv N Φ CT n st σ) (hv : VR CT v w)
     (hn : n < σ.g.length) :
     Inv N Φ CT (n + 1) { st with cells := st.cells ++ [v], sites := (n, n) :: st.sites } (σ.gset n w) := by
-  refine ⟨hI.closLen, ?_, by simp [hI.cellsLen], by simp; omega, ?_, ?_, hI.heap⟩
-  · intro k fd hid hk
-    obtain ⟨c, hc, he⟩ := hI.clos k fd hid hk
-    exact ⟨c, hc, he.mono (List.prefix_refl _) (List.prefix_refl _) (Nat.le_succ n)⟩
+  refine ⟨hI.closLen, ?_, by simp [hI.cellsLen], by simp; omega, ?_, ?_, hI.heap, hI.hidInj, hI.hidLt⟩
+  · intro k e hk
+    obtain ⟨c, hc, he⟩ := hI.clos k e hk
+    exact ⟨c, hc, he.mono (List.prefix_refl _) rfl (Nat.le_succ n)⟩
   · intro j hj
     by_cases hjn : j = n
     · subst hjn
@@ -2499,11 +3183,12 @@ theorem run_defGlobal {β : Type} (st : St) (n : Nat) (v : Val) (K : Nat → Uni
   rw [append_set_last, hc]
 
 include hN in
-theorem TopR.bind {n : Nat} {base : Env} {CT : CTab} {st : St} {g : List Val} {h : List (List Val)} {a : Heap}
-    (hr : TopR N Φ G n base CT st g h a) {CT' : CTab} {st' : St} {g' : List Val} {h' : List (List Val)} {a' : Heap}
+theorem TopR.bind {n : Nat} {base : Env}
+    (hglob : isGlobalEnv base = true) (hbound : ∀ j, j < n → lookupEnv (N.gn j) base = some (.g j))
+    {CT' : CTab} {st' : St} {g' : List Val} {h' : List (List Val)} {a' : Heap} (hact : st'.active = [])
     (hI : Inv N Φ CT' (n + 1) st' ⟨[], g', h', a'⟩) (hg : g'.length = G) :
     TopR N Φ G (n + 1) (bindTop (N.gn n) (.g n) base) CT' st' g' h' a' := by
-  refine ⟨hI, hg, isGlobalEnv_bindTop _ _ _ hr.glob, ?_⟩
+  refine ⟨hI, hg, isGlobalEnv_bindTop _ _ _ hglob, ?_, hact⟩
   intro j hj
   rw [lookupEnv_bindTop]
   by_cases hjn : j = n
@@ -2513,7 +3198,7 @@ theorem TopR.bind {n : Nat} {base : Env} {CT : CTab} {st : St} {g : List Val} {h
       intro e; exact hjn (hN.gn_inj _ _ e).symm
     rw [hne]
     simp only [Bool.false_eq_true, if_false]
-    exact hr.bound j (by omega)
+    exact hbound j (by omega)
 
 def fnSK (site : Nat) (name : String) (ps : List String) (body : Block) (l : Nat) (env : Env) : M (Flow × Val × Env) :=
   siteCell site >>= fun c =>
@@ -2560,8 +3245,8 @@ theorem head_ok (f : Nat) (t : FTop) (rest : List FTop) (n : Nat) (base : Env) (
   | fnSet ls l gi code lines d =>
     simp only [okTop, Bool.and_eq_true] at hok
     have hF := hr.frame G (fun _ => Val.null)
-    have hs := (hall (f+1)).S (topAct st.cells.length base) st.cells.length CT [] (fun _ => Val.null) st ⟨[], g, h, a⟩
-      (fnSetStmt ls l gi code lines d) hI hF (Nat.le_refl _) hok.1
+    have hs := (hall (f+1)).S (topAct st.cells.length) st.cells.length CT [] ⟨fun _ => Val.null, base⟩ st ⟨[], g, h, a⟩
+      (fnSetStmt ls l gi code lines d) hI hF (Nat.le_refl _) hr.act hok.1
     rw [toTop_fnSet]
     refine Res.mono ?_ ?_ hs
     · rintro ⟨fl, v, env1⟩ s1 ⟨k, ⟨σ1, fl', bv⟩, hk, V0', vals1, CT1, henv, hfr, hn1, -⟩ hnormal
@@ -2577,12 +3262,12 @@ theorem head_ok (f : Nat) (t : FTop) (rest : List FTop) (n : Nat) (base : Env) (
         | mk l1 g1 h1 a1 =>
           have : l1 = [] := by simpa using hl1
           simp [this]
-      have henv' : env1 = base := henv
+      have henv' : env1 = vals1.base := henv
       subst henv'
       have hstep : stepT Φ g h a (.stmt (fnSetStmt ls l gi code lines d)) k = some (σ1.g, σ1.h, σ1.a) := by simp [stepT, hk']
       have hstep3 := mono_stepT Φ g h a _ k (k + 3) _ (Nat.le_add_right _ _) hstep
       rw [stepT_fnSet_eq Φ g h a ls l gi code lines d k 0] at hstep3
-      refine ⟨0, (σ1.g, σ1.h, σ1.a), CT1, st.cells.length, hstep3, ⟨?_, by rw [hg1]; exact hr.gl, hr.glob, hr.bound⟩, hok.2⟩
+      refine ⟨0, (σ1.g, σ1.h, σ1.a), CT1, st.cells.length, hstep3, ⟨?_, by rw [hg1]; exact hr.gl, (hn1.frame.topg rfl).1, hn1.frame.globals, hn1.act⟩, hok.2⟩
       rw [hσ1] at hI1; exact hI1
     · intro hnone k
       rw [← stepT_fnSet_eq Φ g h a ls l gi code lines d 0 k]
@@ -2592,14 +3277,16 @@ theorem head_ok (f : Nat) (t : FTop) (rest : List FTop) (n : Nat) (base : Env) (
     obtain ⟨⟨⟨⟨⟨⟨hgi0, hnG⟩, hΦ⟩, hnp⟩, hbody⟩, hlast⟩, hrest⟩ := hok
     subst hgi0
     rw [toTop, evalStmt_fnS_global _ _ _ _ _ _ _ hr.glob, run_fnSK _ _ _ _ _ _ _ (hI.fresh _ (Nat.le_refl _))]
-    have hp : CT <+: CT ++ [(mkFd code lines d, h.length)] := List.prefix_append _ _
+    let e0 : CE := ⟨mkFd code lines d, h.length, fnCtx N st.cells.length, st.cells.length⟩
+    have hp : CT <+: CT ++ [e0] := List.prefix_append _ _
     have hgi : st.cells.length < g.length := by rw [hr.gl]; exact hnG
-    have hentry : ClosEntry N Φ (CT ++ [(mkFd code lines d, h.length)]) (h ++ [[]]) st.cells.length
+    have hentry : ClosEntry N Φ (CT ++ [e0]) (h ++ [[]]) st.cells.length
         ⟨N.gn st.cells.length, params N 1 d.np, .mk d.line (toStmtsF N (fnCtx N st.cells.length) d.body),
-          captureEnv (bindTop (N.gn st.cells.length) (.g st.cells.length) base), l⟩ (mkFd code lines d) h.length := by
-      refine ⟨d, fnCtx N st.cells.length, st.cells.length, hΦ, rfl, rfl, rfl, Nat.succ_pos _, hnp, Nat.le_refl _, hbody, hlast, ?_, ?_,
-        fun d' i e => hN.gn_ln st.cells.length d' i e.symm, hN.gn_key st.cells.length⟩
+          captureEnv (bindTop (N.gn st.cells.length) (.g st.cells.length) base), l⟩ e0 := by
+      refine ⟨d, hΦ, rfl, rfl, rfl, Nat.succ_pos _, hnp, Nat.le_refl _, hbody, hlast, ?_, ?_,
+        fun d' i e => hN.gn_ln st.cells.length d' i e.symm, hN.gn_key st.cells.length, by simp [e0, fnCtx]⟩
       · intro j hj
+        have hj : j < st.cells.length := hj
         refine ⟨fun e => by have := hN.gn_inj _ _ e; omega, ?_⟩
         show lookupScope (N.gn j) (captureEnv (bindTop (N.gn st.cells.length) (.g st.cells.length) base)) = _
         rw [lookupScope_captureEnv, lookupEnv_bindTop]
@@ -2610,21 +3297,21 @@ theorem head_ok (f : Nat) (t : FTop) (rest : List FTop) (n : Nat) (base : Env) (
         simp only [Bool.false_eq_true, if_false]
         rw [hr.bound j hj]; rfl
       · intro j name hj
-        simp [fnCtx] at hj
-    have hI1 := hI.pushClos _ (mkFd code lines d) [] hentry
-    have hvr : VR (CT ++ [(mkFd code lines d, h.length)]) (.clos emptyFn [] (st.clos.length + 1)) (.clos (mkFd code lines d) [] h.length) :=
-      .inr (.inl ⟨st.clos.length, _, _, rfl, rfl, by rw [hI.closLen]; simp⟩)
+        simp [e0, fnCtx] at hj
+    have hI1 := hI.pushClos _ e0 [] rfl hentry
+    have hvr : VR (CT ++ [e0]) (.clos emptyFn [] (st.clos.length + 1)) (.clos (mkFd code lines d) [] h.length) :=
+      .inr (.inl ⟨st.clos.length, _, _, rfl, rfl, by rw [hI.closLen]; simp [oldCT, e0]⟩)
     have hI2 := hI1.defGlobal (v := .clos emptyFn [] (st.clos.length + 1)) (w := .clos (mkFd code lines d) [] h.length) hvr hgi
     intro _
-    exact ⟨0, (g.set st.cells.length (.clos (mkFd code lines d) [] h.length), h ++ [[]], a), CT ++ [(mkFd code lines d, h.length)],
-      st.cells.length + 1, by simp [stepT, hgi], hr.bind hN G hI2 (by simp [hr.gl]), hrest⟩
+    exact ⟨0, (g.set st.cells.length (.clos (mkFd code lines d) [] h.length), h ++ [[]], a), CT ++ [e0],
+      st.cells.length + 1, by simp [stepT, hgi], TopR.bind hN G hr.glob hr.bound hr.act hI2 (by simp [hr.gl]), hrest⟩
   | stmt s =>
     have hF := hr.frame G (fun _ => Val.null)
     have hgen : ∀ s', okS N Φ topCtx st.cells.length 0 [] s' = true → okTop N Φ G st.cells.length rest = true →
         Res (HeadQ N Φ G g h a (.stmt s') rest) (∀ k, stepT Φ g h a (.stmt s') k = none)
           (run (evalStmt (f+1) base (toStmtF N topCtx s')) st) := by
       intro s' hs' hrest
-      have hs := (hall (f+1)).S (topAct st.cells.length base) st.cells.length CT [] (fun _ => Val.null) st ⟨[], g, h, a⟩ s' hI hF (Nat.le_refl _) hs'
+      have hs := (hall (f+1)).S (topAct st.cells.length) st.cells.length CT [] ⟨fun _ => Val.null, base⟩ st ⟨[], g, h, a⟩ s' hI hF (Nat.le_refl _) hr.act hs'
       refine Res.mono ?_ ?_ hs
       · rintro ⟨fl, v, env1⟩ s1 ⟨k, ⟨σ1, fl', bv⟩, hk, V0', vals1, CT1, henv, hfr, hn1, -⟩ hnormal
         have hk' : Core.Fn.evalS Φ k none ⟨[], g, h, a⟩ s' = some (σ1, fl', bv) := hk
@@ -2639,9 +3326,9 @@ theorem head_ok (f : Nat) (t : FTop) (rest : List FTop) (n : Nat) (base : Env) (
           | mk l1 g1 h1 a1 =>
             have : l1 = [] := by simpa using hl1
             simp [this]
-        have henv' : env1 = base := henv
+        have henv' : env1 = vals1.base := henv
         subst henv'
-        refine ⟨k, (σ1.g, σ1.h, σ1.a), CT1, st.cells.length, by simp [stepT, hk'], ⟨?_, by rw [hg1]; exact hr.gl, hr.glob, hr.bound⟩, hrest⟩
+        refine ⟨k, (σ1.g, σ1.h, σ1.a), CT1, st.cells.length, by simp [stepT, hk'], ⟨?_, by rw [hg1]; exact hr.gl, (hn1.frame.topg rfl).1, hn1.frame.globals, hn1.act⟩, hrest⟩
         rw [hσ1] at hI1; exact hI1
       · intro hnone k
         simp [stepT, show Core.Fn.evalS Φ k none ⟨[], g, h, a⟩ s' = none from hnone k]
@@ -2651,7 +3338,7 @@ theorem head_ok (f : Nat) (t : FTop) (rest : List FTop) (n : Nat) (base : Env) (
       obtain ⟨⟨⟨hi0, hnG⟩, hoke⟩, hrest⟩ := hok
       subst hi0
       rw [toTop, toStmtF, evalStmt_let]
-      have he := (hall f).E' (topAct st.cells.length base) st.cells.length CT [] (fun _ => Val.null) st ⟨[], g, h, a⟩ e hI hF (Nat.le_refl _) hoke
+      have he := (hall f).E' (topAct st.cells.length) st.cells.length CT [] ⟨fun _ => Val.null, base⟩ st ⟨[], g, h, a⟩ e hI hF (Nat.le_refl _) hr.act hoke
       refine Res.bind he ?_ ?_
       · intro hnone k
         cases k with
@@ -2669,14 +3356,14 @@ theorem head_ok (f : Nat) (t : FTop) (rest : List FTop) (n : Nat) (base : Env) (
             have : l1 = [] := by simpa using hl1
             simp [this]
         have hcl1 : s1.cells.length = st.cells.length := hI1.cellsLen
-        show Res _ _ (run (letK st.cells.length (N.gn st.cells.length) (.val v base)) s1)
-        simp only [letK, hr.glob, if_true]
+        show Res _ _ (run (letK st.cells.length (N.gn st.cells.length) (.val v vals1.base)) s1)
+        simp only [letK, (hn1.frame.topg rfl).1, if_true]
         rw [run_defGlobal s1 st.cells.length v _ hcl1 (hI1.fresh _ (Nat.le_refl _))]
         have hI2 := hI1.defGlobal hv hlt
         intro _
         refine ⟨k + 1, ((σ1.g.set st.cells.length w), σ1.h, σ1.a), CT1, st.cells.length + 1, ?_, ?_, hrest⟩
         · simp [stepT, fS_letG, hk', hlt]
-        · refine hr.bind hN G ?_ (by simp [hg1, hr.gl])
+        · refine TopR.bind hN G (hn1.frame.topg rfl).1 hn1.frame.globals hn1.act ?_ (by simp [hg1, hr.gl])
           rw [hσ1] at hI2; exact hI2
     | expr l e => simp only [okTop] at hok; rw [Bool.and_eq_true] at hok; exact hgen _ hok.1 hok.2
     | block l b => simp only [okTop] at hok; rw [Bool.and_eq_true] at hok; exact hgen _ hok.1 hok.2
@@ -2740,8 +3427,9 @@ include hN
 omit hN in
 theorem TopR.init (N : Names) (Φ : FnDef → Option FDecl) (G : Nat) (h : List (List Val)) :
     TopR N Φ G 0 [[]] [] {} (List.replicate G .null) h {} :=
-  ⟨⟨rfl, fun k fd hid hk => by simp at hk, rfl, Nat.zero_le _, fun j hj => absurd hj (Nat.not_lt_zero j), fun _ _ => rfl, HR.init []⟩,
-   List.length_replicate, rfl, fun j hj => absurd hj (Nat.not_lt_zero j)⟩
+  ⟨⟨rfl, fun k e hk => by simp at hk, rfl, Nat.zero_le _, fun j hj => absurd hj (Nat.not_lt_zero j), fun _ _ => rfl, HR.init [],
+    fun k k' e e' hk => by simp at hk, fun k e hk => by simp at hk⟩,
+   List.length_replicate, rfl, fun j hj => absurd hj (Nat.not_lt_zero j), rfl⟩
 
 /-- **whole programs with functions and closures** (`…_partial`: the programs `okTop`).  If the oracle runs the
 embedding of the program from the empty state to its normal end, `Core.Fn.evalT` -- the semantics
@@ -2971,6 +3659,32 @@ example : ∃ (k : Nat) (g' : List Val) (h' : List (List Val)) (a' : Heap) (z u 
 
 example : (Core.Fn.ofTops 60 ⟨0, [], []⟩ 0 (toTops stdNames retT)).map (·.1) = some retT := by rfl
 
+/-! ### `+` on two arrays (a new object with the elements of both), `+` on two variables
+```
+let x = [1, 2]; let y = [3];
+let z = x + y;
+let s = z[2] + z[0];     // 4
+``` -/
+def catT : List FTop := [
+  .stmt (.letG 1 0 (.arrLit 1 (.cons (.lit 1 (.int 1)) (.cons (.lit 1 (.int 2)) .nil)))),
+  .stmt (.letG 2 1 (.arrLit 2 (.cons (.lit 2 (.int 3)) .nil))),
+  .stmt (.letG 3 2 (.bin 3 .add (.gget 3 0) (.gget 3 1))),
+  .stmt (.letG 4 3 (.bin 4 .add (.index 4 (.gget 4 2) (.lit 4 (.int 2))) (.index 4 (.gget 4 2) (.lit 4 (.int 0)))))]
+
+theorem catT_ok (Φ : FnDef → Option FDecl) : okTop stdNames Φ 4 0 catT = true := by
+  simp [catT, okTop, okE, okArgs, topCtx, deepOK, nonArrE, isDeep]
+
+theorem catT_ref : cellInts (run (evalStmts 60 [[]] (toTops stdNames catT) .null) {}) = some [none, none, none, some 4] := by
+  decide +kernel
+
+example : ∃ (k : Nat) (g' : List Val) (h' : List (List Val)) (a' : Heap) (x : Int64),
+    Core.Fn.evalT (Core.Fn.phiT catT) k (List.replicate 4 .null) [[]] {} catT = some (g', h', a') ∧
+    g'[3]? = some (.int x) ∧ x.toInt = 4 := by
+  obtain ⟨v, env', st', hrun, hcells⟩ := of_cellInts catT_ref
+  obtain ⟨k, g', h', a', CT, n', hev, hr⟩ := ref_program_fn_arr_partial stdNames_ok 4 [[]] (catT_ok _) hrun
+  obtain ⟨x, hx1, hx2⟩ := hr.int_at hcells (j := 3) (i := 4) rfl
+  exact ⟨k, g', h', a', x, hev, hx1, hx2⟩
+
 /-! ### a runtime error of the oracle: an index out of range (`let x = [1]; let y = x[5];`) -/
 
 def oobT : List FTop := [
@@ -2991,11 +3705,12 @@ example : ∀ k, Core.Fn.evalT (Core.Fn.phiT oobT) k (List.replicate 2 .null) [[
     exact ref_program_fn_arr_error_partial stdNames_ok 2 [[]] (oobT_ok _) ho
   · simp [rtLine] at h
 
-/-! ### FINDING: why `==` / `!=` / `+` on two arrays are outside the fragment
+/-! ### FINDING (repaired in `Spec/Ref.lean`): why `==` / `!=` on two arrays are outside the fragment
 
 The oracle looks into arrays through `reifyM` with the FIXED depth `reifyDepth = 64`; where the fuel of `reify` runs out it
 leaves the shallow reference `.arr id []`, which `Spec.specEqList` then reads as an EMPTY array.  So for arrays nested
-64 deep whose innermost elements differ the oracle COMMITS to `a == b` being `true`:
+64 deep whose innermost elements differ the oracle COMMITTED to `a == b` being `true` (now: `reifyM` answers `unc`
+when `expandsWithin` fails, so the oracle no longer commits on a cut-off view):
 ```
 let a = [1]; let b = [2]; let i = 0;
 while i < 64 { a = [a]; b = [b]; i = i + 1; }
@@ -3026,8 +3741,8 @@ def coreBool (r : Option (List Val × List (List Val) × Heap)) (i : Nat) : Opti
   | some (g, _, _) => (match g[i]? with | some (.bool b) => some b | _ => none)
   | none => none
 
-/-- the oracle: `r = true` … -/
-theorem deep_oracle : cellBool (run (evalStmts 200 [[]] (toTops stdNames (deepT 64 1 2)) .null) {}) 3 = some true := by
+/-- the oracle (after the repair of `reifyM`: `expandsWithin`): `unc` -- before the repair it committed to `r = true` … -/
+theorem deep_oracle : isUnc (run (evalStmts 200 [[]] (toTops stdNames (deepT 64 1 2)) .null) {}) = true := by
   decide +kernel
 
 /-- … Core.Fn (and the implementation): `r = false` -/
@@ -3042,7 +3757,138 @@ theorem deep63_oracle : cellBool (run (evalStmts 200 [[]] (toTops stdNames (deep
 example (Φ : FnDef → Option FDecl) : okTop stdNames Φ 4 0 (deepT 64 1 2) = false := by
   simp [deepT, lit1, okTop, okP, okS, okE, okArgs, topCtx, visAfter, deepOK, nonArrE, isDeep]
 
+/-! ## non-vacuity (Stage C2: assignment to captured variables)
+
+```
+fn counter() { let n = 0; return fn() { n = n + 1; n }; }
+let c1 = counter();
+let c2 = counter();
+let a = c1();        // 1
+let b = c2();        // 1: the two closure objects have their own copies of `n`
+``` -/
+
+def incBody : List FStmt := [.expr 1 (.fset 1 0 (.bin 1 .add (.fget 1 0) (.lit 1 (.int 1)))), .expr 1 (.fget 1 0)]
+def incD : FDecl := ⟨0, 0, incBody, 1⟩
+def incLit : FExpr := .mkclos 1 (Core.Fn.fnTop 1 incD).1 (Core.Fn.fnTop 1 incD).2 0 0 incBody [.loc 0]
+def counterD : FDecl := ⟨0, 1, [.letL 1 0 (.lit 1 (.int 0)), .ret 1 incLit], 1⟩
+
+def counterT : List FTop := [
+  .fnDef 1 0 (Core.Fn.fnTop 0 counterD).1 (Core.Fn.fnTop 0 counterD).2 counterD,
+  .stmt (.letG 2 1 (.call 2 (.gget 2 0) .nil)),
+  .stmt (.letG 3 2 (.call 3 (.gget 3 0) .nil)),
+  .stmt (.letG 4 3 (.call 4 (.gget 4 1) .nil)),
+  .stmt (.letG 5 4 (.call 5 (.gget 5 2) .nil))]
+
+theorem counterT_ok' (Φ : FnDef → Option FDecl)
+    (h1 : Φ (mkFd (Core.Fn.fnTop 0 counterD).1 (Core.Fn.fnTop 0 counterD).2 counterD) = some counterD)
+    (h2 : Φ (mkFd (Core.Fn.fnTop 1 incD).1 (Core.Fn.fnTop 1 incD).2 incD) = some incD) :
+    okTop stdNames Φ 5 0 counterT = true := by
+  simp only [counterT, counterD, incLit, incD, incBody] at h1 h2 ⊢
+  simp [okTop, okP, okS, okE, okArgs, okCap, lastOK, paramVis, fnCtx, topCtx, visAfter, capName, deepOK, nonArrE, isDeep, h1, h2]
+
+theorem counterT_ok : okTop stdNames (Core.Fn.phiT counterT) 5 0 counterT = true := counterT_ok' _ (by rfl) (by rfl)
+
+/-- the oracle runs the program to its normal end: `a = 1`, `b = 1` -/
+theorem counterT_ref : cellInts (run (evalStmts 80 [[]] (toTops stdNames counterT) .null) {}) =
+    some [none, none, none, some 1, some 1] := by
+  decide +kernel
+
+/-- … hence Core.Fn's `evalT` and the compiled program on the machine end with the integer 1 in `a` and in `b` -/
+example : ∃ (g' : List Val) (h' : List (List Val)) (a' : Heap) (x y : Int64),
+    Core.Fn.FSteps (Core.Fn.constsT counterT) (Core.Fn.codeT counterT)
+      ⟨⟨Core.Fn.compileT 0 0 counterT, ⟨[], [], 0, 0, 0⟩, 0, 0, 0⟩, [], List.replicate 5 .null, [[]], {}, []⟩
+      ⟨⟨Core.Fn.compileT 0 0 counterT, ⟨[], [], 0, 0, 0⟩, 0, Core.bytes (Core.Fn.compileT 0 0 counterT), 0⟩, [], g', h', a', []⟩ ∧
+    g'[3]? = some (.int x) ∧ x.toInt = 1 ∧ g'[4]? = some (.int y) ∧ y.toInt = 1 := by
+  obtain ⟨v, env', st', hrun, hcells⟩ := of_cellInts counterT_ref
+  obtain ⟨g', h', a', CT, n', hsteps, hr⟩ := ref_program_fn_arr_compiled_partial stdNames_ok 5 [[]] counterT_ok hrun
+  obtain ⟨x, hx1, hx2⟩ := hr.int_at hcells (j := 3) (i := 1) rfl
+  obtain ⟨y, hy1, hy2⟩ := hr.int_at hcells (j := 4) (i := 1) rfl
+  exact ⟨g', h', a', x, y, hsteps, hx1, hx2, hy1, hy2⟩
+
+example : (Core.Fn.ofTops 60 ⟨0, [], []⟩ 0 (toTops stdNames counterT)).map (·.1) = some counterT := by rfl
+
+/-- a SECOND call of the same closure object (`let d = c1();` appended): the oracle's copy of `n` is poisoned, the run
+ends in `unc` -- the hypothesis of `ref_program_fn_arr_partial` (a run to the normal end) does not hold, the theorem
+claims nothing; Core.Fn (the VM's behaviour) answers `d = 2` -/
+def counterT2 : List FTop := counterT ++ [.stmt (.letG 6 5 (.call 6 (.gget 6 1) .nil))]
+
+theorem counterT2_oracle : isUnc (run (evalStmts 80 [[]] (toTops stdNames counterT2) .null) {}) = true := by
+  decide +kernel
+
+theorem counterT2_coreFn : (Core.Fn.evalT (Core.Fn.phiT counterT2) 60 (List.replicate 6 .null) [[]] {} counterT2).map (fun r => r.1.map intOf) =
+    some [none, none, none, some 1, some 1, some 2] := by
+  decide +kernel
+
+/-! ### a closure that assigns a captured variable AND calls (the call does not re-enter the closure object)
+```
+fn mk() { let n = 0; return fn(f) { n = f(n); n }; }
+fn inc(x) { x + 1 }
+let c = mk();
+let a = c(inc);      // 1
+``` -/
+
+def accBody : List FStmt := [.expr 1 (.fset 1 0 (.call 1 (.lget 1 0) (.cons (.fget 1 0) .nil))), .expr 1 (.fget 1 0)]
+def accD : FDecl := ⟨1, 1, accBody, 1⟩
+def accLit : FExpr := .mkclos 1 (Core.Fn.fnTop 1 accD).1 (Core.Fn.fnTop 1 accD).2 1 1 accBody [.loc 0]
+def accMkD : FDecl := ⟨0, 1, [.letL 1 0 (.lit 1 (.int 0)), .ret 1 accLit], 1⟩
+def incFD : FDecl := ⟨1, 1, [.expr 1 (.bin 1 .add (.lget 1 0) (.lit 1 (.int 1)))], 1⟩
+
+def accT : List FTop := [
+  .fnDef 1 0 (Core.Fn.fnTop 0 accMkD).1 (Core.Fn.fnTop 0 accMkD).2 accMkD,
+  .fnDef 2 1 (Core.Fn.fnTop 3 incFD).1 (Core.Fn.fnTop 3 incFD).2 incFD,
+  .stmt (.letG 3 2 (.call 3 (.gget 3 0) .nil)),
+  .stmt (.letG 4 3 (.call 4 (.gget 4 2) (.cons (.gget 4 1) .nil)))]
+
+theorem accT_ok' (Φ : FnDef → Option FDecl)
+    (h1 : Φ (mkFd (Core.Fn.fnTop 0 accMkD).1 (Core.Fn.fnTop 0 accMkD).2 accMkD) = some accMkD)
+    (h2 : Φ (mkFd (Core.Fn.fnTop 1 accD).1 (Core.Fn.fnTop 1 accD).2 accD) = some accD)
+    (h3 : Φ (mkFd (Core.Fn.fnTop 3 incFD).1 (Core.Fn.fnTop 3 incFD).2 incFD) = some incFD) :
+    okTop stdNames Φ 4 0 accT = true := by
+  simp only [accT, accMkD, accLit, accD, accBody, incFD] at h1 h2 h3 ⊢
+  simp [okTop, okP, okS, okE, okArgs, okCap, lastOK, paramVis, fnCtx, topCtx, visAfter, capName, deepOK, nonArrE, isDeep, h1, h2, h3]
+
+theorem accT_ok : okTop stdNames (Core.Fn.phiT accT) 4 0 accT = true := accT_ok' _ (by rfl) (by rfl) (by rfl)
+
+theorem accT_ref : cellInts (run (evalStmts 80 [[]] (toTops stdNames accT) .null) {}) = some [none, none, none, some 1] := by
+  decide +kernel
+
+example : ∃ (k : Nat) (g' : List Val) (h' : List (List Val)) (a' : Heap) (x : Int64),
+    Core.Fn.evalT (Core.Fn.phiT accT) k (List.replicate 4 .null) [[]] {} accT = some (g', h', a') ∧
+    g'[3]? = some (.int x) ∧ x.toInt = 1 := by
+  obtain ⟨v, env', st', hrun, hcells⟩ := of_cellInts accT_ref
+  obtain ⟨k, g', h', a', CT, n', hev, hr⟩ := ref_program_fn_arr_partial stdNames_ok 4 [[]] accT_ok hrun
+  obtain ⟨x, hx1, hx2⟩ := hr.int_at hcells (j := 3) (i := 1) rfl
+  exact ⟨k, g', h', a', x, hev, hx1, hx2⟩
+
+
+/-! ### re-entrancy: the program `RefFn.reT` (a nested activation of the SAME closure object assigns) is in the fragment,
+the oracle answers `unc` there (`St.active`), so the theorems claim nothing; Core.Fn answers `r = 5` (`RefFn.reT_coreFn`) -/
+
+theorem reT_ok' (Φ : FnDef → Option FDecl)
+    (h1 : Φ (mkFd (Core.Fn.fnTop 0 reMkD).1 (Core.Fn.fnTop 0 reMkD).2 reMkD) = some reMkD)
+    (h2 : Φ (mkFd (Core.Fn.fnTop 1 reD).1 (Core.Fn.fnTop 1 reD).2 reD) = some reD) :
+    okTop stdNames Φ 3 0 reT = true := by
+  simp only [reT, reMkD, reLit, reD, reBody] at h1 h2 ⊢
+  simp [okTop, okP, okS, okE, okArgs, okCap, lastOK, paramVis, fnCtx, topCtx, visAfter, capName, deepOK, nonArrE, isDeep, h1, h2]
+
+theorem reT_ok : okTop stdNames (Core.Fn.phiT reT) 3 0 reT = true := reT_ok' _ (by rfl) (by rfl)
+
+theorem reT_oracle_unc : isUnc (run (evalStmts 80 [[]] (toTops stdNames reT) .null) {}) = true := by
+  decide +kernel
+
 end Examples
+
+/-- the same theorems under the names of Stage C2 -/
+theorem ref_program_fn_fset_partial {N : Names} {Φ : FnDef → Option FDecl} (hN : NamesOK N) (G : Nat) {T : List FTop} {fuel : Nat} {v : Val}
+    {env' : Env} {st' : St} (h : List (List Val)) (hok : okTop N Φ G 0 T = true)
+    (hrun : run (evalStmts fuel [[]] (toTops N T) .null) {} = (.ok (.normal, v, env'), st')) :
+    ∃ k g' h' a' CT n', Core.Fn.evalT Φ k (List.replicate G .null) h {} T = some (g', h', a') ∧
+      TopR N Φ G n' env' CT st' g' h' a' := ref_program_fn_arr_partial hN G h hok hrun
+
+theorem ref_program_fn_fset_error_partial {N : Names} {Φ : FnDef → Option FDecl} (hN : NamesOK N) (G : Nat) {T : List FTop} {fuel l : Nat}
+    {st' : St} (h : List (List Val)) (hok : okTop N Φ G 0 T = true)
+    (hrun : run (evalStmts fuel [[]] (toTops N T) .null) {} = (.error (.rt l), st')) :
+    ∀ k, Core.Fn.evalT Φ k (List.replicate G .null) h {} T = none := ref_program_fn_arr_error_partial hN G h hok hrun
 
 #print axioms ref_program_fn_arr_partial
 #print axioms ref_program_fn_arr_error_partial
